@@ -46,6 +46,10 @@ def pin_of(node):
     return hashlib.sha1(norm_dump(node).encode()).hexdigest()[:16]
 
 
+class LetName(str):
+    """name of a plain `let` among the pending bindings (an object update threaded through the frame; not a raising call)"""
+
+
 class Source:
     """functions and methods of one source file, by qualified name"""
 
@@ -60,6 +64,11 @@ class Source:
                 for m in n.body:
                     if isinstance(m, ast.FunctionDef):
                         self.defs[f'{n.name}.{m.name}'] = m
+        for outer, fn in list(self.defs.items()):
+            # functions defined directly in the body of a function / method: 'outer.inner' (closure-free ones translate)
+            for m in fn.body:
+                if isinstance(m, ast.FunctionDef):
+                    self.defs.setdefault(f'{outer}.{m.name}', m)
 
     def get(self, qual):
         if qual not in self.defs:
@@ -73,6 +82,74 @@ class Source:
 
     def decorators(self, qual):
         return [ast.unparse(d) for d in self.get(qual).decorator_list]
+
+
+class Sources(Source):
+    """the functions and methods of several source files taken together (a unit whose instances live in more than one
+    file: a property defined in a base class of `_base.py` and overridden in `structures.py`); a qualified name must be
+    defined in one file only"""
+
+    def __init__(self, paths):
+        self.path = paths[0]
+        self.paths = list(paths)
+        self.defs = {}
+        for p in paths:
+            for q, n in Source(p).defs.items():
+                if q in self.defs:
+                    raise Unsupported(f'`{q}` is defined in more than one of {[os.path.basename(x) for x in paths]}')
+                self.defs[q] = n
+
+
+class SourceSet(Source):
+    """several source files read as one *with their class hierarchy* (SrcWkt): the definitions of all of them by qualified
+    name, plus the base classes of every class, so that an inherited method is found where Python finds it"""
+
+    def __init__(self, paths):
+        self.path = paths[0]
+        self.paths = list(paths)
+        self.defs, self.bases, self.where = {}, {}, {}
+        for p in paths:
+            s = Source(p)
+            for q, d in s.defs.items():
+                if q in self.defs:
+                    raise Unsupported(f'`{q}` is defined in {os.path.basename(self.where[q])} and {os.path.basename(p)}')
+                self.defs[q], self.where[q] = d, p
+            for n in s.tree.body:
+                if isinstance(n, ast.ClassDef):
+                    if n.name in self.bases:
+                        raise Unsupported(f'class `{n.name}` is defined twice')
+                    self.bases[n.name] = [b.id if isinstance(b, ast.Name) else ast.unparse(b) for b in n.bases]
+
+    def mro(self, cls):
+        """C3 linearisation over the classes of these files (bases defined elsewhere — ABC, Protocol — hold no method of
+        interest and are left out)"""
+        if cls not in self.bases:
+            raise Unsupported(f'class `{cls}` not found')
+        parents = [b for b in self.bases[cls] if b in self.bases]
+        seqs = [self.mro(b) for b in parents] + [list(parents)]
+        out = [cls]
+        while any(seqs):
+            seqs = [s for s in seqs if s]
+            for s in seqs:
+                head = s[0]
+                if not any(head in t[1:] for t in seqs):
+                    break
+            else:
+                raise Unsupported(f'no consistent method resolution order for `{cls}`')
+            out.append(head)
+            seqs = [[x for x in s if x != head] for s in seqs]
+        return out
+
+    def resolve(self, cls, attr, after=None):
+        """qualified name of the definition `cls().attr` reaches (`after`: the search starts behind that class, as
+        `super()` inside a method of `after` does); None when no class of the set defines it"""
+        order = self.mro(cls)
+        if after is not None:
+            order = order[order.index(after) + 1:] if after in order else []
+        for c in order:
+            if f'{c}.{attr}' in self.defs:
+                return f'{c}.{attr}'
+        return None
 
 
 # ----------------------------------------------------------------------------------------------------------
@@ -89,16 +166,21 @@ class Inst:
 
     def __init__(self, qual, lean, params, ret, doc='', kw=None, state=()):
         self.qual, self.lean, self.params, self.ret, self.doc = qual, lean, list(params), ret, doc
-        self.kw = kw                # (python name, type) of a `**kwargs` parameter that is a real binder of the definition
-        self.state = tuple(state)   # parameters the function mutates: their final values are returned next to the result
+        self.kw = kw                # (geojson_doc) (python name, type) of a `**kwargs` parameter that is a real binder
+        self.state = tuple(state)   # (geojson_doc) parameters the function mutates: their final values are returned too
 
     @property
     def raises(self):
         return self.ret.startswith('Except ')
 
     @property
+    def heaped(self):
+        """'Heap T' (units with hook `pycoll`): the instance creates / mutates objects — it takes the heap, returns (heap, T)"""
+        return self.ret.startswith('Heap ')
+
+    @property
     def value_type(self):
-        return self.ret[len('Except '):] if self.raises else self.ret
+        return self.ret[len('Except '):] if self.raises else self.ret[len('Heap '):] if self.heaped else self.ret
 
     def key(self):
         return (self.qual, tuple(t for _n, t in self.params[1:])) if self.params and self.params[0][0] == 'self' \
@@ -111,9 +193,13 @@ LEAN_TYPE = {'Dt': 'Int', 'Td': 'Int', 'Int': 'Int', 'Bool': 'Bool', 'TI': 'GV.T
 
 def lean_type(t):
     if t.startswith('Except '):
-        return 'Except String ' + _ptype(lean_type(t[7:]))
+        return 'Except String ' + _parenw(lean_type(t[7:]))
+    if t.startswith('Heap '):
+        return LEAN_TYPE['HeapT'] + ' × ' + _parenw(lean_type(t[5:]))
     if t.startswith('Prod '):
         return ' × '.join(_paren(lean_type(p)) for p in _prod_parts(t))
+    if t.startswith('List Prod '):
+        return 'List ' + _parenw(lean_type(t[5:]))         # (`(A) × (B)` is not one parenthesised group)
     if t.startswith('List '):
         return 'List ' + _paren(lean_type(t[5:]))
     if t.startswith('Fn '):
@@ -121,34 +207,57 @@ def lean_type(t):
         return f'{lean_type(dom)} → {lean_type(cod)}'
     if t.startswith('Set '):
         return 'List ' + _paren(lean_type(t[4:]))
+    if t.startswith('DDL '):                       # defaultdict(list) of the `pycoll` units: insertion-ordered (key, values) pairs
+        k, v = _prod_parts('Prod ' + t[4:])
+        return f'List ({lean_type(k)} × List {_paren(lean_type(v))})'
+    if t.startswith(('DDict ', 'Dict ')) and len(t.split()) == 3:
+        # `defaultdict(list)` key -> list of values / a plain dict, both as association lists in insertion order
+        k, v = t.split()[1:3]
+        return f'List ({lean_type(k)} × {_paren("List " + _paren(lean_type(v))) if t.startswith("DDict ") else _paren(lean_type(v))})'
     if t.startswith('Opt ') and t not in LEAN_TYPE:
         return 'Option ' + _paren(lean_type(t[4:]))
     if t.startswith('Tuple') and ' ' in t:
         n, et = int(t.split()[0][5:]), t.split(' ', 1)[1]
         return ' × '.join([_paren(lean_type(et))] * n)
+    if t.startswith('Cells') and ' ' in t:          # a fixed-length list used only through constant subscripts
+        n, et = int(t.split()[0][5:]), t.split(' ', 1)[1]
+        return ' × '.join([_paren(lean_type(et))] * n)
     if t in LEAN_TYPE:
         return LEAN_TYPE[t]
+    if t.startswith('Pair '):
+        return ' × '.join([_paren(lean_type(t[5:]))] * 2)
     return t
 
 
-def _ptype(s):
-    """a Lean type as an argument: parenthesised unless atomic or already enclosed (`(A) × B` is not enclosed)"""
-    if ' ' not in s:
-        return s
-    if s.startswith('('):
-        depth = 0
-        for i, ch in enumerate(s):
-            depth += ch == '('
-            depth -= ch == ')'
-            if depth == 0:
-                if i == len(s) - 1:
-                    return s
-                break
-    return f'({s})'
+def mk_prod(types):
+    """the type tag of a tuple of the given component types: right-nested `Prod A (Prod B C)`"""
+    types = list(types)
+    if len(types) == 1:
+        return types[0]
+    a, b = types[0], mk_prod(types[1:])
+    return 'Prod ' + ' '.join(f'({x})' if ' ' in x else x for x in (a, b))
 
 
 def _paren(s):
     return f'({s})' if ' ' in s and not s.startswith('(') else s
+
+
+def _parenw(s):
+    """like `_paren`, but `(A) × (B)` — which starts with `(` without being one group — is wrapped too"""
+    return f'({s})' if ' ' in s and not _wrapped(s) else s
+
+
+def _wrapped(s):
+    """`s` is one parenthesised group: its first `(` closes at its last character"""
+    if not (s.startswith('(') and s.endswith(')')):
+        return False
+    depth = 0
+    for i, ch in enumerate(s):
+        depth += ch == '('
+        depth -= ch == ')'
+        if depth == 0 and i < len(s) - 1:
+            return False
+    return True
 
 
 LEAN_RESERVED = {'end', 'at', 'from', 'in', 'then', 'else', 'do', 'let', 'fun', 'match', 'with', 'where', 'instance', 'class',
@@ -209,7 +318,8 @@ class Unit:
             if got != digest:
                 raise Unsupported(f'pinned helper `{qual}` changed (AST digest {got}, pinned {digest})')
         out = [f'import {m}' for m in self.imports]
-        out += ['/-!', f'# GENERATED by harness/py2lean.py from `{os.path.relpath(self.src.path, os.path.dirname(os.path.dirname(self.src.path)))}`'
+        shown_from = '`, `'.join(os.path.relpath(p, os.path.dirname(os.path.dirname(p))) for p in getattr(self.src, 'paths', [self.src.path]))
+        out += ['/-!', f'# GENERATED by harness/py2lean.py from `{shown_from}`'
                ' on every run. Do not edit.', '',
                'One definition per (function, static argument types) instance of the current source text.', '-/']
         out += ['', 'set_option linter.unusedVariables false', '', f'namespace {self.ns}', '']
@@ -222,11 +332,15 @@ class Unit:
 
     def render_inst(self, inst):
         fn = self.src.get(inst.qual)
+        want = self.hooks.get('decorators', {}).get(inst.qual)          # decorators a unit relies on (`property`, not cached)
+        if want is not None and self.src.decorators(inst.qual) != want:
+            raise Unsupported(f'`{inst.qual}`: decorators {self.src.decorators(inst.qual)}, the unit reads it under {want}')
         tr = FnTr(self, inst, fn)
         body = tr.function_body()
         binders = ' '.join([f'({n} : {t})' for n, t in self.ctx_params] +
+                           ([f'(heap_0 : {LEAN_TYPE["HeapT"]})'] if inst.heaped else []) +
                            [f'({lname(n)} : {lean_type(t)})' for n, t in inst.params if t != 'None'] +
-                           ([f'({lname(inst.kw[0])} : {lean_type(inst.kw[1])})'] if inst.kw else []))
+                           ([f'({lname(inst.kw[0])} : {lean_type(inst.kw[1])})'] if getattr(inst, 'kw', None) else []))
         shown = ast.parse(ast.unparse(fn)).body[0]
         if (shown.body and isinstance(shown.body[0], ast.Expr) and isinstance(getattr(shown.body[0], 'value', None), ast.Constant)
                 and isinstance(shown.body[0].value.value, str) and len(shown.body) > 1):
@@ -238,6 +352,8 @@ class Unit:
         doc += ['```', '-/']
         head = f'def {inst.lean} {binders} : {lean_type(inst.ret)} :='
         pre = []
+        for a in tr.lifted:                   # (`local_defs`) lifted local classes / nested functions, in order of completion
+            pre += a.split('\n') + ['']
         for a in reversed(tr.aux):            # inner loops were completed first and are used by the outer ones
             pre += a.split('\n') + ['']
         return pre + doc + [head] + ['  ' + ln for ln in body.split('\n')]
@@ -260,11 +376,18 @@ class FnTr:
         self.on_fall = None      # inside a loop body: what "falling off the end" means (next iteration)
         self.aux = []            # auxiliary recursive definitions (loops), emitted before the function
         self.fields = {}         # __init__: attribute -> Val
+        self.localfns = {}       # name of a function defined in this body -> its qualified name ('outer.inner')
+        # unit hook `local_defs` (SrcSweep): nested `def`s lifted at their first call with inferred types, local classes
+        self.local_fns = {}      # nested `def`s met so far: name -> FunctionDef (see lift_local_fn)
+        self.local_classes = {}  # nested `class`es: name -> dict(node, owner, tag, fields, methods)
+        self.lifted = []         # Lean text of the lifted definitions (structures, nested functions), dependencies first
+        self.lifted_insts = {}   # (name, argument types, captured types) -> (Inst, captured names)
+        self.heap = 'heap_0' if inst.heaped else None      # Lean text of the current heap (instances declared 'Heap T')
         for n, t in inst.params:
             self.env[n] = Val(lname(n), t, path=n)
         if fn.args.kwarg is not None:
             self.env[fn.args.kwarg.arg] = Val('()', 'Kw')          # **kwargs: only what a unit's `method` hook reads from it
-            if inst.kw:                                              # … or a declared binder (a record the unit's hooks read)
+            if getattr(inst, 'kw', None):                            # (geojson_doc) … or a declared binder read by the unit's hooks
                 self.env[fn.args.kwarg.arg] = Val(lname(inst.kw[0]), inst.kw[1], path=inst.kw[0])
         want = [a.arg for a in fn.args.args]
         have = [n for n, _t in inst.params]
@@ -282,6 +405,8 @@ class FnTr:
                     self.env[n] = Val('true' if d.value else 'false', 'Bool')
                 elif isinstance(d, ast.Constant) and d.value is None:
                     self.env[n] = Val('()', 'None')
+                elif isinstance(d, ast.Constant) and isinstance(d.value, int) and unit.hooks.get('wkt_text'):
+                    self.env[n] = Val(f'({d.value} : Int)', 'Int')
                 # other defaults stay unbound: using them is reported as an unsupported name
 
     def sub(self):
@@ -291,12 +416,21 @@ class FnTr:
         c.fresh = self.fresh
         c.pending = []
         c.on_fall = self.on_fall
+        c.on_break = getattr(self, 'on_break', None)
         c.aux = self.aux         # shared: loops met in any branch are emitted once, before the function
+        c.localfns = dict(getattr(self, 'localfns', {}))
+        c.no_return = getattr(self, 'no_return', False)
+        c.heap = getattr(self, 'heap', None)
+        c.local_fns, c.local_classes = getattr(self, 'local_fns', {}), getattr(self, 'local_classes', {})
+        c.lifted, c.lifted_insts = getattr(self, 'lifted', []), getattr(self, 'lifted_insts', {})
         return c
 
     def wrap(self, text):
         """bind the raising calls met while translating the expression(s) `text` reads, in evaluation order"""
         for name, call in reversed(self.pending):
+            if isinstance(name, LetName):            # an object update / effectful call: a plain binding, in evaluation order
+                text = f'let {name} := {call}\n{text}'
+                continue
             text = f'match {call} with\n| Except.error e => Except.error e\n| Except.ok {name} =>\n{_indent(text)}'
         self.pending = []
         return text
@@ -307,9 +441,12 @@ class FnTr:
 
     # ---- results ---------------------------------------------------------------------------------------
     def ok(self, text):
+        if getattr(self, 'heap', None) is not None:
+            return f'({self.heap}, {text})'
         return f'Except.ok {_paren(text)}' if self.inst.raises else text
 
     def err(self, exc):
+        self.check_clean(f'raise {exc}')
         if not self.inst.raises:
             raise Unsupported(f'`{self.inst.qual}`: reachable `raise` in an instance declared not to raise')
         name = {'ValueError': 'ERR:Value', 'TypeError': 'ERR:Type', 'KeyError': 'ERR:Key', 'IndexError': 'ERR:Index',
@@ -326,6 +463,10 @@ class FnTr:
     def always_returns(self, stmts):
         for s in stmts:
             if isinstance(s, (ast.Return, ast.Raise)):
+                return True
+            if isinstance(s, ast.Break) and getattr(self, 'on_break', None) is not None:
+                return True
+            if isinstance(s, ast.Continue) and self.u.hooks.get('local_defs'):
                 return True
             if isinstance(s, ast.If):
                 st = self.static_test(s.test)
@@ -345,7 +486,31 @@ class FnTr:
                 return self.finish_init()
             raise Unsupported(f'`{self.inst.qual}`: control can fall off the end (returns None)')
         s, rest = stmts[0], stmts[1:]
+        if self.u.hooks.get('geojson_doc'):
+            ext = self.gj_stmt(s, rest)           # dict stores, appends of raising values, nested defs with declared types: see `gj_stmt`
+            if ext is not None:
+                return ext
+        if self.u.hooks.get('worklist'):
+            ext = self.ext_stmt(s, rest)          # work-list subset (local sets / dicts, nested loops): see `ext_stmt`
+            if ext is not None:
+                return ext
+        if self.u.hooks.get('pycoll'):
+            ext = self.pc_stmt(s, rest)           # `continue`, appends with raising arguments, `d[k].append(v)`: see `pc_stmt`
+            if ext is not None:
+                return ext
+        if self.u.hooks.get('local_defs'):
+            ext = self.ld_stmt(s, rest)           # nested defs lifted by inference, local classes, sets of objects: see `ld_stmt`
+            if ext is not None:
+                return ext
         if isinstance(s, (ast.Pass, ast.Import, ast.ImportFrom)):
+            return self.block(rest)
+        if isinstance(s, ast.FunctionDef) and not s.decorator_list and f'{self.inst.qual}.{s.name}' in self.u.src.defs \
+                and self.u.src.defs[f'{self.inst.qual}.{s.name}'] is s:
+            # a local function: translated as its own instance(s) 'outer.inner'; here only the name is bound
+            if not hasattr(self, 'localfns'):
+                self.localfns = {}
+            self.localfns[s.name] = f'{self.inst.qual}.{s.name}'
+            self.env.pop(s.name, None)
             return self.block(rest)
         if isinstance(s, ast.Expr):
             if isinstance(s.value, ast.Constant):
@@ -380,17 +545,26 @@ class FnTr:
                     raise Unsupported(f'append of {v.typ} to {old.typ}')
                 nm = self.gensym(lname(n))
                 self.env[n] = Val(nm, old.typ, path=n)
-                pend, self.pending = self.pending, []            # a raising call in the appended value is bound first
-                inner = f'let {nm} := ({old.text} ++ [{v.text}])\n' + self.block(rest)
-                self.pending = pend
-                return self.wrap(inner)
+                return f'let {nm} := ({old.text} ++ [{v.text}])\n' + self.block(rest)
+            if isinstance(c, ast.Call) and isinstance(c.func, ast.Attribute) and c.func.attr == 'pop' and not c.args and not c.keywords \
+                    and isinstance(c.func.value, ast.Name) and c.func.value.id in self.env \
+                    and self.env[c.func.value.id].typ.startswith('List '):
+                # `xs.pop()` as a statement on a local list: drops the last element, IndexError on the empty list
+                if not self.inst.raises:
+                    raise Unsupported(f'`{self.inst.qual}`: `{ast.unparse(s)}` (IndexError on an empty list) in an instance declared not to raise')
+                n = c.func.value.id
+                old = self.env[n]
+                nm = self.gensym(lname(n))
+                self.env[n] = Val(nm, old.typ, path=n)
+                return (f'match GV.Py.popLast {old.text} with\n| Except.error e => Except.error e\n| Except.ok {nm} =>\n'
+                        + _indent(self.block(rest)))
             hook = self.u.hooks.get('expr_stmt')
             if hook and hook(self, s.value):
                 return self.block(rest)
             raise Unsupported(f'`{self.inst.qual}`: expression statement `{ast.unparse(s)}`')
         if isinstance(s, ast.Return):
             if s.value is None:
-                return self.ret_value(ast.Constant(value=None))       # a bare `return` returns None
+                raise Unsupported(f'`{self.inst.qual}`: bare return')
             return self.ret_value(s.value)
         if isinstance(s, ast.Raise):
             exc = s.exc
@@ -402,13 +576,16 @@ class FnTr:
             return self.if_stmt(s, rest)
         if isinstance(s, (ast.Assign, ast.AnnAssign)):
             return self.assign(s, rest)
+        if isinstance(s, ast.AugAssign) and self.u.hooks.get('aug_assign'):
+            return self.aug_assign(s, rest)
         if isinstance(s, ast.For):
             return self.for_stmt(s, rest)
+        if isinstance(s, ast.While) and self.on_fall is not None:
+            return self.while_value(s, rest)          # inside a loop body: the loop is a function of its state
         if isinstance(s, ast.While):
             return self.while_stmt(s, rest)
-        more = self.block_more(s, rest)
-        if more is not None:
-            return more
+        if isinstance(s, ast.Break) and getattr(self, 'on_break', None) is not None:
+            return self.on_break(self)          # leave the innermost translated loop with the current state
         raise Unsupported(f'`{self.inst.qual}`: statement `{type(s).__name__}`: {ast.unparse(s)[:80]}')
 
     def is_super_init(self, e, any_args=False):
@@ -417,6 +594,10 @@ class FnTr:
                 and e.func.value.func.id == 'super' and (any_args or not e.args) and not e.keywords)
 
     def ret_value(self, e):
+        if 'frame' in self.u.hooks:
+            r = self.ret_framed(e)
+            if r is not None:
+                return r
         # a call of a raising instance in return position is the result itself
         if isinstance(e, ast.BoolOp) and self.inst.raises and self.inst.value_type == 'Bool' and not self.has_optional_test(e):
             first, others = e.values[0], e.values[1:]
@@ -425,9 +606,11 @@ class FnTr:
                 return self.branch(first, lambda tr: tr.ok('true'), lambda tr: tr.ret_value(more))
             return self.branch(first, lambda tr: tr.ret_value(more), lambda tr: tr.ok('false'))
         v = self.expr(e, allow_raise=True)
+        if self.inst.ret == '?' and not getattr(v, 'raises', False) and v.typ != 'None' and '?' not in v.typ:
+            self.inst.ret = v.typ                    # a lifted local definition (`local_defs`): the first `return` fixes the result type
         want = self.inst.value_type
-        if self.inst.state:
-            return self.ret_with_state(v)
+        if getattr(self.inst, 'state', ()):
+            return self.gj_ret_with_state(v)
         if getattr(v, 'raises', False):
             if not self.inst.raises:
                 raise Unsupported(f'`{self.inst.qual}`: returns a call that may raise, but is declared not to raise')
@@ -447,8 +630,8 @@ class FnTr:
             return 'none'
         if want == 'Bool' and v.typ.startswith('Opt '):
             raise Unsupported(f'`{self.inst.qual}`: returns an Optional where a bool is declared')
-        if 'coerce' in self.u.hooks:
-            r = self.u.hooks['coerce'](self, v, want)
+        if 'gj_coerce' in self.u.hooks:
+            r = self.u.hooks['gj_coerce'](self, v, want)
             if r is not None:
                 return r
         raise Unsupported(f'`{self.inst.qual}`: value of type {v.typ} where {want} is declared: `{v.text}`')
@@ -459,9 +642,266 @@ class FnTr:
             return self.block(s.body + ([] if self.always_returns(s.body) else rest))
         if st is False:
             return self.block(s.orelse + ([] if s.orelse and self.always_returns(s.orelse) else rest))
+        if self.u.hooks.get('join_ifs') and self.assign_only(s.body) and self.assign_only(s.orelse):
+            r = self.join_if(s, rest)
+            if r is not None:
+                return r
         then_stmts = s.body + ([] if self.always_returns(s.body) else rest)
         else_stmts = (s.orelse + ([] if s.orelse and self.always_returns(s.orelse) else rest))
         return self.branch(s.test, lambda tr: tr.block(then_stmts), lambda tr: tr.block(else_stmts))
+
+    # ---- the `local_defs` subset (SrcSweep): nested defs lifted by inference, local classes, sets of objects, joins ---------
+    def ld_stmt(self, s, rest):
+        if isinstance(s, ast.FunctionDef):
+            # a nested `def`: lifted to a definition of its own at its first call (captured locals become parameters)
+            if s.decorator_list:
+                raise Unsupported(f'`{self.inst.qual}`: decorated nested function `{s.name}`')
+            self.local_fns[s.name] = s
+            return self.block(rest)
+        if isinstance(s, ast.ClassDef):
+            # a local class: a structure (fields: what `__init__` stores) with its `__lt__` / `__eq__` / `__hash__`
+            if s.bases or s.keywords or s.decorator_list:
+                raise Unsupported(f'`{self.inst.qual}`: local class `{s.name}` with bases / decorators')
+            self.local_classes[s.name] = {'node': s, 'owner': self.inst, 'tag': None, 'fields': None, 'methods': {}}
+            return self.block(rest)
+        if isinstance(s, ast.Continue):
+            if self.on_fall is None:
+                raise Unsupported(f'`{self.inst.qual}`: `continue` outside a loop')
+            return self.on_fall(self)              # the next iteration, like falling off the end of the loop body
+        if isinstance(s, ast.AugAssign) and isinstance(s.target, ast.Name) and isinstance(s.op, (ast.Add, ast.Sub, ast.Mult)):
+            # `x += e` is `x = x + e` (lists are values here: nothing else can see the old list)
+            return self.assign(ast.Assign(targets=[ast.Name(id=s.target.id, ctx=ast.Store())],
+                                          value=ast.BinOp(left=ast.Name(id=s.target.id, ctx=ast.Load()), op=s.op, right=s.value)), rest)
+        if isinstance(s, ast.Expr) and isinstance(s.value, ast.Call) and isinstance(s.value.func, ast.Attribute) \
+                and isinstance(s.value.func.value, ast.Name) and s.value.func.value.id in self.env \
+                and s.value.func.attr in ('add', 'discard', 'sort') and not s.value.keywords:
+            return self.local_class_stmt(s.value, rest)
+        return None
+
+    def assign_only(self, stmts):
+        for st in stmts:
+            if isinstance(st, ast.AugAssign) and isinstance(st.target, ast.Name):
+                continue
+            if not isinstance(st, (ast.Assign, ast.AnnAssign)):
+                return False
+            tgts = st.targets if isinstance(st, ast.Assign) else [st.target]
+            for t in tgts:
+                if not (isinstance(t, ast.Name) or isinstance(t, ast.Tuple) and all(isinstance(x, ast.Name) for x in t.elts)):
+                    return False
+        return True
+
+    def join_if(self, s, rest):
+        """`if c: x = e` (both arms only assign locals that exist already): `let x' := if c then e else x`, then the rest
+        once — instead of the rest duplicated in both arms"""
+        names = []
+        for st in s.body + s.orelse:
+            tgts = st.targets if isinstance(st, ast.Assign) else [st.target]
+            for t in tgts:
+                for m in ast.walk(t):
+                    if isinstance(m, ast.Name) and m.id not in names:
+                        names.append(m.id)
+        if not names or any(n not in self.env or n in self.narrow for n in names) or self.has_optional_test(s.test):
+            return None
+        c = self.truth(self.expr(s.test))
+        if self.pending:
+            raise Unsupported(f'`{self.inst.qual}`: a call that may raise in the test of an assignment-only `if`')
+        types = [self.env[n].typ for n in names]
+
+        def final(tr):
+            vals = [tr.env[n] for n in names]
+            if [v.typ for v in vals] != types:
+                raise Unsupported(f'`{self.inst.qual}`: an `if` changes the type of {names}')
+            return vals[0].text if len(vals) == 1 else '(' + ', '.join(v.text for v in vals) + ')'
+        arms = []
+        top = self.fresh
+        for stmts in (s.body, s.orelse):
+            tr = self.sub()
+            tr.fresh = top
+            tr.on_fall = final
+            arms.append(tr.block(list(stmts)))
+            if tr.pending:
+                raise Unsupported(f'`{self.inst.qual}`: a call that may raise inside an assignment-only `if`')
+            self.fresh = max(self.fresh, tr.fresh)
+        j = self.gensym('j' if len(names) > 1 else lname(names[0]))
+        n = len(names)
+        for i, name in enumerate(names):
+            proj = j if n == 1 else j + '.2' * i + ('.1' if i < n - 1 else '')
+            self.env[name] = Val(proj, types[i], path=name)
+        return f'let {j} := (if {c} then\n{_indent(arms[0], 4)}\n  else\n{_indent(arms[1], 4)})\n' + self.block(rest)
+
+    def class_of_tag(self, typ):
+        for info in self.local_classes.values():
+            if info['tag'] is not None and info['tag'] == typ:
+                return info
+        return None
+
+    def elem_eq(self, typ):
+        """the equality a set of `typ` is keyed by, as a Lean function"""
+        info = self.class_of_tag(typ)
+        if info is not None:
+            if '__eq__' not in info['methods'] or '__hash__' not in info['methods']:
+                raise Unsupported(f'a set of `{typ}`, which does not define both `__eq__` and `__hash__`')
+            return info['methods']['__eq__'].lean
+        if _is_data(typ):
+            return '(fun a b => a == b)'
+        raise Unsupported(f'a set of {typ}')
+
+    def local_class_stmt(self, c, rest):
+        """`s.add(x)` / `s.discard(x)` on a local set keyed by a local class's `__eq__`; `xs.sort()` by its `__lt__`"""
+        n, attr = c.func.value.id, c.func.attr
+        old = self.env[n]
+        if attr == 'sort' and not c.args and old.typ.startswith('List '):
+            info = self.class_of_tag(old.typ[5:])
+            if info is None or '__lt__' not in info['methods']:
+                raise Unsupported(f'`{self.inst.qual}`: `.sort()` of {old.typ} (no `__lt__` in sight)')
+            lt = info['methods']['__lt__'].lean
+            nm = self.gensym(lname(n))
+            self.env[n] = Val(nm, old.typ, path=n)
+            # list.sort() is stable and only asks `b < a`: the merge keeps `a` before `b` unless `b < a`
+            return f'let {nm} := (({old.text}).mergeSort (fun a b => !({lt} b a)))\n' + self.block(rest)
+        if attr in ('add', 'discard') and len(c.args) == 1 and old.typ.startswith('Set ') and '?' not in old.typ \
+                and self.class_of_tag(old.typ[4:]) is not None:
+            v = self.expr(c.args[0])
+            if v.typ != old.typ[4:]:
+                raise Unsupported(f'`{self.inst.qual}`: `{attr}` of {v.typ} on {old.typ}')
+            eq = self.elem_eq(v.typ)
+            nm = self.gensym(lname(n))
+            self.env[n] = Val(nm, old.typ, path=n)
+            fn = 'GV.Py.setAdd' if attr == 'add' else 'GV.Py.setDiscard'
+            return f'let {nm} := ({fn} {eq} {_paren(v.text)} {_paren(old.text)})\n' + self.block(rest)
+        return None
+
+    def define_local_class(self, name, args):
+        """at the first constructor call: the field types are those of the arguments; the structure and its methods
+        are emitted before everything that uses them"""
+        info = self.local_classes[name]
+        node, owner = info['node'], info['owner']
+        meths = {m.name: m for m in node.body if isinstance(m, ast.FunctionDef)}
+        for m in node.body:
+            if not (isinstance(m, ast.FunctionDef) or isinstance(m, ast.Expr) and isinstance(m.value, ast.Constant) or isinstance(m, ast.Pass)):
+                raise Unsupported(f'local class `{name}`: `{ast.unparse(m)[:60]}` in the class body')
+        if '__init__' not in meths:
+            raise Unsupported(f'local class `{name}` without `__init__`')
+        init = meths['__init__']
+        params = [a.arg for a in init.args.args][1:]
+        if init.args.vararg or init.args.kwarg or init.args.defaults or init.args.kwonlyargs or len(params) != len(args):
+            raise Unsupported(f'local class `{name}`: constructor called with {len(args)} arguments, `__init__` takes {params}')
+        ptypes = dict(zip(params, [a.typ for a in args]))
+        fields = []
+        for st in init.body:
+            if isinstance(st, ast.Expr) and isinstance(st.value, ast.Constant) or isinstance(st, ast.Pass):
+                continue
+            ok = (isinstance(st, ast.Assign) and len(st.targets) == 1 and isinstance(st.targets[0], ast.Attribute)
+                  and isinstance(st.targets[0].value, ast.Name) and st.targets[0].value.id == init.args.args[0].arg
+                  and isinstance(st.value, ast.Name) and st.value.id in ptypes)
+            if not ok or st.targets[0].attr in [f for f, _p in fields]:
+                raise Unsupported(f'local class `{name}`: `__init__` does more than store its parameters: `{ast.unparse(st)[:60]}`')
+            fields.append((st.targets[0].attr, st.value.id))
+        tag = f'{owner.lean}.{lean_ident(name)}'
+        info.update(tag=tag, fields=fields, ptypes=ptypes, params=params)
+        for f, prm in fields:
+            self.u.attr_types[(tag, f)] = ('{}.' + lname(f), ptypes[prm])
+        out = [f'/-- the local class `{name}` of `{owner.qual}`: what `__init__` stores -/', f'structure {tag} where']
+        out += [f'  {lname(f)} : {lean_type(ptypes[prm])}' for f, prm in fields]
+        text = ['\n'.join(out)]
+        for mname, m in meths.items():
+            if mname == '__init__':
+                continue
+            want = {'__lt__': 2, '__eq__': 2, '__hash__': 1}.get(mname)
+            margs = [a.arg for a in m.args.args]
+            if want is None or len(margs) != want or m.args.vararg or m.args.kwarg or m.args.defaults or m.decorator_list:
+                raise Unsupported(f'local class `{name}`: method `{mname}`')
+            inst = Inst(f'{owner.qual}.{name}.{mname}', f'{tag}.{lean_ident(mname)}', [(a, tag) for a in margs], '?')
+            tr = FnTr(self.u, inst, m)
+            tr.local_classes, tr.lifted, tr.lifted_insts = self.local_classes, self.lifted, self.lifted_insts
+            body = tr.function_body()
+            if inst.ret == '?' or tr.aux:
+                raise Unsupported(f'local class `{name}`: method `{mname}` is outside the subset')
+            if mname in ('__lt__', '__eq__') and inst.ret != 'Bool':
+                raise Unsupported(f'local class `{name}`: `{mname}` returns {inst.ret}')
+            binders = ' '.join([f'({n} : {t})' for n, t in self.u.ctx_params] + [f'({lname(a)} : {tag})' for a in margs])
+            src = [ln.replace('-/', '- /') for ln in ast.unparse(m).split('\n') if not ln.strip().startswith(('"""', "'''"))]
+            text.append('\n'.join([f'/-- `{name}.{mname}`', '```'] + src + ['```', '-/',
+                                   f'def {inst.lean} {binders} : {lean_type(inst.ret)} :='] + ['  ' + ln for ln in body.split('\n')]))
+            info['methods'][mname] = inst
+        self.lifted.append('\n\n'.join(text))
+        return info
+
+    def local_ctor(self, name, args):
+        info = self.local_classes[name]
+        if info['tag'] is None:
+            info = self.define_local_class(name, args)
+        if [a.typ for a in args] != [info['ptypes'][p] for p in info['params']]:
+            raise Unsupported(f'`{name}(…)` at {[a.typ for a in args]}, first built at {[info["ptypes"][p] for p in info["params"]]}')
+        by_param = dict(zip(info['params'], args))
+        inner = ', '.join(f'{lname(f)} := {by_param[prm].text}' for f, prm in info['fields'])
+        return Val('({ ' + inner + ' } : ' + info['tag'] + ')', info['tag'])
+
+    def spread_args(self, nodes):
+        """positional arguments with `*pair` spread (a statically sized sequence: a 2-tuple or a comprehension over one)"""
+        out = []
+        for a in nodes:
+            if isinstance(a, ast.Starred):
+                v = self.expr(a.value)
+                parts = _prod_parts(v.typ)
+                if not (v.typ.startswith('Prod ') and len(parts) == 2 and parts[0] == parts[1]):
+                    raise Unsupported(f'`*` of {v.typ} in a call')
+                out += [Val(f'{_paren(v.text)}.1', parts[0]), Val(f'{_paren(v.text)}.2', parts[1])]
+            else:
+                out.append(self.expr(a))
+        return out
+
+    def lift_local_fn(self, name, args):
+        """a call of a nested `def`: one lifted definition per argument types, the enclosing function's locals it
+        reads as leading parameters (their values at the time of the call, as Python's closures see them)"""
+        fn = self.local_fns[name]
+        params = [a.arg for a in fn.args.args]
+        if fn.args.vararg or fn.args.kwarg or fn.args.kwonlyargs or fn.args.defaults or len(params) != len(args):
+            raise Unsupported(f'`{self.inst.qual}`: nested function `{name}` called with {len(args)} arguments, takes {params}')
+        stored = {m.id for m in ast.walk(fn) if isinstance(m, ast.Name) and isinstance(m.ctx, ast.Store)} | set(params)
+        free = []
+        for m in ast.walk(fn):
+            if isinstance(m, ast.Name) and isinstance(m.ctx, ast.Load) and m.id not in stored and m.id in self.env \
+                    and self.env[m.id].typ not in ('None', 'Kw') and m.id not in free:
+                free.append(m.id)
+        key = (name, tuple(a.typ for a in args), tuple(self.env[n].typ for n in free))
+        if key not in self.lifted_insts:
+            if any(k[0] == name for k in self.lifted_insts):
+                suffix = '_' + str(1 + sum(1 for k in self.lifted_insts if k[0] == name))
+            else:
+                suffix = ''
+            inst = Inst(f'{self.inst.qual}.{name}', f'{self.inst.lean}.{lean_ident(name)}{suffix}',
+                        list(zip(params, [a.typ for a in args])), '?')
+            self.lifted_insts[key] = None              # in progress: a recursive nested function is outside the subset
+            tr = FnTr(self.u, inst, fn)
+            tr.local_fns = {k: v for k, v in self.local_fns.items() if k != name}
+            tr.local_classes, tr.lifted, tr.lifted_insts = self.local_classes, self.lifted, self.lifted_insts
+            for n in free:
+                tr.env[n] = Val(lname(n), self.env[n].typ, path=n)
+            body = tr.function_body()
+            if inst.ret == '?':
+                raise Unsupported(f'`{inst.qual}`: no result type could be inferred')
+            binders = ' '.join([f'({n} : {t})' for n, t in self.u.ctx_params] +
+                               [f'({lname(n)} : {lean_type(self.env[n].typ)})' for n in free] +
+                               [f'({lname(n)} : {lean_type(t)})' for n, t in inst.params])
+            src = [ln.replace('-/', '- /') for ln in ast.unparse(fn).split('\n') if not ln.strip().startswith(('"""', "'''"))][:40]
+            pre = []
+            for a in reversed(tr.aux):
+                pre += [a, '']
+            doc = [f'/-- the nested function `{name}` of `{self.inst.qual}`, lifted' +
+                   (' (captured: ' + ', '.join(free) + ')' if free else ''), '```'] + src + ['```', '-/']
+            self.lifted.append('\n'.join(pre + doc + [f'def {inst.lean} {binders} : {lean_type(inst.ret)} :='] +
+                                         ['  ' + ln for ln in body.split('\n')]))
+            self.lifted_insts[key] = (inst, free)
+        if self.lifted_insts[key] is None:
+            raise Unsupported(f'`{self.inst.qual}`: the nested function `{name}` calls itself')
+        inst, free = self.lifted_insts[key]
+        ctx = [n for n, _t in self.u.ctx_params]
+        txt = ' '.join([inst.lean] + ctx + [_paren(self.env[n].text) for n in free] + [_paren(a.text) for a in args])
+        v = Val(f'({txt})', inst.value_type)
+        v.raises = inst.raises
+        return v
+
 
     def branch(self, test, then_k, else_k):
         """Lean text of `if test then … else …`, with Optional truthiness / None tests turned into matches that bind the
@@ -478,22 +918,31 @@ class FnTr:
             first, others = test.values[0], test.values[1:]
             more = others[0] if len(others) == 1 else ast.BoolOp(op=ast.Or(), values=others)
             return self.branch(first, then_k, lambda tr: tr.branch(more, then_k, else_k))
-        if isinstance(test, ast.Compare) and len(test.ops) == 1 and isinstance(test.ops[0], (ast.Is, ast.IsNot)):
+        if isinstance(test, ast.BoolOp) and self.u.hooks.get('wkt_text') and self.may_raise(test.values[0]):
+            # `(A and B) or C` where B may raise: the operands are tested one after the other (SrcWkt)
+            first, others = test.values[0], test.values[1:]
+            more = others[0] if len(others) == 1 else ast.BoolOp(op=test.op, values=others)
+            if isinstance(test.op, ast.And):
+                return self.branch(first, lambda tr: tr.branch(more, then_k, else_k), else_k)
+            return self.branch(first, then_k, lambda tr: tr.branch(more, then_k, else_k))
+        if isinstance(test, ast.BoolOp) and any(self.may_raise(v) for v in test.values[1:]):
+            # `A and B` / `A or B` where B may raise: B is evaluated (and can raise) only when A does not decide the test
+            first, others = test.values[0], test.values[1:]
+            more = others[0] if len(others) == 1 else ast.BoolOp(op=test.op, values=others)
+            st = self.static_test(first) if isinstance(first, (ast.Call, ast.Compare, ast.UnaryOp, ast.Constant)) else None
+            if st is not None:            # decided by the static types of this instance (as in `_expr`)
+                if st is isinstance(test.op, ast.And):
+                    return self.branch(more, then_k, else_k)
+                return (then_k if st else else_k)(self)
+            if isinstance(test.op, ast.And):
+                return self.branch(first, lambda tr: tr.branch(more, then_k, else_k), else_k)
+            return self.branch(first, then_k, lambda tr: tr.branch(more, then_k, else_k))
+        if self.u.hooks.get('geojson_doc') and isinstance(test, ast.Compare) and len(test.ops) == 1 \
+                and isinstance(test.ops[0], (ast.Is, ast.IsNot)):
             st = self.static_test(test)         # `x is None` on a value already narrowed (or declared) non-optional
             if st is not None:
                 return (then_k if st else else_k)(self)
         opt = self.optional_test(test)
-        if opt is not None and not isinstance(test, ast.Compare) and opt[0].typ[4:] not in self.u.hooks.get('always_truthy', ()) \
-                and 'truth' in self.u.hooks:
-            # plain truthiness of an Optional whose value can itself be falsy (`if self.z:` with z = 0.0)
-            v, _pos = opt
-            name = self.gensym('d')
-            c = self.truth(Val(name, v.typ[4:]))
-            t_some, t_falsy, t_none = self.sub(), self.sub(), self.sub()
-            t_some.fresh = t_falsy.fresh = t_none.fresh = self.fresh
-            t_some.narrow[v.path] = t_falsy.narrow[v.path] = Val(name, v.typ[4:], path=v.path)
-            some_txt = f'if {c} then\n{_indent(then_k(t_some))}\nelse\n{_indent(else_k(t_falsy))}'
-            return self.wrap(f'match {v.text} with\n| some {name} =>\n{_indent(some_txt)}\n| none =>\n{_indent(else_k(t_none))}')
         if opt is not None:
             v, present_is_true = opt
             name = self.gensym('d')
@@ -502,11 +951,27 @@ class FnTr:
             t_some.narrow[v.path] = Val(name, v.typ[4:], path=v.path)
             some_txt = (then_k if present_is_true else else_k)(t_some)
             none_txt = (else_k if present_is_true else then_k)(t_none)
+            import re as _re
+            if self.u.hooks.get('opt_tests_as_issome') and not _re.search(r'(?<![\w.])' + _re.escape(name) + r'(?![\w])', some_txt):
+                # the narrowed value is never read: a plain test (a `match` on a call makes Lean unfold the callee)
+                return self.wrap(f'if ({v.text}).isSome then\n{_indent(some_txt)}\nelse\n{_indent(none_txt)}')
             return self.wrap(f'match {v.text} with\n| some {name} =>\n{_indent(some_txt)}\n| none =>\n{_indent(none_txt)}')
         c = self.truth(self.expr(test))
         a, b = self.sub(), self.sub()
         a.fresh = b.fresh = self.fresh
         return self.wrap(f'if {c} then\n{_indent(then_k(a))}\nelse\n{_indent(else_k(b))}')
+
+    def may_raise(self, e):
+        """does evaluating the expression involve a call/subscript that may raise (translated on a scratch copy)"""
+        if not self.inst.raises:
+            return False
+        t = self.sub()
+        t.fresh = self.fresh
+        try:
+            t.expr(e)
+        except Unsupported:
+            return False
+        return bool(t.pending)
 
     def has_optional_test(self, test):
         if isinstance(test, ast.BoolOp):
@@ -528,11 +993,28 @@ class FnTr:
             v = self.expr(node)
         except Unsupported:
             return None
+        if self.u.hooks.get('geojson_doc') and not (v.path is not None and v.typ.startswith('Opt ')) and len(self.pending) > npend:
+            del self.pending[npend:]        # a probe only: raising calls met on the way are bound where the test is translated
+            self.fresh = nfresh
         if v.path is not None and v.typ.startswith('Opt '):
+            if node is test and self.has_falsy_value(v.typ[4:]):
+                # bare `if x:` / `x or y` / `not x` on an Optional whose values can be falsy (0.0, 0, '', [], False) is NOT a
+                # presence test: left to `truth`, which refuses it unless the unit handles it
+                return None
             return v, positive
-        del self.pending[npend:]        # a probe only: raising calls met on the way are bound where the test is translated
-        self.fresh = nfresh if len(self.pending) == npend else self.fresh
         return None
+
+    def has_falsy_value(self, typ):
+        """can a (non-None) value of this static type be falsy?  `Dt`, `TI`, records / shapes and whatever the unit lists in
+        `always_truthy` can not; numbers, strings, booleans and containers can."""
+        if typ in ('Dt', 'TI') or typ in self.u.hooks.get('always_truthy', ()):
+            return False
+        if typ in ('R', 'Td', 'Int', 'Nat', 'N', 'Str', 'Chars', 'Bool') or typ in self.u.hooks.get('falsy_types', ()) \
+                or typ.split()[0] in ('List', 'Set', 'Dict', 'Opt', 'DDL'):
+            return True
+        lt = lean_type(typ)
+        return lt in ('Int', 'Rat', 'Nat', 'Bool', 'String', 'Float', 'α', 'F', 'Char') or \
+            lt.split()[0] in ('List', 'Option', 'Array')
 
     def static_test(self, test):
         """True / False when the test is decided by the static types of this instance, else None"""
@@ -543,6 +1025,15 @@ class FnTr:
             mine = self.u.hooks['isinstance'](v.typ) if 'isinstance' in self.u.hooks else None
             if mine is None:
                 raise Unsupported(f'`{self.inst.qual}`: isinstance on a value of type {v.typ}')
+            if hasattr(mine, 'no'):
+                # an *abstract* type: `mine` are the classes it is known to be an instance of, `mine.no` the ones it is known
+                # not to be; a test against any other class is not decided by the instance's types
+                if any(n in mine for n in names):
+                    return True
+                und = [n for n in names if n not in mine.no]
+                if und:
+                    raise Unsupported(f'`{self.inst.qual}`: isinstance({v.typ}, {"/".join(und)}) is not decided by the declared types')
+                return False
             return any(n in mine for n in names)
         if isinstance(test, ast.Compare) and len(test.ops) == 1 and isinstance(test.ops[0], (ast.Is, ast.IsNot)) \
                 and isinstance(test.comparators[0], ast.Constant) and test.comparators[0].value is None:
@@ -574,7 +1065,8 @@ class FnTr:
             return None
         if isinstance(test, ast.Constant) and isinstance(test.value, bool):
             return test.value
-        if isinstance(test, ast.Name) and test.id in self.env and test.id not in self.narrow and self.env[test.id].typ == 'None':
+        if self.u.hooks.get('geojson_doc') and isinstance(test, ast.Name) and test.id in self.env and test.id not in self.narrow \
+                and self.env[test.id].typ == 'None':
             return False            # a parameter left at (or an instance declared at) None
         return None
 
@@ -597,7 +1089,35 @@ class FnTr:
                         raise Unsupported(f'`{self.inst.qual}`: unpacking into `{ast.unparse(t)}`')
                     self.env[t.id] = Val(f'{tmp}.{i + 1}', parts[i], path=t.id)
                     self.narrow.pop(t.id, None)
-                return self.wrap(f'let {tmp} := {v.text}\n' + self.block(rest))
+                pend, self.pending = self.pending, []          # (the raising calls of the right-hand side are bound *around* the let)
+                inner = self.block(rest)
+                self.pending = pend
+                return self.wrap(f'let {tmp} := {v.text}\n' + inner)
+            if v.typ.startswith('Pair ') and n == 2:
+                tmp = self.gensym('t')
+                for i, t in enumerate(tgt.elts):
+                    if not isinstance(t, ast.Name):
+                        raise Unsupported(f'`{self.inst.qual}`: unpacking into `{ast.unparse(t)}`')
+                    self.env[t.id] = Val(f'{tmp}.{i + 1}', v.typ[5:], path=t.id)
+                    self.narrow.pop(t.id, None)
+                pend, self.pending = self.pending, []          # (the raising calls of the right-hand side are bound *around* the let)
+                inner = self.block(rest)
+                self.pending = pend
+                return self.wrap(f'let {tmp} := {v.text}\n' + inner)
+            if v.typ.startswith('List ') and all(isinstance(t, ast.Name) for t in tgt.elts):
+                # `a, b = xs` for a list of statically unknown length: ValueError unless it has exactly n entries
+                if not self.inst.raises:
+                    raise Unsupported(f'`{self.inst.qual}`: unpacking a list (may raise ValueError) in an instance declared not to raise')
+                names = []
+                for t in tgt.elts:
+                    nm = self.gensym(lname(t.id))
+                    names.append(nm)
+                    self.env[t.id] = Val(nm, v.typ[5:], path=t.id)
+                    self.narrow.pop(t.id, None)
+                pend, self.pending = self.pending, []
+                inner = self.block(rest)
+                self.pending = pend
+                return self.wrap(f'match {v.text} with\n| [{", ".join(names)}] =>\n{_indent(inner)}\n| _ => Except.error "ERR:Value"')
             if not (v.typ.startswith('Tuple') and v.typ.split()[0] == f'Tuple{n}'):
                 raise Unsupported(f'`{self.inst.qual}`: tuple assignment from a non-tuple')
             et = v.typ.split(' ', 1)[1]
@@ -608,58 +1128,160 @@ class FnTr:
                     raise Unsupported(f'`{self.inst.qual}`: unpacking into `{ast.unparse(t)}`')
                 self.env[t.id] = Val(pr, et, path=t.id)
                 self.narrow.pop(t.id, None)
-            return self.wrap(f'let {tmp} := {v.text}\n' + self.block(rest))
+            pend, self.pending = self.pending, []
+            inner = self.block(rest)
+            self.pending = pend
+            return self.wrap(f'let {tmp} := {v.text}\n' + inner)
         if isinstance(tgt, ast.Tuple):
             if not isinstance(value, ast.Tuple) or len(value.elts) != len(tgt.elts):
                 raise Unsupported(f'`{self.inst.qual}`: tuple assignment from a non-tuple')
             vals = [self.expr(e) for e in value.elts]        # right-hand sides are all evaluated first
+            if self.u.hooks.get('wkt_text'):
+                for i, (t, v) in enumerate(zip(tgt.elts, vals)):       # element types of `[]` / `{}` inside a tuple assignment
+                    if '?' in v.typ and isinstance(t, ast.Name):
+                        hint = self.u.hooks.get('local_type', lambda q, n: None)(self.inst.qual, t.id)
+                        if not hint:
+                            raise Unsupported(f'`{self.inst.qual}`: element type of `{t.id}` is not declared')
+                        vals[i] = Val(f'({v.text} : {lean_type(hint)})', hint)
             pairs = list(zip(tgt.elts, vals))
+        elif isinstance(tgt, ast.Name) and self.cells_display(tgt.id, value):
+            vals = [self.expr(x) for x in value.elts]
+            ets = {x.typ for x in vals}
+            if len(ets) != 1:
+                raise Unsupported(f'`{self.inst.qual}`: list display of several types {sorted(ets)}')
+            pairs = [(tgt, Val('(' + ', '.join(x.text for x in vals) + ')', f'Cells{len(vals)} {vals[0].typ}'))]
         else:
+            if 'frame' in self.u.hooks:
+                self._effect_ok = self.effect_context(value)
             v = self.expr(value, allow_raise=True)
+            self._effect_ok = False
+            if isinstance(tgt, ast.Name) and isinstance(value, ast.Name) and v.typ.startswith(('List ', 'Set ')) \
+                    and {tgt.id, value.id} & _mutated_names(self.fn):
+                # locals are translated as values: a second name for a list that is later mutated in place would not follow
+                raise Unsupported(f'`{self.inst.qual}`: `{ast.unparse(s)}` aliases a list that is mutated in place')
             if '?' in v.typ and isinstance(tgt, ast.Name):
                 hint = self.u.hooks.get('local_type', lambda q, n: None)(self.inst.qual, tgt.id)
+                if isinstance(s, ast.AnnAssign) and 'ann_type' in self.u.hooks:
+                    hint = self.u.hooks['ann_type'](ast.unparse(s.annotation)) or hint     # `xs: List[T] = []`
                 if not hint:
                     raise Unsupported(f'`{self.inst.qual}`: element type of `{tgt.id}` is not declared')
                 v = Val(f'({v.text} : {lean_type(hint)})', hint)
             pairs = [(tgt, v)]
+        if isinstance(tgt, ast.Tuple) and self.pending and all(isinstance(t, ast.Name) for t, _v in pairs) \
+                and not any(getattr(v, 'raises', False) for _t, v in pairs):
+            # `a, b = f(x), g(y)` with calls that may raise: they are bound first, in evaluation order, then the names
+            pend, self.pending = self.pending, []
+            lets = []
+            for t, v in pairs:
+                nm = self.gensym(lname(t.id))
+                lets.append(f'let {nm} := {v.text}')
+                self.env[t.id] = Val(nm, v.typ, path=t.id)
+                self.narrow.pop(t.id, None)
+            inner = self.block(rest)
+            self.pending = pend
+            return self.wrap('\n'.join(lets + [inner]))
         lets = []
         for t, v in pairs:
             if isinstance(t, ast.Name) and t.id in self.env and self.env[t.id].typ == 'R' and v.typ == 'Int':
                 v = Val(f'({v.text} : Rat)', 'R')       # an int literal assigned to a float variable
+            if isinstance(t, ast.Name) and t.id in self.env and (self.env[t.id].typ, v.typ) in (('R', 'Nat'), ('Int', 'Nat')) \
+                    and not getattr(v, 'raises', False):
+                v = Val(f'({v.text} : {lean_type(self.env[t.id].typ)})', self.env[t.id].typ)     # a non-negative int kept at the variable's type
+            if isinstance(t, ast.Subscript) and isinstance(t.value, ast.Name) and t.value.id in self.env \
+                    and self.env[t.value.id].typ.startswith('Cells') and not getattr(v, 'raises', False):
+                # `cells[i] = v` for a literal i: the tuple with that component replaced
+                old = self.env[t.value.id]
+                n, et = int(old.typ.split()[0][5:]), old.typ.split(' ', 1)[1]
+                i = t.slice.value if isinstance(t.slice, ast.Constant) and isinstance(t.slice.value, int) else None
+                if i is None or isinstance(i, bool) or not 0 <= i < n:
+                    raise Unsupported(f'`{self.inst.qual}`: assignment to `{ast.unparse(t)}`')
+                if et == 'R' and v.typ in ('Int', 'Nat'):
+                    v = Val(f'({v.text} : Rat)', 'R')
+                if v.typ != et:
+                    raise Unsupported(f'`{self.inst.qual}`: {v.typ} stored into a list of {et}')
+                comps = [v.text if j == i else _cell_proj(old.text, j, n) for j in range(n)]
+                nm = self.gensym(lname(t.value.id))
+                if self.pending:
+                    raise Unsupported(f'`{self.inst.qual}`: raising call in `{ast.unparse(t)} = …`')
+                lets.append(f'let {nm} := (' + ', '.join(comps) + ')')
+                self.env[t.value.id] = Val(nm, old.typ, path=t.value.id)
+                continue
             if isinstance(t, ast.Name):
                 if getattr(v, 'raises', False):
                     nm = self.gensym(lname(t.id))
                     self.env[t.id] = Val(nm, v.typ, path=t.id)
                     self.env[t.id].fresh_dict = getattr(v, 'fresh_dict', False)
                     self.narrow.pop(t.id, None)
-                    pend, self.pending = self.pending, []       # raising calls among the arguments are bound before this call
+                    if self.u.hooks.get('geojson_doc'):
+                        pend, self.pending = self.pending, []   # raising calls among the arguments are bound before this call
+                        inner = self.block(rest)
+                        self.pending = pend
+                        return self.wrap('\n'.join(lets + [f'match {v.text} with', '| Except.error e => Except.error e', f'| Except.ok {nm} =>', _indent(inner)]))
                     inner = self.block(rest)
-                    self.pending = pend
-                    return self.wrap('\n'.join(lets + [f'match {v.text} with', '| Except.error e => Except.error e', f'| Except.ok {nm} =>', _indent(inner)]))
+                    return '\n'.join(lets + [f'match {v.text} with', '| Except.error e => Except.error e', f'| Except.ok {nm} =>', _indent(inner)])
                 nm = self.gensym(lname(t.id))
                 if self.pending:
                     self.env[t.id] = Val(nm, v.typ, path=t.id)
+                    self.env[t.id].fresh = getattr(v, 'fresh', False)
                     self.env[t.id].fresh_dict = getattr(v, 'fresh_dict', False)
                     self.narrow.pop(t.id, None)
-                    if (t, v) != pairs[-1]:
-                        lets.append(f'let {nm} := {v.text}')       # `a, b = xs[0], y`: bound below, inside the wrap
-                        continue
                     pend, self.pending = self.pending, []
-                    inner = self.block(rest)
+                    inner = self.block(rest) if (t, v) == pairs[-1] else None
+                    if inner is None:
+                        raise Unsupported(f'`{self.inst.qual}`: raising call inside a tuple assignment')
                     self.pending = pend
-                    return self.wrap('\n'.join(lets + [f'let {nm} := {v.text}\n{inner}']))
+                    return '\n'.join(lets + [self.wrap(f'let {nm} := {v.text}\n{inner}')])
                 lets.append(f'let {nm} := {v.text}')
                 self.env[t.id] = Val(nm, v.typ, path=t.id)
-                self.env[t.id].fresh_dict = getattr(v, 'fresh_dict', False)       # a dict made here may be stored into
+                self.env[t.id].fresh = getattr(v, 'fresh', False)
+                self.env[t.id].fresh_dict = getattr(v, 'fresh_dict', False)      # (geojson_doc) a dict made here may be stored into
+                # `ys = xs` / `ys = self.xs`: a second name for the same list object — growing it would change the other too
+                self.env[t.id].alias = isinstance(value, (ast.Name, ast.Attribute)) and v.typ.startswith(('List ', 'Set ', 'DDL '))
                 self.narrow.pop(t.id, None)
             elif isinstance(t, ast.Attribute) and isinstance(t.value, ast.Name) and t.value.id == 'self' \
                     and self.inst.qual.endswith('.__init__'):
                 self.fields[t.attr] = v
-            elif isinstance(t, ast.Subscript) and (t, v) == pairs[-1]:
-                return '\n'.join(lets + [self.assign_item(t, v, rest)])
+            elif 'frame' in self.u.hooks and isinstance(t, (ast.Attribute, ast.Subscript)) and len(pairs) == 1:
+                return self.store_framed(t, v, lets, rest)
             else:
                 raise Unsupported(f'`{self.inst.qual}`: assignment to `{ast.unparse(t)}`')
         return '\n'.join(lets + [self.block(rest)])
+
+    def aug_assign(self, s, rest):
+        """`x op= v` on a number or a string (immutable values: the same as `x = x op v`), or on a cell of a fixed-length list"""
+        t = s.target
+        if isinstance(t, ast.Name):
+            cur = self.env.get(t.id)
+            if cur is None or cur.typ not in ('Nat', 'Int', 'R', 'N', 'Td', 'List Ch'):
+                raise Unsupported(f'`{self.inst.qual}`: `{ast.unparse(s)}` on {cur.typ if cur else "an unbound name"}')
+            load = ast.Name(id=t.id, ctx=ast.Load())
+        elif isinstance(t, ast.Subscript) and isinstance(t.value, ast.Name) and t.value.id in self.env \
+                and self.env[t.value.id].typ.startswith('Cells'):
+            load = ast.Subscript(value=t.value, slice=t.slice, ctx=ast.Load())
+        else:
+            raise Unsupported(f'`{self.inst.qual}`: `{ast.unparse(s)}`')
+        new = ast.Assign(targets=[t], value=ast.BinOp(left=load, op=s.op, right=s.value))
+        return self.assign(ast.fix_missing_locations(ast.copy_location(new, s)), rest)
+
+    def cells_display(self, name, value):
+        """`name = [a, b, …]` where, in the whole function, `name` is only ever read or written through a literal subscript
+        in range (or re-bound to a display of the same length): the list can not be aliased, resized or escape, so it is
+        the tuple of its cells"""
+        if not (isinstance(value, ast.List) and value.elts and not any(isinstance(x, ast.Starred) for x in value.elts)):
+            return False
+        if not self.u.hooks.get('cells'):
+            return False
+        n, allowed = len(value.elts), set()
+        for node in ast.walk(self.fn):
+            if isinstance(node, ast.Subscript) and isinstance(node.value, ast.Name) and node.value.id == name \
+                    and isinstance(node.slice, ast.Constant) and isinstance(node.slice.value, int) \
+                    and not isinstance(node.slice.value, bool) and 0 <= node.slice.value < n:
+                allowed.add(id(node.value))
+            if isinstance(node, ast.Assign) and len(node.targets) == 1 and isinstance(node.targets[0], ast.Name) \
+                    and node.targets[0].id == name and isinstance(node.value, ast.List) and len(node.value.elts) == n \
+                    and not any(isinstance(x, ast.Starred) for x in node.value.elts):
+                allowed.add(id(node.targets[0]))
+        return all(id(node) in allowed for node in ast.walk(self.fn) if isinstance(node, ast.Name) and node.id == name)
 
     def finish_init(self):
         hook = self.u.hooks.get('init')
@@ -671,11 +1293,13 @@ class FnTr:
         """`for x in xs: if c: return K` (early exit, nothing else in the body), then the rest"""
         if s.orelse:
             raise Unsupported(f'`{self.inst.qual}`: for/else')
-        xs = self.expr(s.iter)
-        if not xs.typ.startswith('List ') and 'iter' in self.u.hooks:
-            xs = self.u.hooks['iter'](self, xs) or xs
+        xs = self.iterable(s.iter)
+        if xs.typ.startswith('Set ') and '?' not in xs.typ and self.u.hooks.get('local_defs'):
+            xs = Val(xs.text, 'List ' + xs.typ[4:])        # a set is iterated as the list of its elements
         if not xs.typ.startswith('List '):
             raise Unsupported(f'`{self.inst.qual}`: loop over {xs.typ}')
+        if getattr(self, 'heap', None) is not None:
+            return self.pc_for_store(s, rest, xs)
         pair = isinstance(s.target, ast.Tuple) and len(s.target.elts) == 2 and all(isinstance(t, ast.Name) for t in s.target.elts) \
             and len(_prod_parts(xs.typ[5:])) == 2
         if (isinstance(s.target, ast.Name) or pair) and len(s.body) == 1 and isinstance(s.body[0], ast.If) and not s.body[0].orelse and len(s.body[0].body) == 1 \
@@ -700,10 +1324,280 @@ class FnTr:
             return self.wrap(f'if ({xs.text}).any (fun {x} => {c}) then {self.ok("true" if k else "false")} else\n{_indent(after)}')
         return self.for_general(s, rest, xs)
 
+    # ---- the collection subset of the `pycoll` units (SrcTrack, SrcMulti) ---------------------------------------------
+    #
+    # `continue`; `xs.append(e)` where `e` holds calls that may raise; a `defaultdict(list)` as an insertion-ordered
+    # association list (`DDL K V`, `d[k].append(v)` = `GV.Py.ddAppend`); lists indexed by an int (`GV.Py.getIdxI`: Python's
+    # rule, IndexError outside); float `/` that raises on a zero divisor; `len` / `range` / `sum` / `min(xs)` / `max(xs)` /
+    # `list(zip(*rows))`; map and dict comprehensions; conditional expressions with an arm that may raise; and instances that
+    # work on a heap of objects (`Heap T`: `pc_for_store`, object-creating calls in `call`).  Lean side: Model/PyColl.lean.
+
+    def pc_stmt(self, s, rest):
+        """a statement of the collection subset, or None (then the ordinary translation applies)"""
+        if isinstance(s, ast.Continue):
+            if self.on_fall is None:
+                raise Unsupported(f'`{self.inst.qual}`: `continue` outside a translated loop')
+            return self.on_fall(self)             # the next iteration with the current state; what follows is not run
+        c = s.value if isinstance(s, ast.Expr) else None
+        if isinstance(c, ast.Call) and isinstance(c.func, ast.Attribute) and c.func.attr == 'append' and len(c.args) == 1 \
+                and isinstance(c.func.value, ast.Name) and c.func.value.id in self.env \
+                and self.env[c.func.value.id].typ.startswith('List '):
+            n = c.func.value.id
+            v = self.expr(c.args[0])
+            old = self.env[n]
+            if getattr(old, 'alias', False) or n in [p for p, _t in self.inst.params]:
+                raise Unsupported(f'`{self.inst.qual}`: `{n}.append(…)` on a list that is also reachable under another name')
+            if old.typ != 'List ' + v.typ:
+                raise Unsupported(f'append of {v.typ} to {old.typ}')
+            nm = self.gensym(lname(n))
+            self.env[n] = Val(nm, old.typ, path=n)
+            pend, self.pending = self.pending, []      # raising calls inside the appended value: bound first
+            inner = self.block(rest)
+            self.pending = pend
+            return self.wrap(f'let {nm} := ({old.text} ++ [{v.text}])\n' + inner)
+        if isinstance(c, ast.Call) and isinstance(c.func, ast.Attribute) and c.func.attr == 'append' and len(c.args) == 1 \
+                and isinstance(c.func.value, ast.Subscript) and isinstance(c.func.value.value, ast.Name) \
+                and c.func.value.value.id in self.env and self.env[c.func.value.value.id].typ.startswith('DDL '):
+            # `d[k].append(v)` on a local `defaultdict(list)`
+            n = c.func.value.value.id
+            old = self.env[n]
+            kt, vt = _prod_parts('Prod ' + old.typ[4:])
+            k = self.expr(c.func.value.slice)
+            v = self.expr(c.args[0])
+            if (k.typ, v.typ) != (kt, vt):
+                raise Unsupported(f'`{ast.unparse(s)}`: ({k.typ}, {v.typ}) into {old.typ}')
+            nm = self.gensym(lname(n))
+            self.env[n] = Val(nm, old.typ, path=n)
+            pend, self.pending = self.pending, []
+            inner = self.block(rest)
+            self.pending = pend
+            return self.wrap(f'let {nm} := (GV.Py.ddAppend {old.text} {_paren(k.text)} {_paren(v.text)})\n' + inner)
+        return None
+
+    def pc_expr(self, e):
+        """an expression of the collection subset, or None"""
+        if isinstance(e, ast.IfExp) and self.static_test(e.test) is None and not self.has_optional_test(e.test):
+            if self.inst.raises:
+                r = self.pc_ifexp_raising(e)
+                if r is not None:
+                    return r
+            a, b = self.expr(e.body), self.expr(e.orelse)
+            if {a.typ, b.typ} == {'R', 'Int'}:
+                a, b = self.unify_num(a, b)               # `0 if c else x` next to a float: the same number
+            if a.typ != b.typ:
+                raise Unsupported(f'conditional expression of types {a.typ} / {b.typ}')
+            return Val(f'(if {self.truth(self.expr(e.test))} then {a.text} else {b.text})', a.typ)
+        if isinstance(e, ast.BinOp) and isinstance(e.op, ast.Div):
+            a, b = self.unify_num(self.expr(e.left), self.expr(e.right))
+            if a.typ == b.typ == 'R':
+                r = Val(f'(GV.Py.divR {a.text} {b.text})', 'R')              # ZeroDivisionError on a zero divisor
+                r.raises = True
+                return r
+            raise Unsupported(f'`{ast.unparse(e)[:60]}`: {a.typ} / {b.typ}')
+        if isinstance(e, ast.Subscript) and not isinstance(e.slice, ast.Slice) and not (
+                isinstance(e.slice, ast.Constant) and (isinstance(e.slice.value, str) or isinstance(e.slice.value, int) and e.slice.value >= 0)):
+            v = self.expr(e.value)                    # `xs[-1]`, `xs[i]` for an int `i`: Python's index rule
+            i = self.expr(e.slice) if v.typ.startswith('List ') else None
+            if i is None or i.typ != 'Int':
+                raise Unsupported(f'`{self.inst.qual}`: subscript `{ast.unparse(e)}` of {v.typ}')
+            r = Val(f'(GV.Py.getIdxI {_paren(v.text)} {i.text})', v.typ[5:])
+            r.raises = True
+            return r
+        if isinstance(e, ast.ListComp) and len(e.generators) == 1 and not e.generators[0].ifs:
+            return self.pc_map_comp(e)             # `[f(x) for x in xs]`, `[f(x, y) for x, y in zip(xs, ys)]`
+        if isinstance(e, ast.DictComp):
+            return self.pc_dict_comp(e)
+        if isinstance(e, ast.Call) and isinstance(e.func, ast.Name) and e.func.id not in self.env and not e.keywords:
+            f = e.func
+            if f.id == 'defaultdict' and len(e.args) == 1 and isinstance(e.args[0], ast.Name) and e.args[0].id == 'list':
+                return Val('[]', 'DDL ?')
+            if f.id == 'len' and len(e.args) == 1:
+                v = self.expr(e.args[0])
+                if v.typ.startswith('List '):
+                    return Val(f'(GV.Py.len {v.text})', 'Int')
+                raise Unsupported(f'len() of {v.typ}')
+            if f.id == 'range' and len(e.args) in (1, 2):
+                vals = [self.expr(a) for a in e.args]
+                if all(v.typ == 'Int' for v in vals):
+                    lo = vals[0].text if len(vals) == 2 else '(0 : Int)'
+                    return Val(f'(GV.Py.rangeI {lo} {vals[-1].text})', 'List Int')
+                raise Unsupported('range() of ' + ', '.join(v.typ for v in vals))
+            if f.id == 'sum' and len(e.args) == 1:
+                v = self.expr(e.args[0])
+                if v.typ == 'List R':
+                    return Val(f'(GV.Py.sumR {v.text})', 'R')
+                raise Unsupported(f'sum() of {v.typ}')
+            if f.id in ('min', 'max') and len(e.args) == 1:
+                v = self.expr(e.args[0])
+                if v.typ == 'List R':
+                    r = Val(f'(GV.Py.{f.id}L {v.text})', 'R')       # the first extremal element; ValueError on an empty sequence
+                    r.raises = True
+                    return r
+                raise Unsupported(f'{f.id}() of {v.typ}')
+            if f.id == 'list' and len(e.args) == 1 and isinstance(e.args[0], ast.Call) and isinstance(e.args[0].func, ast.Name) \
+                    and e.args[0].func.id == 'zip' and len(e.args[0].args) == 1 and isinstance(e.args[0].args[0], ast.Starred):
+                v = self.expr(e.args[0].args[0].value)          # `list(zip(*rows))`: the columns
+                parts = _prod_parts(v.typ[5:]) if v.typ.startswith('List Prod ') else []
+                if v.typ.startswith('List Tuple4 '):
+                    r = Val(f'(GV.Py.unzip4 {v.text})', 'Tuple4 List ' + v.typ.split(' ', 2)[2])
+                    r.raises = True                              # unpacking the columns of an empty list: ValueError
+                    return r
+                if len(parts) != 2:
+                    raise Unsupported(f'zip(*…) of {v.typ}')
+                r = Val(f'(GV.Py.unzip2 {v.text})', f'Prod {_paren("List " + parts[0])} {_paren("List " + parts[1])}')
+                r.raises = True
+                return r
+            if f.id == 'list' and len(e.args) == 1:
+                v = self.expr(e.args[0])
+                if v.typ.startswith('List '):
+                    return v                                     # `list(xs)` of a list: a list is a value here
+                raise Unsupported(f'list() of {v.typ}')
+        return None
+
+    def pc_map_comp(self, e):
+        """`[f(x) for x in xs]` -> `xs.map`; the element expression must not raise.  In an instance that works on the heap an
+        element expression that creates objects threads the heap through the list (`GV.Py.mapH`)."""
+        gen = e.generators[0]
+        xs = self.expr(gen.iter)
+        if not xs.typ.startswith('List '):
+            raise Unsupported(f'comprehension over {xs.typ}')
+        tgt = gen.target
+        pair = isinstance(tgt, ast.Tuple) and len(tgt.elts) == 2 and all(isinstance(t, ast.Name) for t in tgt.elts)
+        if not (isinstance(tgt, ast.Name) or pair):
+            raise Unsupported(f'`{self.inst.qual}`: comprehension target `{ast.unparse(tgt)}`')
+        x = self.gensym(lname(tgt.id) if not pair else 'pair')
+        inner = self.sub()
+        inner.fresh = self.fresh
+        if pair:
+            parts = _prod_parts(xs.typ[5:])
+            if len(parts) != 2:
+                raise Unsupported(f'unpacking {xs.typ[5:]} into two names')
+            for i, t in enumerate(tgt.elts):
+                inner.env[t.id] = Val(f'{x}.{i + 1}', parts[i], path=t.id)
+        else:
+            inner.env[tgt.id] = Val(x, xs.typ[5:], path=tgt.id)
+        hh = None
+        if self.heap is not None:
+            hh = inner.gensym('heap')
+            inner.heap = hh
+        v = inner.expr(e.elt, allow_raise=True)
+        if any(not isinstance(n, LetName) for n, _c in inner.pending) or getattr(v, 'raises', False):
+            raise Unsupported(f'`{self.inst.qual}`: a call that may raise inside `{ast.unparse(e)[:60]}`')
+        if inner.pending:
+            if hh is None:
+                raise Unsupported(f'`{self.inst.qual}`: object updates inside `{ast.unparse(e)[:60]}`')
+            body = inner.wrap(f'({inner.heap}, {v.text})')
+            self.fresh = inner.fresh
+            nm = self.gensym('hr')
+            self.pending.append((LetName(nm), f'GV.Py.mapH (fun {hh} {x} =>\n{_indent(body, 4)}) {self.heap} {xs.text}'))
+            self.heap = f'{nm}.1'
+            r = Val(f'{nm}.2', 'List ' + v.typ)
+            r.fresh = getattr(v, 'fresh', False)
+            return r
+        self.fresh = inner.fresh
+        return Val(f'(({xs.text}).map (fun {x} => {v.text}))', 'List ' + v.typ)
+
+    def pc_dict_comp(self, e):
+        """`{k: v for a in xs for k, v in <pairs of a>}` / `{k: v for k, v in <pairs>}`: later pairs overwrite in place"""
+        g = e.generators
+        last = g[-1]
+        ok = (len(g) in (1, 2) and not any(x.ifs for x in g) and isinstance(last.target, ast.Tuple) and len(last.target.elts) == 2
+              and all(isinstance(t, ast.Name) for t in last.target.elts)
+              and isinstance(e.key, ast.Name) and isinstance(e.value, ast.Name)
+              and [e.key.id, e.value.id] == [t.id for t in last.target.elts] and e.key.id != e.value.id
+              and (len(g) == 1 or isinstance(g[0].target, ast.Name)))
+        if not ok:
+            raise Unsupported(f'`{self.inst.qual}`: dict comprehension `{ast.unparse(e)[:80]}`')
+        if len(g) == 1:
+            pairs = self.expr(last.iter)
+            text = pairs.text
+        else:
+            xs = self.expr(g[0].iter)
+            if not xs.typ.startswith('List '):
+                raise Unsupported(f'comprehension over {xs.typ}')
+            x = self.gensym(lname(g[0].target.id))
+            inner = self.sub()
+            inner.fresh = self.fresh
+            inner.env[g[0].target.id] = Val(x, xs.typ[5:], path=g[0].target.id)
+            pairs = inner.expr(last.iter)
+            if inner.pending:
+                raise Unsupported(f'`{self.inst.qual}`: a call that may raise inside a dict comprehension')
+            self.fresh = inner.fresh
+            text = f'(({xs.text}).flatMap (fun {x} => {pairs.text}))'
+        if pairs.typ != 'List Prod Str PVal':
+            raise Unsupported(f'dict comprehension over {pairs.typ}')
+        return Val(f'(GV.Py.dictOf {text})', 'Props')
+
+    def pc_ifexp_raising(self, e):
+        """`a if c else b` where an arm holds a call that may raise: the call is made only when its arm is chosen"""
+        ta, tb = self.sub(), self.sub()
+        ta.fresh = tb.fresh = self.fresh + 1000           # scratch translation: names must not collide with the caller's
+        try:
+            ta.expr(e.body), tb.expr(e.orelse)
+        except Unsupported:
+            return None
+        if not (ta.pending or tb.pending):
+            return None
+        c = self.truth(self.expr(e.test))                 # the test is evaluated first (its own raising calls are bound outside)
+        ta, tb = self.sub(), self.sub()
+        ta.fresh = tb.fresh = self.fresh
+        a = ta.expr(e.body)
+        tb.fresh = ta.fresh
+        b = tb.expr(e.orelse)
+        self.fresh = tb.fresh
+        if {a.typ, b.typ} == {'R', 'Int'}:
+            a, b = self.unify_num(a, b)
+        if a.typ != b.typ:
+            raise Unsupported(f'conditional expression of types {a.typ} / {b.typ}')
+        arm_a = ta.wrap(f'Except.ok {_paren(a.text)}')
+        arm_b = tb.wrap(f'Except.ok {_paren(b.text)}')
+        r = Val(f'(if {c} then\n{_indent(arm_a)}\nelse\n{_indent(arm_b)})', a.typ)
+        r.raises = True
+        return r
+
+    def pc_for_store(self, s, rest, xs):
+        """`for x in xs: x.f = e; x.g = e'` in an instance that works on the heap: every element is replaced by the updated
+        record.  Only over a local list of *fresh* objects (built by this function from calls declared to return new
+        objects): a store through a list whose elements may be shared is outside the subset."""
+        ok = (isinstance(s.target, ast.Name) and isinstance(s.iter, ast.Name) and s.iter.id in self.env and s.body
+              and all(isinstance(b, ast.Assign) and len(b.targets) == 1 and isinstance(b.targets[0], ast.Attribute)
+                      and isinstance(b.targets[0].value, ast.Name) and b.targets[0].value.id == s.target.id for b in s.body))
+        if not ok:
+            raise Unsupported(f'`{self.inst.qual}`: loop `{ast.unparse(s)[:60]}` in an instance that works on the heap')
+        if not getattr(self.env[s.iter.id], 'fresh', False):
+            raise Unsupported(f'`{self.inst.qual}`: attribute stores through `{s.iter.id}`, whose elements may be shared objects')
+        elem = xs.typ[5:]
+        stores = self.u.hooks.get('stores', {})
+        hh, x = self.gensym('heap'), self.gensym(lname(s.target.id))
+        inner = self.sub()
+        inner.fresh = self.fresh
+        inner.heap = hh
+        cur = x
+        for b in s.body:
+            inner.env[s.target.id] = Val(cur, elem, path=None)
+            v = inner.expr(b.value)
+            field = stores.get((elem, b.targets[0].attr))
+            if not field or field[1] != v.typ:
+                raise Unsupported(f'`{self.inst.qual}`: store `{ast.unparse(b)}` of {v.typ} into {elem}')
+            cur = f'{{ {cur} with {field[0]} := {v.text} }}'
+        if any(not isinstance(n, LetName) for n, _c in inner.pending):
+            raise Unsupported(f'`{self.inst.qual}`: a call that may raise inside a storing loop')
+        body = inner.wrap(f'({inner.heap}, {cur})')
+        self.fresh = inner.fresh
+        nm = self.gensym('hr')
+        call = f'GV.Py.mapH (fun {hh} {x} =>\n{_indent(body, 4)}) {self.heap} {xs.text}'
+        self.heap = f'{nm}.1'
+        new = Val(f'{nm}.2', xs.typ, path=s.iter.id)
+        new.fresh = True
+        self.env[s.iter.id] = new
+        return f'let {nm} := {call}\n' + self.block(rest)
+
     def while_stmt(self, s, rest):
         """`while c: body` (assignments only) as a *fuelled* recursion: an auxiliary definition over a `Nat` fuel and the
         assigned variables; fuel 0 and a false condition both continue with the code after the loop.  The fuel handed in at
         the call is the unit's (`hooks['fuel']`): a bound the property proofs show is never exhausted."""
+        if 'frame' in self.u.hooks:
+            raise Unsupported(f'`{self.inst.qual}`: a loop in a unit that threads object state')
         if s.orelse:
             raise Unsupported(f'`{self.inst.qual}`: while/else')
         assigned = set()
@@ -716,8 +1610,10 @@ class FnTr:
             if isinstance(n, (ast.For, ast.While, ast.Break, ast.Continue, ast.Try, ast.With, ast.Return, ast.Raise)):
                 raise Unsupported(f'`{self.inst.qual}`: `{type(n).__name__}` inside a while body')
         state = [n for n in self.env if n in assigned]
-        if set(state) != assigned:
+        if set(state) != assigned and not self.u.hooks.get('body_locals'):
             raise Unsupported(f'`{self.inst.qual}`: while body assigns names that are not defined before the loop')
+        # (with `body_locals`: a name first assigned inside the body is local to one iteration — it is not in scope at the
+        #  top of the body nor after the loop, so a read that would see the previous iteration's value is rejected as unbound)
         fixed = [n for n in self.env if n not in state and self.env[n].typ not in ('None', 'Kw')]
         loop = f'{self.inst.lean}.loop{len(self.aux) + 1}'
         index = len(self.aux) + 1
@@ -737,10 +1633,12 @@ class FnTr:
             nm = aux.gensym(lname(n))
             fixed_b.append((nm, self.env[n].typ))
             aux.env[n] = Val(nm, self.env[n].typ, path=n)
+            aux.env[n].alias = getattr(self.env[n], 'alias', False)      # (a second name for a list object stays one)
         for n in state:
             nm = aux.gensym(lname(n))
             state_b.append((nm, self.env[n].typ))
             aux.env[n] = Val(nm, self.env[n].typ, path=n)
+            aux.env[n].alias = getattr(self.env[n], 'alias', False)      # (a second name for a list object stays one)
         fuel = aux.gensym('fuel')
         after_tr = aux.sub()
         after_tr.fresh = aux.fresh
@@ -769,11 +1667,15 @@ class FnTr:
         args = [self.env[n].text for n in fixed] + [_paren(fuel_call)] + [_paren(self.env[n].text) for n in state]
         return self.wrap(' '.join([loop] + ctx + args))
 
-    def for_general(self, s, rest, xs):
-        """A loop with state: an auxiliary structural recursion over the list.  Its parameters are every variable in
-        scope (unchanged ones first, then the *state*: the outer variables the body assigns); `[]` continues with the code
-        after the loop, `item :: items` runs the body, where falling off the end is the recursive call with the current
-        state and `return` leaves the function."""
+    def while_value(self, s, rest):
+        """`while c: body` inside the body of another loop, as a *fuelled* recursion that **returns the loop's state** (the
+        variables the body assigns / appends to / pops from); the caller rebinds them and goes on with the statements after
+        the loop.  In an instance that may raise the result is in `Except`: the test and the body may raise (`xs[-2]`,
+        `xs.pop()`), `A and B` evaluates `B` only when `A` holds, and running out of fuel *while the test still holds* is
+        the error "ERR:Fuel" — so an equality `… = Except.ok model` also says the fuel was enough.  The fuel handed in is
+        the unit's (`hooks['loop_fuel'](qual, state names)`, else `hooks['fuel'](qual, index)`)."""
+        if s.orelse:
+            raise Unsupported(f'`{self.inst.qual}`: while/else')
         assigned = set()
         for n in ast.walk(ast.Module(body=s.body, type_ignores=[])):
             if isinstance(n, (ast.Assign, ast.AugAssign, ast.AnnAssign)):
@@ -782,17 +1684,174 @@ class FnTr:
                         if isinstance(m, ast.Name):
                             assigned.add(m.id)
             if isinstance(n, ast.Expr) and isinstance(n.value, ast.Call) and isinstance(n.value.func, ast.Attribute) \
-                    and n.value.func.attr in ('add', 'append') and isinstance(n.value.func.value, ast.Name):
+                    and n.value.func.attr in ('add', 'append', 'pop') and isinstance(n.value.func.value, ast.Name):
                 assigned.add(n.value.func.value.id)
-            if isinstance(n, (ast.While, ast.Break, ast.Continue, ast.Try, ast.With)):
+            if isinstance(n, (ast.For, ast.While, ast.Break, ast.Continue, ast.Try, ast.With, ast.Return, ast.Raise)):
+                raise Unsupported(f'`{self.inst.qual}`: `{type(n).__name__}` inside a nested while body')
+        state = [n for n in self.env if n in assigned]
+        if set(state) != assigned or not state:
+            raise Unsupported(f'`{self.inst.qual}`: nested while body must assign names defined before the loop (assigns {sorted(assigned)})')
+        fixed = [n for n in self.env if n not in state and self.env[n].typ not in ('None', 'Kw')]
+        index = len(self.aux) + 1
+        loop = f'{self.inst.lean}.loop{index}'
+        self.aux.append(None)
+        slot = len(self.aux) - 1
+        fuel_t = None
+        if 'loop_fuel' in self.u.hooks:
+            fuel_t = self.u.hooks['loop_fuel'](self.inst.qual, list(state))
+        if not fuel_t and 'fuel' in self.u.hooks:
+            fuel_t = self.u.hooks['fuel'](self.inst.qual, index)
+        if not fuel_t:
+            raise Unsupported(f'`{self.inst.qual}`: no fuel declared for the nested while loop over {state}')
+        fuel_call = fuel_t.format(**{n: self.env[n].text for n in self.env})
+        ctx = [n for n, _t in self.u.ctx_params]
+        aux = self.sub()
+        aux.fresh = self.fresh
+        aux.narrow = {}
+        aux.pending = []
+        fixed_b, state_b = [], []
+        for n in fixed:
+            nm = aux.gensym(lname(n))
+            fixed_b.append((nm, self.env[n].typ))
+            aux.env[n] = Val(nm, self.env[n].typ, path=n)
+            aux.env[n].alias = getattr(self.env[n], 'alias', False)      # (a second name for a list object stays one)
+        for n in state:
+            nm = aux.gensym(lname(n))
+            state_b.append((nm, self.env[n].typ))
+            aux.env[n] = Val(nm, self.env[n].typ, path=n)
+            aux.env[n].alias = getattr(self.env[n], 'alias', False)      # (a second name for a list object stays one)
+        fuel = aux.gensym('fuel')
+        types = [self.env[n].typ for n in state]
+
+        def done(tr):
+            for n, t in zip(state, types):
+                if tr.env[n].typ != t:
+                    raise Unsupported(f'`{self.inst.qual}`: `{n}` changes type in a nested while body ({t} -> {tr.env[n].typ})')
+            vals = [tr.env[n].text for n in state]
+            return tr.ok(vals[0] if len(vals) == 1 else '(' + ', '.join(vals) + ')')
+
+        def again(tr):
+            for n, t in zip(state, types):
+                if tr.env[n].typ != t:
+                    raise Unsupported(f'`{self.inst.qual}`: `{n}` changes type in a nested while body ({t} -> {tr.env[n].typ})')
+            return ' '.join([loop] + ctx + [tr.env[n].text for n in fixed] + [fuel] + [_paren(tr.env[n].text) for n in state])
+        zero_tr = aux.sub()
+        zero_tr.fresh = aux.fresh
+        if self.inst.raises:
+            zero = zero_tr.branch(s.test, lambda tr: 'Except.error "ERR:Fuel"', done)
+        else:
+            zero = done(zero_tr)
+        body_tr = aux.sub()
+        body_tr.fresh = aux.fresh
+        body_tr.on_fall = again
+
+        def run_body(tr):
+            tr.on_fall = again
+            return tr.block(list(s.body))
+        if self.inst.raises:
+            succ = body_tr.branch(s.test, run_body, done)
+        else:
+            cond = body_tr.truth(body_tr.expr(s.test))
+            inner = body_tr.sub()
+            inner.fresh = body_tr.fresh
+            succ = f'if {cond} then\n{_indent(run_body(inner))}\nelse\n{_indent(done(body_tr))}'
+        res_t = ' × '.join(_paren(lean_type(t)) for t in types)
+        res_t = f'Except String {_paren(res_t)}' if self.inst.raises else res_t
+        binders = ' '.join([f'({n} : {t})' for n, t in self.u.ctx_params] + [f'({n} : {lean_type(t)})' for n, t in fixed_b])
+        sig = ' → '.join(['Nat'] + [lean_type(t) for _n, t in state_b] + [res_t])
+        pat = ''.join(f', {n}' for n, _t in state_b)
+        self.aux[slot] = '\n'.join([
+            f'/-- the nested `while {ast.unparse(s.test)}` loop of `{self.inst.qual}` (fuelled; returns its state): state ' + ', '.join(state) + ' -/',
+            f'def {loop} {binders} : {sig}',
+            f'  | 0{pat} =>', _indent(zero, 4),
+            f'  | {fuel} + 1{pat} =>', _indent(succ, 4)])
+        # --- the call: rebind the state, go on with the statements after the loop
+        self.fresh = aux.fresh
+        call = ' '.join([loop] + ctx + [self.env[n].text for n in fixed] + [_paren(fuel_call)] + [_paren(self.env[n].text) for n in state])
+        res = self.gensym('st')
+        lets = []
+        if len(state) == 1:
+            res = self.gensym(lname(state[0]))
+            self.env[state[0]] = Val(res, types[0], path=state[0])
+            self.narrow.pop(state[0], None)
+        else:
+            k = len(state)
+            for i, (n, t) in enumerate(zip(state, types)):
+                nm = self.gensym(lname(n))
+                lets.append(f'let {nm} := {res}' + '.2' * i + ('.1' if i < k - 1 else ''))
+                self.env[n] = Val(nm, t, path=n)
+                self.narrow.pop(n, None)
+        after = '\n'.join(lets + [self.block(rest)])
+        if self.inst.raises:
+            return f'match {call} with\n| Except.error e => Except.error e\n| Except.ok {res} =>\n{_indent(after)}'
+        return f'let {res} := {call}\n{after}'
+
+    def iterable(self, e):
+        """the list of values a `for` (or `list(...)`) draws from an iterable expression"""
+        if isinstance(e, ast.Call) and isinstance(e.func, ast.Name) and e.func.id == 'reversed' and len(e.args) == 1 and not e.keywords:
+            v = self.iterable(e.args[0])
+            if not v.typ.startswith('List '):
+                raise Unsupported(f'reversed() of {v.typ}')
+            return Val(f'(({v.text}).reverse)', v.typ)
+        if isinstance(e, ast.Call) and isinstance(e.func, ast.Name) and e.func.id == 'list' and len(e.args) == 1 and not e.keywords:
+            return self.iterable(e.args[0])
+        v = self.expr(e)
+        if not v.typ.startswith('List ') and 'gj_iter' in self.u.hooks:
+            v = self.u.hooks['gj_iter'](self, v) or v            # (geojson_doc) iteration over a JSON value
+        return v
+
+    def for_general(self, s, rest, xs):
+        """A loop with state: an auxiliary structural recursion over the list.  Its parameters are every variable in
+        scope (unchanged ones first, then the *state*: the outer variables the body assigns); `[]` continues with the code
+        after the loop, `item :: items` runs the body, where falling off the end is the recursive call with the current
+        state and `return` leaves the function."""
+        if 'frame' in self.u.hooks:
+            raise Unsupported(f'`{self.inst.qual}`: a loop in a unit that threads object state')
+        if self.u.hooks.get('nested_fold') and self.on_fall is not None and not any(
+                isinstance(n, (ast.Return, ast.Raise)) for n in ast.walk(ast.Module(body=s.body, type_ignores=[]))):
+            return self.for_fold(s, rest, xs)
+        assigned = set()
+        for n in ast.walk(ast.Module(body=s.body, type_ignores=[])):
+            if isinstance(n, (ast.Assign, ast.AugAssign, ast.AnnAssign)):
+                for t in (n.targets if isinstance(n, ast.Assign) else [n.target]):
+                    for m in ast.walk(t):
+                        if isinstance(m, ast.Name):
+                            assigned.add(m.id)
+            if isinstance(n, ast.Expr) and isinstance(n.value, ast.Call) and isinstance(n.value.func, ast.Attribute) \
+                    and n.value.func.attr in ('add', 'append', 'pop') and isinstance(n.value.func.value, ast.Name):
+                assigned.add(n.value.func.value.id)
+            if self.u.hooks.get('pycoll') and isinstance(n, ast.Expr) and isinstance(n.value, ast.Call) \
+                    and isinstance(n.value.func, ast.Attribute) and n.value.func.attr == 'append' \
+                    and isinstance(n.value.func.value, ast.Subscript) and isinstance(n.value.func.value.value, ast.Name):
+                assigned.add(n.value.func.value.value.id)          # `d[k].append(v)`
+            if isinstance(n, ast.Continue) and self.u.hooks.get('pycoll'):
+                continue                                           # the next iteration with the current state (`pc_stmt`)
+            if self.u.hooks.get('local_defs') and isinstance(n, ast.Expr) and isinstance(n.value, ast.Call) \
+                    and isinstance(n.value.func, ast.Attribute) and n.value.func.attr in ('discard', 'sort') \
+                    and isinstance(n.value.func.value, ast.Name):
+                assigned.add(n.value.func.value.id)
+            if isinstance(n, ast.Continue) and self.u.hooks.get('local_defs'):
+                continue                                           # the next iteration with the current state (`ld_stmt`)
+            if isinstance(n, (ast.Continue, ast.Try, ast.With)) or isinstance(n, ast.Break) and not self.u.hooks.get('value_semantics'):
                 raise Unsupported(f'`{self.inst.qual}`: `{type(n).__name__}` inside a loop body')
+        has_break = _has_break(s.body)       # `break`: the code after the loop becomes a definition of its own (`<loop>.after`)
         targets = [s.target.id] if isinstance(s.target, ast.Name) else \
             [t.id for t in s.target.elts if isinstance(t, ast.Name)] if isinstance(s.target, ast.Tuple) else None
         if not targets or (isinstance(s.target, ast.Tuple) and len(targets) != len(s.target.elts)):
             raise Unsupported(f'`{self.inst.qual}`: loop target `{ast.unparse(s.target)}`')
+        # (the iterable is evaluated once, before the loop: a name it reads may be *rebound* by the body — unit hook
+        # `value_semantics` — but not mutated in place)
+        inplace = {n.value.func.value.id for n in ast.walk(ast.Module(body=s.body, type_ignores=[]))
+                   if isinstance(n, ast.Expr) and isinstance(n.value, ast.Call) and isinstance(n.value.func, ast.Attribute)
+                   and isinstance(n.value.func.value, ast.Name)}
+        if any(isinstance(n, ast.Name) and n.id in (inplace if self.u.hooks.get('value_semantics') else assigned)
+               for n in ast.walk(s.iter)):
+            raise Unsupported(f'`{self.inst.qual}`: the loop body changes what `{ast.unparse(s.iter)}` iterates over')
         state = [n for n in self.env if n in assigned and n not in targets]
         fixed = [n for n in self.env if n not in state and self.env[n].typ not in ('None', 'Kw')]
         elem = xs.typ[5:]
+        if self.on_fall is not None and self.u.hooks.get('local_defs'):
+            return self.for_nested(s, rest, xs, targets, state, fixed)
         loop = f'{self.inst.lean}.loop{len(self.aux) + 1}'
         self.aux.append(None)                 # reserve the number (nested / later loops count on)
         slot = len(self.aux) - 1
@@ -806,19 +1865,40 @@ class FnTr:
             nm = aux.gensym(lname(n))
             fixed_b.append((nm, self.env[n].typ))
             aux.env[n] = Val(nm, self.env[n].typ, path=n)
+            aux.env[n].alias = getattr(self.env[n], 'alias', False)      # (a second name for a list object stays one)
         for n in state:
             nm = aux.gensym(lname(n))
             state_b.append((nm, self.env[n].typ))
             aux.env[n] = Val(nm, self.env[n].typ, path=n)
+            aux.env[n].alias = getattr(self.env[n], 'alias', False)      # (a second name for a list object stays one)
         item, items = aux.gensym('item'), aux.gensym('items')
         # [] : the code after the loop
         after_tr = aux.sub()
         after_tr.fresh = aux.fresh
         after_tr.on_fall = self.on_fall
+        after_tr.on_break = getattr(self, 'on_break', None)
         after = after_tr.block(rest)
         # item :: items : the body
         body_tr = aux.sub()
         body_tr.fresh = after_tr.fresh
+        body_tr.on_break = None
+        after_def = []
+        # `prune_loop_params`: a variable in scope that neither the body nor the code after the loop reads is not handed to
+        # the auxiliary definitions (an extra local in front of the loop does not change their signatures); the unchanged
+        # variables are marked in the recursive calls and the marks resolved once both texts are known
+        prune = bool(self.u.hooks.get('prune_loop_params'))
+        mark = (lambda t: '\x01' + t + '\x02') if prune else (lambda t: t)
+        if has_break:
+            def leave(tr):
+                return ' '.join([f'{loop}.after'] + ctx + [mark(tr.env[n].text) for n in fixed] + [_paren(tr.env[n].text) for n in state])
+            after_def = [f'/-- the code after the `for {ast.unparse(s.target)} in {ast.unparse(s.iter)}` loop of `{self.inst.qual}`'
+                         ' (reached when the list is exhausted and by `break`), from the state ' + (', '.join(state) or 'none') + ' -/',
+                         f'def {loop}.after ' + ' '.join([f'({n} : {t})' for n, t in self.u.ctx_params] +
+                                                        [mark(f'({n} : {lean_type(t)})') for n, t in fixed_b] +
+                                                        [f'({n} : {lean_type(t)})' for n, t in state_b]) +
+                         f' : {lean_type(self.inst.ret)} :=', _indent(after), '']
+            after = leave(aux)
+            body_tr.on_break = leave
         if isinstance(s.target, ast.Name):
             body_tr.env[targets[0]] = Val(item, elem, path=targets[0])
         else:
@@ -832,15 +1912,29 @@ class FnTr:
                 body_tr.env[n] = Val(proj, t, path=n)
 
         def next_iteration(tr):
-            args = [tr.env[n].text for n in fixed] + [items] + [_paren(tr.env[n].text) for n in state]
+            args = [mark(tr.env[n].text) for n in fixed] + [items] + [_paren(tr.env[n].text) for n in state]
             return ' '.join([loop] + ctx + args)
         body_tr.on_fall = next_iteration
         body = body_tr.block(list(s.body))
         self.fresh = body_tr.fresh
-        binders = ' '.join([f'({n} : {t})' for n, t in self.u.ctx_params] + [f'({n} : {lean_type(t)})' for n, t in fixed_b])
-        sig = ' → '.join([f'List {_paren(lean_type(elem))}'] + [lean_type(t) for _n, t in state_b] + [lean_type(self.inst.ret)])
+        binders = ' '.join([f'({n} : {t})' for n, t in self.u.ctx_params] + [mark(f'({n} : {lean_type(t)})') for n, t in fixed_b])
+        if prune:
+            import re as _re
+            seen = _re.sub('\x01[^\x02]*\x02', '', '\n'.join(after_def + [after, body]))
+            dead = [i for i, (nm, _t) in enumerate(fixed_b)
+                    if not _re.search(r"(?<![\w.'])" + _re.escape(nm) + r"(?![\w'])", seen)]
+
+            def resolve(text):
+                for i in dead:
+                    nm, t = fixed_b[i]
+                    text = text.replace(' \x01' + nm + '\x02', '').replace(' \x01' + f'({nm} : {lean_type(t)})' + '\x02', '')
+                return text.replace('\x01', '').replace('\x02', '')
+            after_def, after, body, binders = [resolve(x) for x in after_def], resolve(after), resolve(body), resolve(binders)
+            fixed = [n for i, n in enumerate(fixed) if i not in dead]
+        sig = ' → '.join([f'List {(_parenw if self.u.hooks.get("pycoll") else _paren)(lean_type(elem))}'] +
+                         [lean_type(t) for _n, t in state_b] + [lean_type(self.inst.ret)])
         pat_state = ''.join(f', {n}' for n, _t in state_b)
-        self.aux[slot] = ('\n'.join([
+        self.aux[slot] = ('\n'.join(after_def + [
             f'/-- the `for {ast.unparse(s.target)} in {ast.unparse(s.iter)}` loop of `{self.inst.qual}`: state ' +
             (', '.join(state) or 'none') + ' -/',
             f'def {loop} {binders} : {sig}',
@@ -850,7 +1944,709 @@ class FnTr:
         args = [self.env[n].text for n in fixed] + [_paren(xs.text)] + [_paren(self.env[n].text) for n in state]
         return self.wrap(' '.join([loop] + ctx + args))
 
+    # ---- the work-list subset (unit hook `worklist`): local sets and dicts that are mutated, loops inside loops ----------
+    #
+    # hooks (Lean text templates of the unit):  set_add `{x} {s}` · set_pop `{s}` (an `Option`: which element `pop()` returns)
+    # · set_union `{f} {xs}` / set_union_e (members that may raise) · dict_append `{d} {k} {v}` · fuel_out (the result when a
+    # `while` runs out of fuel with its condition still true).  A `for` loop becomes an auxiliary structural recursion that
+    # *returns* the variables its body changes; a `while` loop a fuelled recursion whose continuation is the code after it.
+
+    @staticmethod
+    def _mut_base(node):
+        """the local a mutating method call acts on: `x.add(..)`, `x.pop()`, `d[k].append(..)`"""
+        if isinstance(node, ast.Call) and isinstance(node.func, ast.Attribute):
+            v = node.func.value
+            if isinstance(v, ast.Subscript):
+                v = v.value
+            if isinstance(v, ast.Name):
+                return v.id, node.func.attr
+        return None, None
+
+    def _mutated(self, stmts):
+        """names a block of statements may change: assignment targets and receivers of mutating calls"""
+        out = set()
+        for n in ast.walk(ast.Module(body=list(stmts), type_ignores=[])):
+            if isinstance(n, (ast.Assign, ast.AugAssign, ast.AnnAssign)):
+                for t in (n.targets if isinstance(n, ast.Assign) else [n.target]):
+                    for m in ast.walk(t):
+                        if isinstance(m, ast.Name):
+                            out.add(m.id)
+            if isinstance(n, ast.Call):
+                name, attr = self._mut_base(n)
+                if name is not None and name in self.env and self.env[name].typ.startswith(('Set ', 'DDict ', 'List ')) \
+                        and attr not in ('items', 'keys', 'values', 'get', 'copy'):
+                    out.add(name)
+        return out
+
+    @staticmethod
+    def _names_in(nodes):
+        return {m.id for n in nodes for m in ast.walk(n) if isinstance(m, ast.Name)}
+
+    def _bind_let(self, name, typ, text, rest):
+        """`let name' := text` followed by the rest, with the raising calls met in `text` bound around both"""
+        nm = self.gensym(lname(name))
+        self.env[name] = Val(nm, typ, path=name)
+        self.narrow.pop(name, None)
+        pend, self.pending = self.pending, []
+        inner = self.block(rest)
+        self.pending = pend
+        return self.wrap(f'let {nm} := {text}\n{inner}')
+
+    def ext_stmt(self, s, rest):
+        """a statement of the work-list subset, or None (then the ordinary translation applies)"""
+        H = self.u.hooks
+        if isinstance(s, (ast.Return, ast.Raise)) and getattr(self, 'no_return', False):
+            raise Unsupported(f'`{self.inst.qual}`: `{type(s).__name__.lower()}` inside a loop that is read as a state transformer')
+        if isinstance(s, ast.Continue):
+            if self.on_fall is None:
+                raise Unsupported(f'`{self.inst.qual}`: `continue` outside a loop')
+            return self.on_fall(self)              # the next iteration, with the current state
+        if isinstance(s, ast.While):
+            return self.while_worklist(s, rest)
+        if isinstance(s, ast.For):
+            b = s.body[0] if len(s.body) == 1 else None
+            early = isinstance(b, ast.If) and not b.orelse and len(b.body) == 1 and isinstance(b.body[0], ast.Return)
+            return None if early else self.for_state(s, rest)
+        if isinstance(s, ast.Expr) and isinstance(s.value, ast.Call):
+            c = s.value
+            name, attr = self._mut_base(c)
+            old = self.env.get(name) if name else None
+            direct = isinstance(c.func.value, ast.Name) if name else False
+            if old is not None and direct and attr == 'add' and old.typ.startswith('Set ') and 'set_add' in H and len(c.args) == 1 \
+                    and not c.keywords:
+                v = self.expr(c.args[0])
+                if old.typ != 'Set ' + v.typ:
+                    raise Unsupported(f'`{self.inst.qual}`: add of {v.typ} to {old.typ}')
+                return self._bind_let(name, old.typ, '(' + H['set_add'].format(x=_paren(v.text), s=_paren(old.text)) + ')', rest)
+            if old is not None and not direct and attr == 'append' and old.typ.startswith('DDict ') and 'dict_append' in H \
+                    and len(c.args) == 1 and not c.keywords:
+                kt, vt = old.typ.split()[1:3]
+                k, v = self.expr(c.func.value.slice), self.expr(c.args[0])     # key first, then the appended value
+                if (k.typ, v.typ) != (kt, vt):
+                    raise Unsupported(f'`{self.inst.qual}`: `{ast.unparse(s)}`: key {k.typ}, value {v.typ} on {old.typ}')
+                return self._bind_let(name, old.typ, '(' + H['dict_append'].format(d=_paren(old.text), k=_paren(k.text),
+                                                                                   v=_paren(v.text)) + ')', rest)
+            if old is not None and old.typ.startswith(('Set ', 'DDict ')):
+                raise Unsupported(f'`{self.inst.qual}`: `{ast.unparse(s)[:80]}` on a local {old.typ.split()[0]}')
+            return None
+        if isinstance(s, (ast.Assign, ast.AnnAssign)):
+            targets, value = ([s.target], s.value) if isinstance(s, ast.AnnAssign) else (s.targets, s.value)
+            if len(targets) != 1 or value is None:
+                return None
+            tgt = targets[0]
+            for part in (value.elts if isinstance(value, ast.Tuple) else [value]):
+                if isinstance(part, ast.Name) and part.id in self.env and self.env[part.id].typ.startswith(('Set ', 'DDict ')):
+                    raise Unsupported(f'`{self.inst.qual}`: `{ast.unparse(s)}` aliases a mutable local')
+            name, attr = self._mut_base(value)
+            old = self.env.get(name) if name else None
+            if old is not None and attr == 'pop' and old.typ.startswith('Set ') and isinstance(value.func.value, ast.Name):
+                if 'set_pop' not in H or value.args or value.keywords or not isinstance(tgt, ast.Name) or '?' in old.typ:
+                    raise Unsupported(f'`{self.inst.qual}`: `{ast.unparse(s)}`')
+                g, q2 = self.gensym(lname(tgt.id)), self.gensym(lname(name))
+                self.env[tgt.id] = Val(g, old.typ[4:], path=tgt.id)
+                self.env[name] = Val(q2, old.typ, path=name)
+                inner = self.block(rest)
+                # `set.pop()` removes and returns an arbitrary member; on an empty set it raises KeyError
+                return '\n'.join([f'match {H["set_pop"].format(s=_paren(old.text))} with', f'| none => {self.err("KeyError")}',
+                                  f'| some {g} =>', f'  let {q2} := ({old.text}).erase {g}', _indent(inner)])
+            if isinstance(tgt, ast.Tuple) and isinstance(value, ast.Tuple) and len(tgt.elts) == len(value.elts) \
+                    and all(isinstance(t, ast.Name) for t in tgt.elts) and all(self._is_empty_literal(v) for v in value.elts):
+                # `a, b = set(), set()`: constants on the right, so the same as one assignment after the other
+                return self.block([ast.Assign(targets=[t], value=v) for t, v in zip(tgt.elts, value.elts)] + rest)
+        return None
+
+    @staticmethod
+    def _is_empty_literal(v):
+        return (isinstance(v, ast.Call) and isinstance(v.func, ast.Name) and v.func.id in ('set', 'list', 'dict') and not v.args
+                and not v.keywords) or (isinstance(v, (ast.List, ast.Dict)) and not getattr(v, 'elts', getattr(v, 'keys', None)))
+
+    def _loop_frame(self, state, fixed):
+        """a sub-translator in which the variables in scope are the binders of an auxiliary definition"""
+        aux = self.sub()
+        aux.fresh = self.fresh
+        aux.narrow = {}
+        aux.env = {n: v for n, v in aux.env.items() if n in state or n in fixed or v.typ in ('None', 'Kw')}
+        fixed_b, state_b = [], []
+        for n in fixed:
+            nm = aux.gensym(lname(n))
+            fixed_b.append((nm, self.env[n].typ))
+            aux.env[n] = Val(nm, self.env[n].typ, path=n)
+            aux.env[n].alias = getattr(self.env[n], 'alias', False)      # (a second name for a list object stays one)
+        for n in state:
+            nm = aux.gensym(lname(n))
+            state_b.append((nm, self.env[n].typ))
+            aux.env[n] = Val(nm, self.env[n].typ, path=n)
+            aux.env[n].alias = getattr(self.env[n], 'alias', False)      # (a second name for a list object stays one)
+        return aux, fixed_b, state_b
+
+    def while_worklist(self, s, rest):
+        """`while c: body` as a fuelled recursion over the (name-sorted) variables the body changes; the code after the loop is
+        its continuation.  Fuel 0 with the condition still true is the unit's `fuel_out` result (else: as if the loop ended)."""
+        if s.orelse:
+            raise Unsupported(f'`{self.inst.qual}`: while/else')
+        if self.on_fall is not None:
+            raise Unsupported(f'`{self.inst.qual}`: a `while` inside another loop')
+        for n in ast.walk(ast.Module(body=s.body, type_ignores=[])):
+            if isinstance(n, (ast.While, ast.Break, ast.Try, ast.With, ast.Global, ast.Nonlocal, ast.Delete, ast.FunctionDef, ast.Lambda)):
+                raise Unsupported(f'`{self.inst.qual}`: `{type(n).__name__}` inside a while body')
+        mutated = self._mutated(s.body)
+        state = sorted(n for n in self.env if n in mutated)
+        used = self._names_in([s.test] + list(s.body) + list(rest))
+        fixed = [n for n in self.env if n not in state and n in used and self.env[n].typ not in ('None', 'Kw')]
+        if any('?' in self.env[n].typ for n in state + fixed):
+            raise Unsupported(f'`{self.inst.qual}`: a local of undeclared element type enters a loop')
+        index = len(self.aux) + 1
+        loop = f'{self.inst.lean}.loop{index}'
+        self.aux.append(None)
+        slot = len(self.aux) - 1
+        fuel_hook = self.u.hooks.get('fuel')
+        fuel_t = fuel_hook(self.inst.qual, index) if fuel_hook else None
+        if not fuel_t:
+            raise Unsupported(f'`{self.inst.qual}`: no fuel declared for while loop {index}')
+        fuel_call = fuel_t.format(**{n: self.env[n].text for n in self.env})
+        ctx = [n for n, _t in self.u.ctx_params]
+        aux, fixed_b, state_b = self._loop_frame(state, fixed)
+        fuel = aux.gensym('fuel')
+        after_tr = aux.sub()
+        after_tr.fresh = aux.fresh
+        after_tr.on_fall = None
+        after = after_tr.block(rest)
+        body_tr = aux.sub()
+        body_tr.fresh = after_tr.fresh
+        cond = body_tr.truth(body_tr.expr(s.test))
+        if body_tr.pending:
+            raise Unsupported(f'`{self.inst.qual}`: a call that may raise in a while test')
+
+        def again(tr):
+            return ' '.join([loop] + ctx + [tr.env[n].text for n in fixed] + [fuel] + [_paren(tr.env[n].text) for n in state])
+        body_tr.on_fall = again
+        body = body_tr.block(list(s.body))
+        self.fresh = body_tr.fresh
+        out = self.u.hooks.get('fuel_out')
+        if out and not self.inst.raises:
+            raise Unsupported(f'`{self.inst.qual}`: running out of fuel needs a result type that can say so')
+        zero = [f'    if {cond} then', _indent(out, 6), '    else', _indent(after, 6)] if out else [_indent(after, 4)]
+        binders = ' '.join([f'({n} : {t})' for n, t in self.u.ctx_params] + [f'({n} : {lean_type(t)})' for n, t in fixed_b])
+        sig = ' → '.join(['Nat'] + [lean_type(t) for _n, t in state_b] + [lean_type(self.inst.ret)])
+        pat = ''.join(f', {n}' for n, _t in state_b)
+        self.aux[slot] = '\n'.join([
+            f'/-- the `while {ast.unparse(s.test)}` loop of `{self.inst.qual}` (fuelled): state ' + ', '.join(state) + ' -/',
+            f'def {loop} {binders} : {sig}',
+            f'  | 0{pat} =>'] + zero + [
+            f'  | {fuel} + 1{pat} =>',
+            f'    if {cond} then', _indent(body, 6), '    else', _indent(after, 6)])
+        args = [self.env[n].text for n in fixed] + [_paren(fuel_call)] + [_paren(self.env[n].text) for n in state]
+        return self.wrap(' '.join([loop] + ctx + args))
+
+    def for_state(self, s, rest):
+        """`for x in xs: body` (no `return` / `raise` / `break` in the body) as an auxiliary structural recursion over `xs`
+        that returns the (name-sorted) variables the body changes; `continue` and the end of the body are the next iteration."""
+        if s.orelse:
+            raise Unsupported(f'`{self.inst.qual}`: for/else')
+        for n in ast.walk(ast.Module(body=s.body, type_ignores=[])):
+            if isinstance(n, (ast.While, ast.Break, ast.Try, ast.With, ast.Return, ast.Raise, ast.Global, ast.Nonlocal, ast.Delete,
+                              ast.FunctionDef, ast.Lambda, ast.Yield, ast.YieldFrom)):
+                raise Unsupported(f'`{self.inst.qual}`: `{type(n).__name__}` inside the body of a loop with state')
+        xs = self.expr(s.iter)
+        if not xs.typ.startswith(('List ', 'Set ')) or '?' in xs.typ:
+            raise Unsupported(f'`{self.inst.qual}`: loop over {xs.typ}')
+        elem = xs.typ.split(' ', 1)[1]
+        if not isinstance(s.target, ast.Name):
+            raise Unsupported(f'`{self.inst.qual}`: loop target `{ast.unparse(s.target)}`')
+        target = s.target.id
+        mutated = self._mutated(s.body)
+        if target in mutated:
+            raise Unsupported(f'`{self.inst.qual}`: the loop variable `{target}` is changed in the body')
+        state = sorted(n for n in self.env if n in mutated)
+        if not state:
+            raise Unsupported(f'`{self.inst.qual}`: a loop whose body changes nothing that is visible after it')
+        used = self._names_in(s.body)
+        fixed = [n for n in self.env if n not in state and n != target and n in used and self.env[n].typ not in ('None', 'Kw')]
+        if any('?' in self.env[n].typ for n in state + fixed):
+            raise Unsupported(f'`{self.inst.qual}`: a local of undeclared element type enters a loop')
+        loop = f'{self.inst.lean}.loop{len(self.aux) + 1}'
+        self.aux.append(None)
+        slot = len(self.aux) - 1
+        ctx = [n for n, _t in self.u.ctx_params]
+        aux, fixed_b, state_b = self._loop_frame(state, fixed)
+        rlean = ' × '.join(_paren(lean_type(t)) for _n, t in state_b)
+        aux.inst = Inst(self.inst.qual, self.inst.lean, self.inst.params, 'LoopState')      # no `return`, nothing may raise
+        aux.no_return = True
+        item, items = aux.gensym('item'), aux.gensym('items')
+
+        def result(tr):
+            return '(' + ', '.join(tr.env[n].text for n in state) + ')' if len(state) > 1 else tr.env[state[0]].text
+
+        def next_iteration(tr):
+            return ' '.join([loop] + ctx + [tr.env[n].text for n in fixed] + [items] + [_paren(tr.env[n].text) for n in state])
+        body_tr = aux.sub()
+        body_tr.fresh = aux.fresh
+        body_tr.env[target] = Val(item, elem, path=target)
+        body_tr.on_fall = next_iteration
+        body = body_tr.block(list(s.body))
+        if body_tr.pending:
+            raise Unsupported(f'`{self.inst.qual}`: a call that may raise inside the body of a loop with state')
+        self.fresh = body_tr.fresh
+        binders = ' '.join([f'({n} : {t})' for n, t in self.u.ctx_params] + [f'({n} : {lean_type(t)})' for n, t in fixed_b])
+        sig = ' → '.join([f'List {_paren(lean_type(elem))}'] + [lean_type(t) for _n, t in state_b] + [rlean])
+        pat = ''.join(f', {n}' for n, _t in state_b)
+        self.aux[slot] = '\n'.join([
+            f'/-- the `for {ast.unparse(s.target)} in {ast.unparse(s.iter)}` loop of `{self.inst.qual}`, as the function from the '
+            'state before it to the state after it: state ' + ', '.join(state) + ' -/',
+            f'def {loop} {binders} : {sig}',
+            f'  | []{pat} =>', _indent(result(aux), 4),
+            f'  | {item} :: {items}{pat} =>', _indent(body, 4)])
+        # --- the call: bind the state after the loop, then the rest
+        call = ' '.join([loop] + ctx + [self.env[n].text for n in fixed] + [_paren(xs.text)] + [_paren(self.env[n].text) for n in state])
+        t = self.gensym('st')
+        lets = [f'let {t} := {call}']
+        k = len(state)
+        for i, n in enumerate(state):
+            proj = t if k == 1 else t + '.2' * i + ('.1' if i < k - 1 else '')
+            nm = self.gensym(lname(n))
+            if k > 1:
+                lets.append(f'let {nm} := {proj}')
+            else:
+                lets[0] = f'let {nm} := {call}'
+            self.env[n] = Val(nm, self.env[n].typ, path=n)
+            self.narrow.pop(n, None)
+        pend, self.pending = self.pending, []
+        inner = self.block(rest)
+        self.pending = pend
+        return self.wrap('\n'.join(lets + [inner]))
+
+    def ext_expr(self, e):
+        """an expression of the work-list subset, or None"""
+        H = self.u.hooks
+        if isinstance(e, ast.Set):
+            # `{a, b}`: the elements added one after the other to an empty set
+            if 'set_add' not in H or any(isinstance(x, ast.Starred) for x in e.elts):
+                raise Unsupported(f'`{self.inst.qual}`: set display `{ast.unparse(e)[:60]}`')
+            vals = [self.expr(x) for x in e.elts]
+            if any(v.typ != vals[0].typ for v in vals):
+                raise Unsupported(f'`{self.inst.qual}`: set display of mixed types')
+            txt = f'([] : {lean_type("Set " + vals[0].typ)})'
+            for v in vals:
+                txt = '(' + H['set_add'].format(x=_paren(v.text), s=txt) + ')'
+            return Val(txt, 'Set ' + vals[0].typ)
+        if isinstance(e, ast.SetComp):
+            # `{x for m in ms for x in f(m)}`: the members' sets, added element by element in order
+            g = e.generators
+            if not (len(g) == 2 and not g[0].ifs and not g[1].ifs and not g[0].is_async and not g[1].is_async
+                    and isinstance(g[0].target, ast.Name) and isinstance(g[1].target, ast.Name) and isinstance(e.elt, ast.Name)
+                    and e.elt.id == g[1].target.id and g[0].target.id != g[1].target.id and 'set_union' in H):
+                raise Unsupported(f'`{self.inst.qual}`: set comprehension other than `{{x for m in ms for x in f(m)}}`')
+            ms = self.expr(g[0].iter)
+            if not ms.typ.startswith('List '):
+                raise Unsupported(f'`{self.inst.qual}`: set comprehension over {ms.typ}')
+            m = self.gensym(lname(g[0].target.id))
+            inner = self.sub()
+            inner.fresh = self.fresh
+            inner.env[g[0].target.id] = Val(m, ms.typ[5:], path=g[0].target.id)
+            f = inner.expr(g[1].iter, allow_raise=True)
+            self.fresh = inner.fresh
+            if inner.pending or not f.typ.startswith('Set ') or '?' in f.typ:
+                raise Unsupported(f'`{self.inst.qual}`: set comprehension over members of type {f.typ}')
+            raises = getattr(f, 'raises', False)
+            v = Val('(' + H['set_union_e' if raises else 'set_union'].format(f=f'(fun {m} => {f.text})', xs=_paren(ms.text)) + ')', f.typ)
+            v.raises = raises
+            return v
+        if isinstance(e, ast.DictComp):
+            # `{k: f(v) for k, v in d.items()}` over a local dict: the association list mapped in insertion order
+            g = e.generators
+            it = g[0].iter if len(g) == 1 else None
+            if not (it is not None and not g[0].ifs and not g[0].is_async and isinstance(g[0].target, ast.Tuple) and len(g[0].target.elts) == 2
+                    and all(isinstance(t, ast.Name) for t in g[0].target.elts) and isinstance(it, ast.Call) and not it.args and not it.keywords
+                    and isinstance(it.func, ast.Attribute) and it.func.attr == 'items' and isinstance(it.func.value, ast.Name)
+                    and g[0].target.elts[0].id != g[0].target.elts[1].id):
+                raise Unsupported(f'`{self.inst.qual}`: dict comprehension other than `{{k: f(v) for k, v in d.items()}}`')
+            d = self.expr(it.func.value)
+            if not d.typ.startswith('DDict ') or '?' in d.typ:
+                raise Unsupported(f'`{self.inst.qual}`: `.items()` of {d.typ}')
+            kt, vt = d.typ.split()[1:3]
+            p = self.gensym('kv')
+            inner = self.sub()
+            inner.fresh = self.fresh
+            kn, vn = (t.id for t in g[0].target.elts)
+            inner.env[kn] = Val(f'{p}.1', kt, path=kn)
+            inner.env[vn] = Val(f'{p}.2', 'List ' + vt, path=vn)
+            key, val = inner.expr(e.key), inner.expr(e.value)
+            self.fresh = inner.fresh
+            if inner.pending or key.text != f'{p}.1' or ' ' in val.typ:
+                # the keys must stay the dict's own keys (distinct); a computed key could merge entries
+                raise Unsupported(f'`{self.inst.qual}`: dict comprehension `{ast.unparse(e)[:80]}`')
+            return Val(f'(({d.text}).map (fun {p} => ({key.text}, {val.text})))', f'Dict {kt} {val.typ}')
+        if isinstance(e, ast.Call) and isinstance(e.func, ast.Name) and e.func.id == 'defaultdict' and e.func.id not in self.env:
+            if len(e.args) == 1 and not e.keywords and isinstance(e.args[0], ast.Name) and e.args[0].id == 'list' and 'list' not in self.env:
+                return Val('[]', 'DDict ?')
+            raise Unsupported(f'`{self.inst.qual}`: `{ast.unparse(e)[:60]}`')
+        if isinstance(e, ast.Call) and isinstance(e.func, ast.Name) and e.func.id in self.env and not e.keywords \
+                and self.env[e.func.id].typ.startswith('Fn ') and len(e.args) == 1:
+            dom, cod = self.env[e.func.id].typ.split()[1:3]          # a callable local applied to a list
+            a = self.expr(e.args[0])
+            if a.typ != dom and lean_type(a.typ) == lean_type(dom) and a.typ.startswith('List '):
+                return Val(f'({self.env[e.func.id].text} {_paren(a.text)})', cod)
+        return None
+
+    # ---- object state (units with a 'frame' hook) -------------------------------------------------------
+    # An object is a *reference* into the frame (`hooks['frame']['name']`, a record of heap + objects) that every
+    # definition of the unit receives; a store `x.attr = v` / `x.attr[k] = v` / an effectful call (`x.copy()`) rebinds the
+    # frame, reads go through the current one.  A method that updates objects returns (frame, reference).  An exception
+    # discards the frame, so nothing may raise once an object has been stored to (`check_clean`).
+    def frame(self):
+        return self.env['__frame__'].text if '__frame__' in self.env else self.u.hooks['frame']['name']
+
+    def set_frame(self, text):
+        self.env['__frame__'] = Val(text, 'Kw')
+
+    def check_clean(self, what):
+        if '__dirty__' in self.env:
+            raise Unsupported(f'`{self.inst.qual}`: `{what[:60]}` may raise after an object was updated (the exceptional state is not modelled)')
+
+    def effect(self, call_text, typ):
+        """bind an effectful call `call_text : frame × value`, made now, and continue in the frame it returns"""
+        if not getattr(self, '_effect_ok', False):
+            raise Unsupported(f'`{self.inst.qual}`: an object-creating call outside `x = <call>` / `x = a if c else <call>`')
+        p = LetName(self.gensym('c'))
+        self.pending.append((p, call_text))
+        self.set_frame(f'{p}.1')
+        return Val(f'{p}.2', typ)
+
+    def effect_context(self, value):
+        """an expression whose evaluation order is plain: a call on a name, or a conditional between such / names"""
+        def simple(x):
+            return isinstance(x, (ast.Name, ast.Constant)) or isinstance(x, ast.Attribute) and simple(x.value)
+        if isinstance(value, ast.IfExp):
+            return (simple(value.test) or isinstance(value.test, ast.UnaryOp) and simple(value.test.operand)) \
+                and all(simple(b) or self.effect_context(b) for b in (value.body, value.orelse))
+        return isinstance(value, ast.Call) and isinstance(value.func, ast.Attribute) and simple(value.func.value) \
+            and all(simple(a) for a in value.args) and not value.keywords
+
+    def ifexp_framed(self, e):
+        """`a if c else b` where a branch creates an object: the update stays inside its branch"""
+        ok = getattr(self, '_effect_ok', False)
+        a_tr, b_tr = self.sub(), self.sub()
+        a_tr._effect_ok = b_tr._effect_ok = ok
+        a = a_tr.expr(e.body)
+        b_tr.fresh = a_tr.fresh
+        b = b_tr.expr(e.orelse)
+        if not a_tr.pending and not b_tr.pending:
+            return None
+        if any(not isinstance(n, LetName) for n, _c in a_tr.pending + b_tr.pending):
+            raise Unsupported(f'`{self.inst.qual}`: a call that may raise inside `{ast.unparse(e)[:60]}`')
+        if a.typ != b.typ:
+            raise Unsupported(f'conditional expression of types {a.typ} / {b.typ}')
+        self.fresh = b_tr.fresh
+        c = self.truth(self.expr(e.test))
+        ta = a_tr.wrap(f'({a_tr.frame()}, {a.text})')
+        tb = b_tr.wrap(f'({b_tr.frame()}, {b.text})')
+        p = LetName(self.gensym('c'))
+        self.pending.append((p, f'(if {c} then\n{_indent(ta)}\nelse\n{_indent(tb)})'))
+        self.set_frame(f'{p}.1')
+        return Val(f'{p}.2', a.typ)
+
+    def store_framed(self, t, v, lets, rest):
+        """`x.attr = v`, `x.attr[k] = v` on an object, `d[k] = v` on a local dict value"""
+        fr = self.u.hooks['frame']
+        if getattr(v, 'raises', False):
+            name = self.gensym('r')
+            self.pending.append((name, v.text))
+            v = Val(name, v.typ)
+        if isinstance(t, ast.Subscript) and isinstance(t.value, ast.Name) and t.value.id in self.env:
+            d, k = self.env[t.value.id], self.expr(t.slice)
+            tmpl = fr.get('setlocal', {}).get((d.typ, k.typ, v.typ))
+            if tmpl is None:
+                raise Unsupported(f'`{self.inst.qual}`: `{ast.unparse(t)} = …` on {d.typ} at {k.typ}, {v.typ}')
+            nm = self.gensym(lname(t.value.id))
+            bind = f'let {nm} := {tmpl.format(_paren(d.text), _paren(k.text), _paren(v.text))}'
+            self.env[t.value.id] = Val(nm, d.typ, path=t.value.id)
+        else:
+            if isinstance(t, ast.Subscript):
+                if not isinstance(t.value, ast.Attribute):
+                    raise Unsupported(f'`{self.inst.qual}`: assignment to `{ast.unparse(t)}`')
+                obj, attr, k = self.expr(t.value.value), t.value.attr, self.expr(t.slice)
+                tmpl = fr.get('setitem', {}).get((obj.typ, attr, k.typ, v.typ))
+                args = [obj, k, v]
+            else:
+                obj, attr = self.expr(t.value), t.attr
+                tmpl = fr.get('setattr', {}).get((obj.typ, attr, v.typ))
+                args = [obj, v]
+            if tmpl is None:
+                raise Unsupported(f'`{self.inst.qual}`: `{ast.unparse(t)} = …` at {", ".join(a.typ for a in args)}')
+            if self.inst.value_type != fr['result']:
+                raise Unsupported(f'`{self.inst.qual}`: stores to an object but is declared an observation')
+            nm = self.gensym(fr['name'])
+            bind = f'let {nm} := {tmpl.format(*[_paren(a.text) for a in args], fr=self.frame())}'
+            self.set_frame(nm)
+            self.env['__dirty__'] = Val('()', 'Kw')
+            for path in [p for p in self.narrow if f'.{attr}' in p]:     # what was known about this attribute of any object
+                del self.narrow[path]
+        pend, self.pending = self.pending, []
+        inner = self.block(rest)
+        self.pending = pend
+        return '\n'.join(lets + [self.wrap(f'{bind}\n{inner}')])
+
+    def ret_framed(self, e):
+        fr = self.u.hooks['frame']
+        if self.inst.value_type == fr['result']:
+            v = self.expr(e)
+            if v.typ != fr['ref']:
+                raise Unsupported(f'`{self.inst.qual}`: returns {v.typ} where an object is declared')
+            return self.wrap(self.ok(f'({self.frame()}, {v.text})'))
+        if '__frame__' in self.env:
+            raise Unsupported(f'`{self.inst.qual}`: updates an object but is declared an observation')
+        if self.inst.value_type == 'N' and isinstance(e, ast.Constant) and isinstance(e.value, (int, float)) \
+                and not isinstance(e.value, bool) and e.value == int(e.value):
+            return self.wrap(self.ok(f'(Num.ofI ({int(e.value)} : Int))'))        # `return 0.` where a float is declared
+        return None
+
+    def for_fold(self, s, rest, xs):
+        """A loop *inside another loop's body* that neither returns nor raises: an auxiliary structural recursion over the
+        list that returns the tuple of the state variables (the outer variables its body assigns); the enclosing body
+        continues with the state re-bound to the components of the result."""
+        assigned = set()
+        for n in ast.walk(ast.Module(body=s.body, type_ignores=[])):
+            if isinstance(n, (ast.Assign, ast.AugAssign, ast.AnnAssign)):
+                for t in (n.targets if isinstance(n, ast.Assign) else [n.target]):
+                    for m in ast.walk(t):
+                        if isinstance(m, ast.Name):
+                            assigned.add(m.id)
+            if isinstance(n, ast.Expr) and isinstance(n.value, ast.Call):
+                raise Unsupported(f'`{self.inst.qual}`: call statement inside a nested loop body')
+            if isinstance(n, (ast.While, ast.Break, ast.Continue, ast.Try, ast.With)):
+                raise Unsupported(f'`{self.inst.qual}`: `{type(n).__name__}` inside a loop body')
+        if not isinstance(s.target, ast.Name):
+            raise Unsupported(f'`{self.inst.qual}`: loop target `{ast.unparse(s.target)}`')
+        target = s.target.id
+        if target in self.env or target in assigned:
+            # (after the loop Python leaves the last item in the target: an outer variable of that name would change)
+            raise Unsupported(f'`{self.inst.qual}`: nested loop target `{target}` re-binds a variable')
+        state = [n for n in self.env if n in assigned and n != target]
+        if not state:
+            raise Unsupported(f'`{self.inst.qual}`: nested loop without state')
+        fixed = [n for n in self.env if n not in state and self.env[n].typ not in ('None', 'Kw')]
+        elem = xs.typ[5:]
+        loop = f'{self.inst.lean}.loop{len(self.aux) + 1}'
+        self.aux.append(None)
+        slot = len(self.aux) - 1
+        ctx = [n for n, _t in self.u.ctx_params]
+        aux = self.sub()
+        aux.fresh = self.fresh
+        aux.narrow = {}
+        fixed_b, state_b = [], []
+        for n in fixed:
+            nm = aux.gensym(lname(n))
+            fixed_b.append((nm, self.env[n].typ))
+            aux.env[n] = Val(nm, self.env[n].typ, path=n)
+            aux.env[n].alias = getattr(self.env[n], 'alias', False)      # (a second name for a list object stays one)
+        for n in state:
+            nm = aux.gensym(lname(n))
+            state_b.append((nm, self.env[n].typ))
+            aux.env[n] = Val(nm, self.env[n].typ, path=n)
+            aux.env[n].alias = getattr(self.env[n], 'alias', False)      # (a second name for a list object stays one)
+        item, items = aux.gensym('item'), aux.gensym('items')
+        done = '(' + ', '.join(nm for nm, _t in state_b) + ')'
+        body_tr = aux.sub()
+        body_tr.fresh = aux.fresh
+        body_tr.env[target] = Val(item, elem, path=target)
+
+        def next_iteration(tr):
+            for n in state:
+                if tr.env[n].typ != self.env[n].typ:
+                    raise Unsupported(f'`{self.inst.qual}`: `{n}` changes type in a loop ({self.env[n].typ} / {tr.env[n].typ})')
+            return ' '.join([loop] + ctx + [tr.env[n].text for n in fixed] + [items] + [_paren(tr.env[n].text) for n in state])
+        body_tr.on_fall = next_iteration
+        body = body_tr.block(list(s.body))
+        if 'Except.' in body:
+            raise Unsupported(f'`{self.inst.qual}`: a call that may raise inside a nested loop body')
+        self.fresh = body_tr.fresh
+        binders = ' '.join([f'({n} : {t})' for n, t in self.u.ctx_params] + [f'({n} : {lean_type(t)})' for n, t in fixed_b])
+        res_t = ' × '.join(_paren(lean_type(t)) for _n, t in state_b)
+        sig = ' → '.join([f'List {_paren(lean_type(elem))}'] + [lean_type(t) for _n, t in state_b] + [res_t])
+        pat_state = ''.join(f', {n}' for n, _t in state_b)
+        self.aux[slot] = ('\n'.join([
+            f'/-- the `for {ast.unparse(s.target)} in {ast.unparse(s.iter)}` loop of `{self.inst.qual}` (nested: returns its state): '
+            'state ' + ', '.join(state) + ' -/',
+            f'def {loop} {binders} : {sig}',
+            f'  | []{pat_state} =>', _indent(done, 4),
+            f'  | {item} :: {items}{pat_state} =>', _indent(body, 4)]))
+        args = [self.env[n].text for n in fixed] + [_paren(xs.text)] + [_paren(self.env[n].text) for n in state]
+        tmp = self.gensym('st')
+        k = len(state)
+        for i, n in enumerate(state):
+            self.env[n] = Val(_cell_proj(tmp, i, k) if k > 1 else tmp, self.env[n].typ, path=n)
+            self.narrow.pop(n, None)
+        return self.wrap(f'let {tmp} := ' + ' '.join([loop] + ctx + args) + '\n' + self.block(rest))
+
     # ---- expressions -----------------------------------------------------------------------------------
+    def ld_expr(self, e):
+        """expressions of the `local_defs` subset; None: not one of them (the common translation applies)"""
+        if isinstance(e, ast.Constant) and isinstance(e.value, str) and e.value in self.u.hooks.get('group_labels', {}):
+            t, typ = self.u.hooks['group_labels'][e.value]      # a label the unit declares a reading for
+            return Val(t, typ)
+        if isinstance(e, ast.BinOp) and isinstance(e.op, ast.Div):
+            a, b = self.unify_num(self.expr(e.left), self.expr(e.right))
+            if a.typ == b.typ == 'R':
+                return Val(f'({a.text} / {b.text})', 'R')         # exact division (Python raises on a zero divisor; Lean gives 0)
+            raise Unsupported(f'`{ast.unparse(e)[:60]}`: {a.typ} / {b.typ}')
+        if isinstance(e, ast.Tuple) and any(isinstance(x, ast.Starred) for x in e.elts):
+            return self._expr(ast.List(elts=e.elts, ctx=ast.Load()))     # `(*a, *b)`: only ever used as a sequence
+        if isinstance(e, ast.Tuple) and self.u.hooks.get('prod_tuples') and len(e.elts) == 2:
+            vals = [self.expr(v) for v in e.elts]
+            return Val(f'({vals[0].text}, {vals[1].text})', _mk_prod(vals[0].typ, vals[1].typ))
+        if isinstance(e, ast.List) and any(isinstance(x, ast.Starred) for x in e.elts):
+            parts, typ = [], None
+            for el in e.elts:
+                if isinstance(el, ast.Starred):
+                    v = self.expr(el.value)
+                    pp = _prod_parts(v.typ)
+                    if v.typ.startswith('Set ') and '?' not in v.typ:
+                        v = Val(v.text, 'List ' + v.typ[4:])          # the elements of a set, as a list
+                    elif v.typ.startswith('Prod ') and len(pp) == 2 and pp[0] == pp[1]:
+                        v = Val(f'[{_paren(v.text)}.1, {_paren(v.text)}.2]', 'List ' + pp[0])     # `*pair`
+                    if not v.typ.startswith('List '):
+                        raise Unsupported(f'`*` of {v.typ}')
+                    parts.append(v.text)
+                    t = v.typ[5:]
+                else:
+                    v = self.expr(el)
+                    parts.append(f'[{v.text}]')
+                    t = v.typ
+                if typ not in (None, t):
+                    raise Unsupported(f'list display of {typ} and {t}')
+                typ = t
+            return Val('(' + ' ++ '.join(parts) + ')', 'List ' + typ)
+        if isinstance(e, ast.ListComp) and self.u.hooks.get('map_comprehensions') and len(e.generators) == 1 \
+                and not e.generators[0].ifs and not getattr(e.generators[0], 'is_async', 0):
+            g = e.generators
+            # `[f(x) for x in xs]` / `[f(x, y) for x, y in xs]` -> `xs.map`; over a 2-tuple -> the pair of the two values
+            xs = self.expr(g[0].iter)
+            pp = _prod_parts(xs.typ)
+            if xs.typ.startswith('Set ') and '?' not in xs.typ:
+                xs = Val(xs.text, 'List ' + xs.typ[4:])
+            static_pair = xs.typ.startswith('Prod ') and len(pp) == 2 and pp[0] == pp[1]
+            if not (xs.typ.startswith('List ') and '?' not in xs.typ or static_pair):
+                raise Unsupported(f'comprehension over {xs.typ}')
+            elem = pp[0] if static_pair else xs.typ[5:]
+            tgt = g[0].target
+            x = self.gensym(lname(tgt.id) if isinstance(tgt, ast.Name) else 'pair')
+            inner = self.sub()
+            inner.fresh = self.fresh
+            if isinstance(tgt, ast.Name):
+                inner.env[tgt.id] = Val(x, elem, path=tgt.id)
+                inner.narrow.pop(tgt.id, None)
+            elif isinstance(tgt, ast.Tuple) and len(tgt.elts) == 2 and all(isinstance(t, ast.Name) for t in tgt.elts) \
+                    and len(_prod_parts(elem)) == 2 and elem.startswith('Prod '):
+                for i, (t, pt) in enumerate(zip(tgt.elts, _prod_parts(elem))):
+                    inner.env[t.id] = Val(f'{x}.{i + 1}', pt, path=t.id)
+                    inner.narrow.pop(t.id, None)
+            else:
+                raise Unsupported(f'comprehension target `{ast.unparse(tgt)}` over {xs.typ}')
+            v = inner.expr(e.elt)
+            if inner.pending:
+                raise Unsupported(f'`{self.inst.qual}`: a call that may raise inside a mapping comprehension')
+            self.fresh = inner.fresh
+            if static_pair:
+                return Val(f'(GV.Py.map2 (fun {x} => {v.text}) {_paren(xs.text)})', _mk_prod(v.typ, v.typ))
+            return Val(f'(({xs.text}).map (fun {x} => {v.text}))', 'List ' + v.typ)
+        if isinstance(e, ast.Call) and isinstance(e.func, ast.Name) and not e.keywords and e.func.id not in self.env:
+            f = e.func
+            if f.id in self.local_fns:
+                return self.lift_local_fn(f.id, self.spread_args(e.args))
+            if f.id in self.local_classes:
+                return self.local_ctor(f.id, [self.expr(a) for a in e.args])
+            if f.id not in self.u.intrinsics:
+                if f.id in ('min', 'max') and len(e.args) == 1 and isinstance(e.args[0], ast.List) and e.args[0].elts \
+                        and not any(isinstance(x, ast.Starred) for x in e.args[0].elts):
+                    vals = [self.expr(x) for x in e.args[0].elts]            # `max([a, b, …])` of floats-as-rationals
+                    if all(v.typ == 'R' for v in vals):
+                        acc = vals[0].text
+                        for v in vals[1:]:
+                            acc = f'(GV.{f.id}R {acc} {v.text})'
+                        return Val(acc, 'R')
+                    raise Unsupported(f'{f.id} of a list of {[v.typ for v in vals]}')
+                if f.id == 'abs' and len(e.args) == 1:
+                    v = self.expr(e.args[0])
+                    if v.typ == 'R':
+                        return Val(f'(GV.absR {v.text})', 'R')
+                    raise Unsupported(f'abs of {v.typ}')
+                if f.id == 'len' and len(e.args) == 1:
+                    v = self.expr(e.args[0])
+                    if v.typ.startswith(('List ', 'Set ')) and '?' not in v.typ:
+                        return Val(f'(({v.text}).length : Int)', 'Int')
+                    raise Unsupported(f'len of {v.typ}')
+                if f.id == 'set' and len(e.args) == 1:
+                    g = e.args[0]
+                    v = self.expr(ast.ListComp(elt=g.elt, generators=g.generators)) if isinstance(g, ast.GeneratorExp) else self.expr(g)
+                    if v.typ.startswith('Set ') and '?' not in v.typ:
+                        v = Val(v.text, 'List ' + v.typ[4:])
+                    if not v.typ.startswith('List ') or '?' in v.typ:
+                        raise Unsupported(f'set() of {v.typ}')
+                    return Val(f'(GV.Py.mkSet {self.elem_eq(v.typ[5:])} {_paren(v.text)})', 'Set ' + v.typ[5:])
+        return None
+
+    def ld_compare2(self, a, op, b):
+        """lexicographic order of 2-tuples, order of booleans, `==` on tuples of plain data; None: not one of them"""
+        if True:
+            if a.typ == b.typ and a.typ.startswith('Prod ') and isinstance(op, (ast.Lt, ast.LtE, ast.Gt, ast.GtE)) \
+                    and len(_prod_parts(a.typ)) == 2:
+                # Python compares tuples lexicographically: the first components decide unless they are equal
+                pa = _prod_parts(a.typ)
+                a1, a2 = Val(f'{_paren(a.text)}.1', pa[0]), Val(f'{_paren(a.text)}.2', pa[1])
+                b1, b2 = Val(f'{_paren(b.text)}.1', pa[0]), Val(f'{_paren(b.text)}.2', pa[1])
+                strict = ast.Lt() if isinstance(op, (ast.Lt, ast.LtE)) else ast.Gt()
+                e1, s1, r2 = self.compare2(a1, ast.Eq(), b1), self.compare2(a1, strict, b1), self.compare2(a2, op, b2)
+                return Val(f'(if {e1.text} then {r2.text} else {s1.text})', 'Bool')
+            if a.typ == b.typ == 'Bool' and isinstance(op, (ast.Lt, ast.LtE, ast.Gt, ast.GtE)):
+                t = {ast.Lt: '(!{0} && {1})', ast.LtE: '(!{0} || {1})', ast.Gt: '({0} && !{1})', ast.GtE: '({0} || !{1})'}[type(op)]
+                return Val(t.format(a.text, b.text), 'Bool')              # False < True
+            if a.typ == b.typ and a.typ.startswith('Prod ') and isinstance(op, (ast.Eq, ast.NotEq)) and _is_data(a.typ):
+                return Val(f'({a.text} {"==" if isinstance(op, ast.Eq) else "!="} {b.text})', 'Bool')
+        return None
+
+    def for_nested(self, s, rest, xs, targets, state, fixed):
+        """A loop (without state) inside a loop body: the auxiliary recursion returns `some v` where the body says
+        `return v` and `none` when the list is exhausted; the enclosing body goes on with the code after the loop in the
+        second case (so that it can still reach its own next iteration)."""
+        if state:
+            raise Unsupported(f'`{self.inst.qual}`: a loop nested in a loop body that assigns outer variables ({", ".join(state)})')
+        if self.inst.raises or self.inst.ret.startswith('Opt ') or self.inst.ret == '?':
+            raise Unsupported(f'`{self.inst.qual}`: a nested loop in a function returning {self.inst.ret}')
+        if len(targets) != 1 or not isinstance(s.target, ast.Name):
+            raise Unsupported(f'`{self.inst.qual}`: nested loop target `{ast.unparse(s.target)}`')
+        elem = xs.typ[5:]
+        loop = f'{self.inst.lean}.loop{len(self.aux) + 1}'
+        self.aux.append(None)
+        slot = len(self.aux) - 1
+        ctx = [n for n, _t in self.u.ctx_params]
+        aux = self.sub()
+        aux.fresh = self.fresh
+        aux.narrow = {}
+        aux.inst = Inst(self.inst.qual, self.inst.lean, self.inst.params, 'Opt ' + self.inst.ret, self.inst.doc)
+        fixed_b = []
+        for n in fixed:
+            nm = aux.gensym(lname(n))
+            fixed_b.append((nm, self.env[n].typ))
+            aux.env[n] = Val(nm, self.env[n].typ, path=n)
+        item, items = aux.gensym('item'), aux.gensym('items')
+        aux.env[targets[0]] = Val(item, elem, path=targets[0])
+        aux.on_fall = lambda tr: ' '.join([loop] + ctx + [tr.env[n].text for n in fixed] + [items])
+        body = aux.block(list(s.body))
+        self.fresh = aux.fresh
+        binders = ' '.join([f'({n} : {t})' for n, t in self.u.ctx_params] + [f'({n} : {lean_type(t)})' for n, t in fixed_b])
+        self.aux[slot] = '\n'.join([
+            f'/-- the `for {ast.unparse(s.target)} in {ast.unparse(s.iter)}` loop of `{self.inst.qual}` (inside a loop body): '
+            '`some v` = `return v`, `none` = exhausted -/',
+            f'def {loop} {binders} : List {_paren(lean_type(elem))} → {lean_type(aux.inst.ret)}',
+            '  | [] =>', '    none',
+            f'  | {item} :: {items} =>', _indent(body, 4)])
+        call = ' '.join([loop] + ctx + [self.env[n].text for n in fixed] + [_paren(xs.text)])
+        r = self.gensym('r')
+        pend, self.pending = self.pending, []
+        after = self.block(rest)
+        self.pending = pend
+        return self.wrap(f'match {call} with\n| some {r} => {self.ok(r)}\n| none =>\n{_indent(after)}')
+
     def truth(self, v):
         """Python truthiness as a Lean Bool"""
         if v.typ == 'Bool':
@@ -862,18 +2658,26 @@ class FnTr:
             raise Unsupported(f'truthiness of Optional[{inner}]')
         if v.typ == 'Td':
             return f'({v.text} != 0)'
+        if v.typ == 'Nat':
+            return f'({v.text} != (0 : Nat))'
+        if v.typ == 'R':
+            return f'({v.text} != 0)'          # a float is falsy exactly when it is zero (no NaN: floats are exact rationals)
         if v.typ in self.u.hooks.get('always_truthy', ()):
             return 'true'
         if v.typ.startswith('List '):
             return f'!({v.text}).isEmpty'
-        if 'truth' in self.u.hooks:
-            r = self.u.hooks['truth'](self, v)
+        if v.typ.startswith('Set ') and '?' not in v.typ:
+            return f'!({v.text}).isEmpty'
+        if 'gj_truth' in self.u.hooks:
+            r = self.u.hooks['gj_truth'](self, v)
             if r is not None:
                 return r
         raise Unsupported(f'truthiness of {v.typ}')
 
     def expr(self, e, allow_raise=False):
         v = self._expr(e)
+        if getattr(v, 'raises', False):
+            self.check_clean(ast.unparse(e))
         if getattr(v, 'raises', False) and not allow_raise:
             if not self.inst.raises:
                 raise Unsupported(f'`{self.inst.qual}`: a call that may raise inside an expression: `{ast.unparse(e)}`')
@@ -883,9 +2687,26 @@ class FnTr:
         return v
 
     def _expr(self, e):
-        more = self.expr_more(e)
-        if more is not None:
-            return more
+        if self.u.hooks.get('geojson_doc'):
+            ext = self.gj_expr(e)                # dict displays, slices, `^`, 4-tuples, raising conditional arms, …: see `gj_expr`
+            if ext is not None:
+                return ext
+        if self.u.hooks.get('worklist'):
+            ext = self.ext_expr(e)               # set displays / comprehensions, dict comprehensions: see `ext_expr`
+            if ext is not None:
+                return ext
+        if self.u.hooks.get('pycoll'):
+            ext = self.pc_expr(e)                # int-indexed lists, `/` that raises, map / dict comprehensions, …: see `pc_expr`
+            if ext is not None:
+                return ext
+        if self.u.hooks.get('wkt_text'):
+            ext = self.wk_expr(e)                # strings, sequences, map comprehensions, `{}`: see `wk_expr`
+            if ext is not None:
+                return ext
+        if self.u.hooks.get('local_defs'):
+            ext = self.ld_expr(e)                # products, `*pair`, `/`, local calls / constructors, `len`, `set(gen)`, …: see `ld_expr`
+            if ext is not None:
+                return ext
         if isinstance(e, ast.Name):
             if e.id in self.narrow:
                 return self.narrow[e.id]
@@ -900,15 +2721,26 @@ class FnTr:
                 return Val('()', 'None')
             if isinstance(e.value, bool):
                 return Val('true' if e.value else 'false', 'Bool')
+            if isinstance(e.value, int) and e.value >= 0 and self.u.hooks.get('nat_literals'):
+                return Val(f'({e.value} : Nat)', 'Nat')          # a non-negative int; widened to Int / Rat where it meets one
             if isinstance(e.value, int):
                 return Val(f'({e.value} : Int)', 'Int')
+            if isinstance(e.value, str) and self.u.hooks.get('str_as_chars'):
+                return Val('([' + ', '.join(f'Char.ofNat {ord(c)}' for c in e.value) + '] : List Char)', 'List Ch')
+            if isinstance(e.value, str) and 'str_const' in self.u.hooks:
+                return Val(chars_literal(e.value), 'Chars')          # a str is the list of its characters
             if isinstance(e.value, float) and e.value == int(e.value) and 'float_as_int' in self.u.hooks:
                 return Val(f'({int(e.value)} : Int)', 'Int')      # 1.0, 2.0 next to the numeric class: the same number
+            if isinstance(e.value, str) and 'str_lit' in self.u.hooks and e.value.isascii() and e.value.isprintable() \
+                    and '"' not in e.value and '\\' not in e.value:
+                return Val(f'"{e.value}"', 'Str')
             raise Unsupported(f'constant {e.value!r}')
         if isinstance(e, ast.Attribute):
             return self.attribute(e)
         if isinstance(e, ast.Compare):
             return self.compare(e)
+        if isinstance(e, ast.JoinedStr) and 'str_const' in self.u.hooks:
+            return self.fstring(e)
         if isinstance(e, ast.BoolOp):
             # operands decided by the static types of this instance: `True and X` is `X`, `False and X` is `False` (X not evaluated)
             keep, decided = [], None
@@ -930,6 +2762,17 @@ class FnTr:
         if isinstance(e, ast.BoolOp) and self.has_optional_test(e):
             # `x is not None and x.f()` as a value: the same narrowing as in an `if` test
             return Val('(' + self.branch(e, lambda tr: 'true', lambda tr: 'false') + ')', 'Bool')
+        if isinstance(e, ast.BoolOp) and self.u.hooks.get('operand_boolop'):
+            pend, fresh = list(self.pending), self.fresh
+            vals = [self.expr(v) for v in e.values]
+            if vals[0].typ.startswith('List ') and all(v.typ == vals[0].typ for v in vals):
+                # `xs or ys` returns an operand: the first truthy (non-empty) one, else the last; `and`: the first falsy one
+                txt = vals[-1].text
+                for v in reversed(vals[:-1]):
+                    c = f'!({v.text}).isEmpty' if isinstance(e.op, ast.Or) else f'({v.text}).isEmpty'
+                    txt = f'(if {c} then {v.text} else {txt})'
+                return Val(txt, vals[0].typ)
+            self.pending, self.fresh = pend, fresh
         if isinstance(e, ast.BoolOp):
             vals = [self.expr(v) for v in e.values]
             if not all(v.typ == 'Bool' for v in vals):
@@ -949,6 +2792,10 @@ class FnTr:
                 return self.expr(e.body)
             if st is False:
                 return self.expr(e.orelse)
+            if 'frame' in self.u.hooks:
+                r = self.ifexp_framed(e)
+                if r is not None:
+                    return r
             if self.has_optional_test(e.test):
                 # `f(x) if x else None`: a match that binds the narrowed value; both arms brought to one type
                 types = []
@@ -961,10 +2808,12 @@ class FnTr:
                     return k
                 txt = self.branch(e.test, arm(e.body), arm(e.orelse))
                 real = [t for t in types if t != 'None']
-                base = [t[4:] if t.startswith('Opt ') else t for t in real]       # `x.z if x.z is not None else y.z`: T / Optional[T]
-                if not real or any(t != base[0] for t in base):
+                if self.u.hooks.get('geojson_doc') and real and len({t[4:] if t.startswith('Opt ') else t for t in real}) == 1 \
+                        and any(t.startswith('Opt ') for t in real):
+                    real = ['Opt ' + (real[0][4:] if real[0].startswith('Opt ') else real[0])] * len(real)   # `x.z if x.z is not None else y.z`
+                if not real or any(t != real[0] for t in real):
                     raise Unsupported(f'conditional expression of types {types}')
-                typ = ('Opt ' + base[0]) if 'None' in types or any(t.startswith('Opt ') for t in real) else real[0]
+                typ = ('Opt ' + real[0]) if 'None' in types and not real[0].startswith('Opt ') else real[0]
                 import re as _re
 
                 def fix(m):
@@ -983,31 +2832,81 @@ class FnTr:
             if a.typ == 'N':
                 return Val(f'(GV.Sphere.sqr {a.text})', 'N')          # `x ** 2` (libm pow(x, 2.0), see Model/Num.lean)
             raise Unsupported(f'`** 2` on {a.typ}')
+        if isinstance(e, ast.BinOp) and isinstance(e.op, (ast.BitOr, ast.BitAnd)):
+            a, b = self.expr(e.left), self.expr(e.right)
+            if a.typ == b.typ == 'Nat':           # on non-negative ints `|` and `&` are the bitwise operations of Nat
+                return Val(f'({a.text} {"|||" if isinstance(e.op, ast.BitOr) else "&&&"} {b.text})', 'Nat')
+            raise Unsupported(f'`{ast.unparse(e)[:60]}`: {a.typ} {type(e.op).__name__} {b.typ}')
         if isinstance(e, ast.BinOp) and isinstance(e.op, (ast.Div, ast.Mod)):
             a, b = self.unify_num(self.expr(e.left), self.expr(e.right))
             if a.typ == b.typ == 'N':
                 if isinstance(e.op, ast.Div):
                     return Val(f'({a.text} / {b.text})', 'N')
                 return Val(f'(GV.Sphere.pymod {a.text} {b.text})', 'N')      # Python's float `%`
+            if a.typ == b.typ == 'R' and isinstance(e.op, ast.Div) and isinstance(e.right, ast.Constant) \
+                    and isinstance(e.right.value, (int, float)) and not isinstance(e.right.value, bool) and e.right.value != 0:
+                return Val(f'({a.text} / {b.text})', 'R')           # float division by a non-zero literal (cannot raise)
             raise Unsupported(f'`{ast.unparse(e)[:60]}`: {a.typ} {type(e.op).__name__} {b.typ}')
+        if isinstance(e, ast.BinOp) and isinstance(e.op, ast.BitXor):
+            a, b = self.expr(e.left), self.expr(e.right)
+            if a.typ == b.typ == 'Bool':
+                return Val(f'(xor {a.text} {b.text})', 'Bool')           # `p ^ q` on bools
+            raise Unsupported(f'`{ast.unparse(e)[:60]}`: {a.typ} ^ {b.typ}')
         if isinstance(e, ast.BinOp) and isinstance(e.op, (ast.Add, ast.Sub, ast.Mult)):
             a, b = self.expr(e.left), self.expr(e.right)
             a, b = self.unify_num(a, b)
             sym = {ast.Add: '+', ast.Sub: '-', ast.Mult: '*'}[type(e.op)]
+            if a.typ == b.typ == 'Nat':
+                if sym == '-':                        # the difference of two non-negative ints is an int
+                    return Val(f'(({a.text} : Int) - ({b.text} : Int))', 'Int')
+                return Val(f'({a.text} {sym} {b.text})', 'Nat')
+            if sym == '+' and (a.typ, b.typ) == ('List Ch', 'Ch'):
+                return Val(f'({a.text} ++ [{b.text}])', 'List Ch')          # str + one-character str
+            if sym == '+' and (a.typ, b.typ) == ('Ch', 'List Ch'):
+                return Val(f'({a.text} :: {b.text})', 'List Ch')
+            if sym == '+' and (a.typ, b.typ) == ('Ch', 'Ch'):
+                return Val(f'[{a.text}, {b.text}]', 'List Ch')
             if a.typ == b.typ == 'N' or a.typ == b.typ == 'R' or (a.typ == b.typ == 'Int' and sym == '*'):
                 return Val(f'({a.text} {sym} {b.text})', a.typ)
             if sym == '+' and a.typ == b.typ and a.typ.startswith('List '):
                 return Val(f'({a.text} ++ {b.text})', a.typ)
+            if sym == '+' and a.typ == b.typ == 'Chars':
+                return Val(f'({a.text} ++ {b.text})', 'Chars')
+            if sym == '*' and {a.typ, b.typ} == {'Chars', 'Int'}:
+                s_, n_ = (a, b) if a.typ == 'Chars' else (b, a)
+                return Val(f'(GV.PyStr.rep {s_.text} {n_.text})', 'Chars')      # `s * n` (empty for n <= 0)
             table = {('Dt', '+', 'Td'): 'Dt', ('Dt', '-', 'Td'): 'Dt', ('Dt', '-', 'Dt'): 'Td', ('Td', '+', 'Td'): 'Td',
                      ('Td', '-', 'Td'): 'Td', ('Int', '+', 'Int'): 'Int', ('Int', '-', 'Int'): 'Int', ('Td', '+', 'Dt'): 'Dt'}
             t = table.get((a.typ, sym, b.typ))
             if t is None:
                 raise Unsupported(f'`{ast.unparse(e)}`: {a.typ} {sym} {b.typ}')
             return Val(f'({a.text} {sym} {b.text})', t)
+        if isinstance(e, ast.Tuple) and any(isinstance(v, ast.Starred) for v in e.elts) and 'tuples' in self.u.hooks:
+            # `(*t, x)`: the components of `t` (bound once), then `x`
+            lets, vals = [], []
+            for el in e.elts:
+                if isinstance(el, ast.Starred):
+                    v = self.expr(el.value)
+                    tmp = self.gensym('t')
+                    lets.append(f'let {tmp} := {v.text}; ')
+                    vals += self.components(Val(tmp, v.typ))
+                else:
+                    vals.append(self.expr(el))
+            if len(vals) < 2:
+                raise Unsupported(f'tuple `{ast.unparse(e)}`')
+            typ = 'Pair ' + vals[0].typ if len(vals) == 2 and vals[0].typ == vals[1].typ else \
+                'Prod ' + ' '.join(_paren(v.typ) for v in vals)
+            return Val('(' + ''.join(lets) + '(' + ', '.join(v.text for v in vals) + '))', typ)
         if isinstance(e, ast.Tuple):
             vals = [self.expr(v) for v in e.elts]
             if len(vals) == 2 and vals[0].typ == vals[1].typ:
                 return Val(f'({vals[0].text}, {vals[1].text})', 'Pair ' + vals[0].typ)
+            if len(vals) >= 2 and self.u.hooks.get('value_semantics') and all(v.typ not in ('None', 'Kw') for v in vals):
+                return Val('(' + ', '.join(v.text for v in vals) + ')', mk_prod(v.typ for v in vals))      # right-nested
+            if len(vals) >= 2 and 'tuples' in self.u.hooks:
+                return Val('(' + ', '.join(v.text for v in vals) + ')', 'Prod ' + ' '.join(_paren(v.typ) for v in vals))
+            if len(vals) >= 3 and all(v.typ == vals[0].typ for v in vals) and ' ' not in vals[0].typ:
+                return Val('(' + ', '.join(v.text for v in vals) + ')', f'Tuple{len(vals)} {vals[0].typ}')
             raise Unsupported(f'tuple `{ast.unparse(e)}`')
         if isinstance(e, ast.List) and not e.elts:
             return Val('[]', 'List ?')
@@ -1037,9 +2936,48 @@ class FnTr:
                 r = Val(f'(match GV.Coll.assocGet {v.text} {k.text} with | some v => Except.ok v | none => Except.error "ERR:Key")', 'PVal')
                 r.raises = True                       # KeyError
                 return r
+            if v.typ.startswith('Prod ') and len(_prod_parts(v.typ)) > 2 and isinstance(e.slice, ast.Constant) \
+                    and isinstance(e.slice.value, int) and not isinstance(e.slice.value, bool) \
+                    and 0 <= e.slice.value < len(_prod_parts(v.typ)):
+                return self.components(v)[e.slice.value]            # `t[i]` of a wider tuple (right-nested pairs)
+            if v.typ == 'Chars':
+                return self.chars_subscript(v, e)
+            if 'subscript' in self.u.hooks:
+                r = self.u.hooks['subscript'](self, v, e.slice)
+                if r is not None:
+                    return r
+            if (v.typ.startswith('Pair ') or v.typ.startswith('Tuple') and ' ' in v.typ) and isinstance(e.slice, ast.Constant) \
+                    and isinstance(e.slice.value, int) and not isinstance(e.slice.value, bool):
+                n = 2 if v.typ.startswith('Pair ') else int(v.typ.split()[0][5:])
+                if 0 <= e.slice.value < n:            # a literal index into a tuple of known width
+                    i = e.slice.value
+                    return Val(f'{v.text}' + '.2' * i + ('.1' if i < n - 1 else ''), v.typ.split(' ', 1)[1])
             if v.typ.startswith('Prod ') and isinstance(e.slice, ast.Constant) and e.slice.value in (0, 1):
                 parts = _prod_parts(v.typ)
                 return Val(f'{v.text}.{e.slice.value + 1}', parts[e.slice.value])
+            if v.typ.startswith('Cells') and isinstance(e.slice, ast.Constant) and isinstance(e.slice.value, int) \
+                    and not isinstance(e.slice.value, bool) and 0 <= e.slice.value < int(v.typ.split()[0][5:]):
+                return Val(_cell_proj(v.text, e.slice.value, int(v.typ.split()[0][5:])), v.typ.split(' ', 1)[1])
+            items = self.u.hooks.get('items', {})
+            if isinstance(e.slice, ast.Constant) and isinstance(e.slice.value, str) and (v.typ, e.slice.value) in items:
+                tmpl, typ = items[(v.typ, e.slice.value)]          # a TypedDict with known keys: a record field
+                return Val(tmpl.format(v.text), typ)
+            if v.typ.startswith('Dict ') and len(v.typ.split()) == 3:
+                k = self.expr(e.slice)
+                kt, vt = v.typ.split()[1:3]
+                if k.typ != kt:
+                    raise Unsupported(f'dict lookup with a key of type {k.typ} (keys are {kt})')
+                r = Val(f'(match ({v.text}).lookup {k.text} with | some v => Except.ok v | none => Except.error "ERR:Key")', vt)
+                r.raises = True                       # KeyError
+                return r
+            if v.typ.startswith('List ') and not isinstance(e.slice, (ast.Slice, ast.Constant, ast.UnaryOp)) \
+                    and self.u.hooks.get('nat_literals'):
+                k = self.expr(e.slice)
+                if k.typ != 'Nat':
+                    raise Unsupported(f'`{self.inst.qual}`: subscript `{ast.unparse(e)}` with an index of type {k.typ}')
+                r = Val(f'(match ({v.text})[{k.text}]? with | some v => Except.ok v | none => Except.error "ERR:Index")', v.typ[5:])
+                r.raises = True                       # IndexError past the end (the index is non-negative)
+                return r
             if v.typ.startswith('List '):
                 sl = e.slice
                 if isinstance(sl, ast.Slice) and sl.upper is None and sl.step is None and isinstance(sl.lower, ast.Constant) \
@@ -1049,9 +2987,43 @@ class FnTr:
                     r = Val(f'(GV.Py.getIdx {_paren(v.text)} {sl.value})', v.typ[5:])
                     r.raises = True                      # IndexError when the list is too short
                     return r
+                if isinstance(sl, ast.Slice) and sl.step is None and _int_const(sl.upper) == -1 \
+                        and (sl.lower is None or _int_const(sl.lower) == 0) and self.u.hooks.get('value_semantics'):
+                    return Val(f'(({v.text}).dropLast)', v.typ)              # `xs[:-1]`, `xs[0:-1]`
+                neg = (lambda x: x.operand.value if isinstance(x, ast.UnaryOp) and isinstance(x.op, ast.USub) and isinstance(x.operand, ast.Constant)
+                       and isinstance(x.operand.value, int) and not isinstance(x.operand.value, bool) and x.operand.value >= 1 else None)
+                if neg(sl) is not None:
+                    r = Val(f'(GV.Py.negIdx {_paren(v.text)} {neg(sl)})', v.typ[5:])      # `xs[-k]`
+                    r.raises = True                      # IndexError when the list is too short
+                    return r
+                if isinstance(sl, ast.Slice) and sl.lower is None and sl.step is None and neg(sl.upper) is not None:
+                    return Val(f'(({v.text}).take (({v.text}).length - {neg(sl.upper)}))', v.typ)      # `xs[:-k]`
+                if isinstance(sl, ast.Slice) and sl.lower is None and sl.upper is None and neg(sl.step) == 1:
+                    return Val(f'(({v.text}).reverse)', v.typ)                                   # `xs[::-1]`
             raise Unsupported(f'`{self.inst.qual}`: subscript `{ast.unparse(e)}` of {v.typ}')
+        if isinstance(e, (ast.ListComp, ast.GeneratorExp)) and self.u.hooks.get('value_semantics') and self.is_map_comp(e):
+            return self.map_comp(e)
+        if isinstance(e, ast.SetComp) and self.u.hooks.get('value_semantics') and self.is_map_comp(e):
+            v = self.map_comp(e)                      # `{f(x) for x in xs}` is `set(f(x) for x in xs)`
+            return Val(f'(GV.Obj.dedupBy {self.mem_fn(v.typ[5:])} {_paren(v.text)})', 'Set ' + v.typ[5:])
         if isinstance(e, ast.ListComp):
             return self.list_comp(e)
+        if isinstance(e, ast.SetComp) and self.u.hooks.get('set_of'):
+            g = e.generators
+            if len(g) != 1 or g[0].ifs or not isinstance(g[0].target, ast.Name) or g[0].is_async:
+                raise Unsupported(f'`{self.inst.qual}`: set comprehension other than `{{f(x) for x in xs}}`')
+            xs = self.expr(g[0].iter)
+            if not xs.typ.startswith('List '):
+                raise Unsupported(f'comprehension over {xs.typ}')
+            x = self.gensym(lname(g[0].target.id))
+            inner = self.sub()
+            inner.fresh = self.fresh
+            inner.env[g[0].target.id] = Val(x, xs.typ[5:], path=g[0].target.id)
+            elt = inner.expr(e.elt)
+            if inner.pending:
+                raise Unsupported(f'`{self.inst.qual}`: a call that may raise inside a set comprehension')
+            self.fresh = inner.fresh
+            return Val(f'({self.u.hooks["set_of"]} (({xs.text}).map (fun {x} => {elt.text})))', 'Set ' + elt.typ)
         if isinstance(e, ast.Call):
             return self.call(e)
         raise Unsupported(f'`{self.inst.qual}`: expression `{ast.unparse(e)[:80]}` ({type(e).__name__})')
@@ -1064,11 +3036,18 @@ class FnTr:
         if path and path in self.narrow:
             return self.narrow[path]
         base = self.expr(e.value)
+        if 'frame' in self.u.hooks and (base.typ, e.attr) in self.u.hooks['frame'].get('getattr', {}):
+            tmpl, typ = self.u.hooks['frame']['getattr'][(base.typ, e.attr)]     # a read through the current object state
+            return Val(tmpl.format(_paren(base.text), fr=self.frame()), typ, path=(f'{base.path}.{e.attr}' if base.path else None))
         spec = self.u.attr_types.get((base.typ, e.attr))
         if spec:
             tmpl, typ = spec
             return Val(tmpl.format(base.text), typ, path=(f'{base.path}.{e.attr}' if base.path else None))
         cls = self.u.class_of(base.typ)
+        if cls and self.u.hooks.get('wkt_text') and 'resolve' in self.u.hooks:
+            q = self.u.hooks['resolve'](cls, e.attr)
+            if q and self.u.src.is_property(q):
+                return self.apply(self.wk_find(q, (), base.typ), [base])
         if cls and (self.u.src.is_property(f'{cls}.{e.attr}') or (f'{cls}.{e.attr}', ()) in self.u.externals):
             inst = self.u.find(f'{cls}.{e.attr}', ())
             return self.apply(inst, [base])
@@ -1076,7 +3055,8 @@ class FnTr:
 
     def compare(self, e):
         operands = [e.left] + list(e.comparators)
-        vals = [self.expr(x) for x in operands]
+        vals = [self.literal_seq(x) if i > 0 and isinstance(e.ops[i - 1], (ast.In, ast.NotIn)) and isinstance(x, (ast.Tuple, ast.List))
+                and x.elts and 'tuples' in self.u.hooks else self.expr(x) for i, x in enumerate(operands)]
         parts = []
         for (a, op, b) in zip(vals, e.ops, vals[1:]):
             parts.append(self.compare2(a, op, b))
@@ -1086,8 +3066,20 @@ class FnTr:
 
     def compare2(self, a, op, b):
         num = ('Dt', 'Td', 'Int')
+        if self.u.hooks.get('wkt_text') and isinstance(op, (ast.Is, ast.IsNot)) and b.typ == 'None':
+            if a.typ.startswith('Opt '):
+                return Val(f'({a.text}).{"isNone" if isinstance(op, ast.Is) else "isSome"}', 'Bool')      # `x is None` as a value
+            if a.typ not in ('None', 'Kw') and '?' not in a.typ:
+                return Val('false' if isinstance(op, ast.Is) else 'true', 'Bool')       # a value already known to be present
+        if self.u.hooks.get('local_defs'):
+            r = self.ld_compare2(a, op, b)
+            if r is not None:
+                return r
         if isinstance(op, (ast.In, ast.NotIn)) and b.typ == 'Props' and a.typ == 'Str':
             r = Val(f'((GV.Coll.assocGet {b.text} {a.text}).isSome)', 'Bool')
+            return r if isinstance(op, ast.In) else Val(f'(!{r.text})', 'Bool')
+        if isinstance(op, (ast.In, ast.NotIn)) and b.typ.startswith('Dict ') and b.typ.split()[1:2] == [a.typ]:
+            r = Val(f'((({b.text}).lookup {a.text}).isSome)', 'Bool')
             return r if isinstance(op, ast.In) else Val(f'(!{r.text})', 'Bool')
         if isinstance(op, (ast.In, ast.NotIn)) and b.typ.startswith('List ') and b.typ[5:] == a.typ:
             r = Val(f'(({b.text}).contains {a.text})', 'Bool')
@@ -1099,6 +3091,15 @@ class FnTr:
             tmpl, typ = self.u.abstract[(b.typ, '__contains__', (a.typ,))]
             r = Val('(' + tmpl.format(_paren(b.text), _paren(a.text)) + ')', typ)
             return r if isinstance(op, ast.In) else Val(f'(!{r.text})', 'Bool')
+        if isinstance(op, (ast.In, ast.NotIn)) and b.typ == 'Pair ' + a.typ and self.u.hooks.get('value_semantics') \
+                and self.eq_fn(a.typ, probe=True):
+            # `x in (a, b)`: a tuple is searched left to right with `is` / `==` (identical objects are equal: no NaN)
+            f = self.eq_fn(a.typ)
+            r = Val(f'(({f} {_paren(a.text)} ({b.text}).1) || ({f} {_paren(a.text)} ({b.text}).2))', 'Bool')
+            return r if isinstance(op, ast.In) else Val(f'(!{r.text})', 'Bool')
+        if isinstance(op, (ast.Is, ast.IsNot)) and a.typ == b.typ and a.typ in self.u.hooks.get('identity_types', ()):
+            # `type(x) is type(y)`: class objects are compared by identity, i.e. the kinds are the same
+            return Val(f'({a.text} {"==" if isinstance(op, ast.Is) else "!="} {b.text})', 'Bool')
         if isinstance(op, (ast.In, ast.NotIn)):
             cls = self.u.class_of(b.typ)
             if not cls:
@@ -1113,7 +3114,7 @@ class FnTr:
             if t is None:
                 raise Unsupported(f'comparison {type(op).__name__} on the numeric class')
             return Val(t.format(_paren(a.text), _paren(b.text)), 'Bool')
-        num = num + ('R',)
+        num = num + ('R', 'Nat')
         if a.typ == b.typ == 'Bool' and isinstance(op, (ast.Eq, ast.NotEq)):
             return Val(f'({a.text} {"==" if isinstance(op, ast.Eq) else "!="} {b.text})', 'Bool')
         if a.typ in num and b.typ == a.typ:
@@ -1137,6 +3138,9 @@ class FnTr:
                 r = hook(self, a, b)
                 if r is not None:
                     return r if isinstance(op, ast.Eq) else Val(f'(!{r.text})', 'Bool')
+            if self.u.hooks.get('value_semantics') and _same_type(a.typ, b.typ) and self.eq_fn(a.typ, probe=True):
+                r = Val(f'({self.eq_fn(a.typ)} {_paren(a.text)} {_paren(b.text)})', 'Bool')
+                return r if isinstance(op, ast.Eq) else Val(f'(!{r.text})', 'Bool')
         raise Unsupported(f'comparison {a.typ} {type(op).__name__} {b.typ}')
 
     def unify_num(self, a, b):
@@ -1149,29 +3153,52 @@ class FnTr:
             return a, Val(f'({b.text} : Rat)', 'R')
         if a.typ == 'Int' and b.typ == 'R':
             return Val(f'({a.text} : Rat)', 'R'), b
+        wide = {'Int': 'Int', 'R': 'Rat'}
+        if a.typ == 'Nat' and b.typ in wide:              # a non-negative int next to an int / a float
+            return Val(f'({a.text} : {wide[b.typ]})', b.typ), b
+        if b.typ == 'Nat' and a.typ in wide:
+            return a, Val(f'({b.text} : {wide[a.typ]})', a.typ)
         return a, b
+
 
     def apply(self, inst, args):
         if len(args) != len([p for p in inst.params]):
             raise Unsupported(f'`{inst.qual}` applied to {len(args)} arguments, declared {len(inst.params)}')
         ctx = [n for n, _t in self.u.ctx_params] if inst in self.u.insts else []
+        if 'frame' in self.u.hooks and ctx:
+            if inst.value_type == self.u.hooks['frame']['result']:
+                raise Unsupported(f'`{self.inst.qual}`: call of the updating method `{inst.qual}` from a translated method')
+            ctx = [_paren(self.frame()) if n == self.u.hooks['frame']['name'] else n for n in ctx]     # the *current* object state
         txt = ' '.join([inst.lean] + ctx + [_paren(a.text) for a, (_n, t) in zip(args, inst.params) if t != 'None'])
         v = Val(f'({txt})', inst.value_type)
         v.raises = inst.raises
         return v
 
     def call(self, e):
+        if self.u.hooks.get('wkt_text'):
+            r = self.wk_call(e)                  # class hierarchies, strings, sequences: see `wk_call`
+            if isinstance(r, Val):
+                return r
+            if r is not None:
+                e = r                            # the call with its keyword arguments put in their positions
         if e.keywords and not all(k.arg is None for k in e.keywords):
             hook = self.u.hooks.get('keywords')
             if not (hook and hook(self, e)):
                 raise Unsupported(f'`{self.inst.qual}`: keyword arguments in `{ast.unparse(e)[:80]}`')
-        more = self.call_more(e)
-        if more is not None:
-            return more
+        if self.u.hooks.get('geojson_doc'):
+            ext = self.gj_call(e)                # sum / map / list / reversed / len / abs, nested defs, the unit's raw-call hook
+            if ext is not None:
+                return ext
         f = e.func
         if isinstance(f, ast.Call) and isinstance(f.func, ast.Name) and f.func.id == 'type' and len(f.args) == 1 \
                 and 'type_ctor' in self.u.hooks:
             return self.u.hooks['type_ctor'](self, self.expr(f.args[0]), [self.expr(a) for a in e.args])
+        if isinstance(f, ast.Name) and f.id in getattr(self, 'localfns', {}) and f.id not in self.env:
+            args = self.call_args(e.args)
+            inst = self.u.find(self.localfns[f.id], tuple(a.typ for a in args))
+            return self.apply(inst, args)
+        if isinstance(f, ast.Name) and f.id in self.u.intrinsics and f.id in self.u.hooks.get('intrinsics_first', ()):
+            return self.u.intrinsics[f.id](self, self.call_args(e.args))
         if isinstance(f, ast.Name):
             if f.id in ('min', 'max') and len(e.args) == 2:
                 a, b = self.expr(e.args[0]), self.expr(e.args[1])
@@ -1186,6 +3213,27 @@ class FnTr:
                         return Val(f'(if Num.lt {_paren(b.text)} {_paren(a.text)} then {b.text} else {a.text})', 'N')
                     return Val(f'(if Num.lt {_paren(a.text)} {_paren(b.text)} then {b.text} else {a.text})', 'N')
                 raise Unsupported(f'{f.id} of {a.typ}, {b.typ}')
+            if f.id in ('min', 'max') and len(e.args) == 1 and not e.keywords:
+                # `min(xs)` / `min(f(x) for x in xs)`: ValueError on an empty iterable
+                a = self.list_comp(e.args[0]) if isinstance(e.args[0], ast.GeneratorExp) else self.expr(e.args[0])
+                if a.typ == 'List R':
+                    r = Val(f'(GV.Py.{f.id}List {a.text})', 'R')
+                    r.raises = True
+                    return r
+                raise Unsupported(f'{f.id} of {a.typ}')
+            if f.id == 'zip' and len(e.args) == 1 and isinstance(e.args[0], ast.Starred):
+                # `zip(*rows)` for rows of one known width: the list of columns (no columns at all for no rows)
+                a = self.expr(e.args[0].value)
+                if a.typ.startswith('List Pair '):
+                    return Val(f'(GV.Py.zipStar2 {a.text})', 'List List ' + a.typ[10:])
+                if a.typ.startswith('List Tuple4 '):
+                    return Val(f'(GV.Py.zipStar4 {a.text})', 'List List ' + a.typ[12:])
+                raise Unsupported(f'zip(*…) of {a.typ}')
+            if f.id == 'list' and len(e.args) == 1 and not e.keywords:
+                a = self.expr(e.args[0])
+                if a.typ.startswith('List '):
+                    return a
+                raise Unsupported(f'list() of {a.typ}')
             if f.id == 'zip' and len(e.args) == 2:
                 a, b = self.expr(e.args[0]), self.expr(e.args[1])
                 if a.typ.startswith('List ') and b.typ.startswith('List '):
@@ -1195,6 +3243,28 @@ class FnTr:
                 return self.expr(e.args[1])
             if f.id == 'sorted' and 'sorted' in self.u.hooks:
                 return self.u.hooks['sorted'](self, e)
+            if f.id == 'len' and len(e.args) == 1 and not e.keywords and 'len' not in self.env and self.u.hooks.get('nat_literals'):
+                v = self.expr(e.args[0])
+                if v.typ.startswith('List '):
+                    return Val(f'(({v.text}).length)', 'Nat')
+                raise Unsupported(f'len() of {v.typ}')
+            if f.id == 'ord' and len(e.args) == 1 and not e.keywords and 'ord' not in self.env and self.u.hooks.get('nat_literals'):
+                v = self.expr(e.args[0])
+                if v.typ == 'Ch':
+                    return Val(f'(({v.text}).toNat)', 'Nat')
+                raise Unsupported(f'ord() of {v.typ}')
+            if f.id == 'len' and len(e.args) == 1 and not e.keywords:
+                v = self.expr(e.args[0])
+                if v.typ.startswith('List '):
+                    return Val(f'(Int.ofNat ({v.text}).length)', 'Int')
+                raise Unsupported(f'len() of {v.typ}')
+            if f.id == 'list' and not e.args and not e.keywords:
+                return Val('[]', 'List ?')
+            if f.id == 'list' and len(e.args) == 1 and not e.keywords:
+                v = self.iterable(e.args[0])
+                if v.typ.startswith('List '):
+                    return v              # a copy of a list value (lists are values here)
+                raise Unsupported(f'list() of {v.typ}')
             if f.id == 'bool' and len(e.args) == 1:
                 return Val(self.truth(self.expr(e.args[0])), 'Bool')
             if f.id == 'float' and len(e.args) == 1:
@@ -1204,6 +3274,31 @@ class FnTr:
                 if v.typ == 'Int':
                     return Val(f'({v.text} : Rat)', 'R')
                 raise Unsupported(f'float() of {v.typ}')
+            if f.id == 'hash' and len(e.args) == 1 and self.u.hooks.get('hash_keys'):
+                return self.key_of_expr(e.args[0])    # the *key* of the value handed to hash() (see `key_of`)
+            if f.id == 'range' and len(e.args) in (1, 2) and self.u.hooks.get('value_semantics'):
+                vals = [self.expr(a) for a in e.args]
+                if all(v.typ == 'Int' for v in vals):
+                    lo = vals[0].text if len(vals) == 2 else '(0 : Int)'
+                    return Val(f'(GV.Py.range {lo} {vals[-1].text})', 'List Int')
+                raise Unsupported('range() of ' + ', '.join(v.typ for v in vals))
+            if f.id in ('set', 'frozenset') and len(e.args) == 1 and self.u.hooks.get('value_semantics'):
+                v = self.expr(e.args[0])
+                if v.typ.startswith('List ') and '?' not in v.typ:
+                    # building a set from an iterable: an element equal (hash and `==`) to one already there is dropped
+                    return Val(f'(GV.Obj.dedupBy {self.mem_fn(v.typ[5:])} {_paren(v.text)})', 'Set ' + v.typ[5:])
+                raise Unsupported(f'{f.id}() of {v.typ}')
+            if f.id == 'tuple' and len(e.args) == 1 and self.u.hooks.get('value_semantics'):
+                v = self.expr(e.args[0])
+                if v.typ.startswith('List ') and '?' not in v.typ:
+                    return v                          # the same sequence of items (a tuple is compared / hashed item by item)
+                raise Unsupported(f'{f.id}() of {v.typ}')
+            if f.id == 'type' and len(e.args) == 1 and 'type_of' in self.u.hooks:
+                v = self.expr(e.args[0])
+                spec = self.u.hooks['type_of'].get(v.typ)
+                if spec is None:
+                    raise Unsupported(f'type() of {v.typ}')
+                return Val(spec[0].format(v.text), spec[1])
             if f.id == 'hash' and len(e.args) == 1:
                 return self.expr(e.args[0])           # the value handed to hash()
             if f.id == 'set' and not e.args:
@@ -1229,7 +3324,15 @@ class FnTr:
                     return self.apply_ctor(inst, args)
             if f.id in self.u.src.defs:
                 args = [self.expr(a) for a in e.args]
-                inst = self.u.find(f.id, tuple(a.typ for a in args))
+                try:
+                    inst = self.u.find(f.id, tuple(a.typ for a in args))
+                except Unsupported:
+                    # a non-negative int where the instance is declared at `int`
+                    inst = next((i for i in self.u.insts if i.qual == f.id and len(i.params) == len(args) and all(
+                        a.typ == t or (a.typ, t) == ('Nat', 'Int') for a, (_n, t) in zip(args, i.params))), None)
+                    if inst is None:
+                        raise
+                    args = [a if a.typ == t else Val(f'({a.text} : Int)', 'Int') for a, (_n, t) in zip(args, inst.params)]
                 return self.apply(inst, args)
             raise Unsupported(f'`{self.inst.qual}`: call of `{f.id}`')
         if isinstance(f, ast.Attribute) and isinstance(f.value, ast.Name) and f.value.id not in self.env \
@@ -1246,8 +3349,23 @@ class FnTr:
                 r = hook(self, recv, f.attr, e.args)
                 if r is not None:
                     return r
+            if self.u.hooks.get('pycoll') and recv.typ.startswith('DDL ') and f.attr == 'items' and not e.args:
+                kt, vt = _prod_parts('Prod ' + recv.typ[4:])
+                return Val(recv.text, f'List Prod {_parenw(kt)} {_parenw("List " + vt)}')
+            if self.u.hooks.get('pycoll') and recv.typ.startswith('List ') and f.attr == 'copy' and not e.args:
+                return Val(recv.text, recv.typ)           # a list is a value here
             args = [self.expr(a) for a in e.args]
             ab = self.u.abstract.get((recv.typ, f.attr, tuple(a.typ for a in args)))
+            if ab and ab[1].startswith('Heap '):
+                # a call that creates an object: `(heap', value)`; the value is a *fresh* object
+                if getattr(self, 'heap', None) is None:
+                    raise Unsupported(f'`{self.inst.qual}`: `.{f.attr}()` creates an object, but the instance is not declared to work on the heap')
+                nm = self.gensym('hr')
+                self.pending.append((LetName(nm), ab[0].format(*[_paren(x.text) for x in [recv] + args], h=self.heap)))
+                self.heap = f'{nm}.1'
+                r = Val(f'{nm}.2', ab[1][5:])
+                r.fresh = True
+                return r
             if ab:
                 tmpl, typ = ab
                 return Val('(' + tmpl.format(*[_paren(x.text) for x in [recv] + args]) + ')', typ)
@@ -1257,6 +3375,80 @@ class FnTr:
                 return self.apply(inst, ([recv] if is_method else []) + args)
             raise Unsupported(f'`{self.inst.qual}`: method `.{f.attr}` of {recv.typ} at {tuple(a.typ for a in args)}')
         raise Unsupported(f'`{self.inst.qual}`: call `{ast.unparse(e)[:80]}`')
+
+    def components(self, v):
+        """the components of a tuple value `Prod A B C …` (Lean: right-nested pairs) or `Pair A`"""
+        if v.typ.startswith('Pair '):
+            return [Val(f'{v.text}.1', v.typ[5:]), Val(f'{v.text}.2', v.typ[5:])]
+        parts = _prod_parts(v.typ)
+        if not v.typ.startswith('Prod ') or len(parts) < 2:
+            raise Unsupported(f'`*` / components of {v.typ}')
+        n = len(parts)
+        return [Val(f'{v.text}' + '.2' * i + ('.1' if i < n - 1 else ''), t) for i, t in enumerate(parts)]
+
+    def call_args(self, args):
+        """positional arguments, `*t` of a tuple value spread into its components"""
+        out = []
+        for a in args:
+            if isinstance(a, ast.Starred):
+                out += self.components(self.expr(a.value))
+            else:
+                out.append(self.expr(a))
+        return out
+
+    def literal_seq(self, x):
+        """the right operand of `in` / `not in` written as a tuple / list display: the list of its elements"""
+        vals = [self.expr(el) for el in x.elts]
+        if any(v.typ != vals[0].typ for v in vals):
+            raise Unsupported(f'`in` over a display of mixed types: `{ast.unparse(x)}`')
+        return Val('[' + ', '.join(v.text for v in vals) + ']', 'List ' + vals[0].typ)
+
+    def chars_subscript(self, v, e):
+        """`s[i]` (IndexError past the end), `s[a:b]`, `s[a:]`, `s[:b]` of a str, for literal non-negative bounds"""
+        sl = e.slice
+
+        def lit(x):
+            return isinstance(x, ast.Constant) and isinstance(x.value, int) and not isinstance(x.value, bool) and x.value >= 0
+        if lit(sl):
+            r = Val(f'(GV.PyStr.charAt {_paren(v.text)} {sl.value})', 'Chars')
+            r.raises = True
+            return r
+        if isinstance(sl, ast.Slice) and sl.step is None and (sl.lower is None or lit(sl.lower)) and (sl.upper is None or lit(sl.upper)):
+            lo = sl.lower.value if sl.lower is not None else 0
+            t = v.text if lo == 0 else f'(({v.text}).drop {lo})'
+            if sl.upper is not None:
+                t = f'(({t}).take {max(sl.upper.value - lo, 0)})'
+            return Val(t, 'Chars')
+        raise Unsupported(f'`{self.inst.qual}`: subscript `{ast.unparse(e)}` of a str')
+
+    def fstring(self, e):
+        """f'…{x}…{y:.2f}…': the concatenation of the pieces; a format spec is an intrinsic `format:<spec>` of the unit"""
+        parts = []
+        for p in e.values:
+            if isinstance(p, ast.Constant) and isinstance(p.value, str):
+                parts.append(chars_literal(p.value))
+                continue
+            if not isinstance(p, ast.FormattedValue) or p.conversion != -1:
+                raise Unsupported(f'`{self.inst.qual}`: f-string piece `{ast.unparse(p)[:60]}`')
+            v = self.expr(p.value)
+            if p.format_spec is None:
+                if v.typ == 'Chars':
+                    parts.append(v.text)
+                elif 'str' in self.u.intrinsics:
+                    parts.append(self.u.intrinsics['str'](self, [v]).text)
+                else:
+                    raise Unsupported(f'f-string piece of type {v.typ}')
+                continue
+            spec = p.format_spec
+            if not (isinstance(spec, ast.JoinedStr) and len(spec.values) == 1 and isinstance(spec.values[0], ast.Constant)):
+                raise Unsupported(f'`{self.inst.qual}`: computed format spec in `{ast.unparse(e)[:60]}`')
+            key = 'format:' + spec.values[0].value
+            if key not in self.u.intrinsics:
+                raise Unsupported(f'`{self.inst.qual}`: format spec `{spec.values[0].value}`')
+            parts.append(self.u.intrinsics[key](self, [v]).text)
+        if not parts:
+            return Val('([] : List Char)', 'Chars')
+        return Val(parts[0] if len(parts) == 1 else '(' + ' ++ '.join(parts) + ')', 'Chars')
 
     def apply_ctor(self, inst, args):
         ctx = [n for n, _t in self.u.ctx_params] if inst in self.u.insts else []
@@ -1275,8 +3467,34 @@ class FnTr:
             if xss.typ.startswith('List List '):
                 return Val(f'(({xss.text}).flatten)', xss.typ[5:])
             raise Unsupported(f'flattening of {xss.typ}')
-        if len(e.generators) == 1 and not e.generators[0].ifs:
-            return self.map_comp(e.elt, e.generators[0])          # `[f(x) for x in xs]`
+        if self.u.hooks.get('geojson_doc') and len(g) == 1 and not g[0].ifs:
+            return self.gj_map_comp(e.elt, g[0])          # `[f(x) for x in xs]` (`GV.Py.mapE` when f may raise)
+        if len(g) in (1, 2) and all(isinstance(c.target, ast.Name) and not c.ifs and not c.is_async for c in g):
+            # `[f(x) for x in xs]` -> `xs.map`; `[f(x, y) for x in xs for y in g(x)]` -> `xs.flatMap (fun x => (g x).map …)`
+            xs = self.expr(g[0].iter)
+            if not xs.typ.startswith('List '):
+                raise Unsupported(f'comprehension over {xs.typ}')
+            x = self.gensym(lname(g[0].target.id))
+            inner = self.sub()
+            inner.fresh = self.fresh
+            inner.env[g[0].target.id] = Val(x, xs.typ[5:], path=g[0].target.id)
+            inner.narrow.pop(g[0].target.id, None)
+            if len(g) == 1:
+                el = inner.expr(e.elt)
+                out = Val(f'(({xs.text}).map (fun {x} => {el.text}))', 'List ' + el.typ)
+            else:
+                ys = inner.expr(g[1].iter)
+                if not ys.typ.startswith('List '):
+                    raise Unsupported(f'comprehension over {ys.typ}')
+                y = inner.gensym(lname(g[1].target.id))
+                inner.env[g[1].target.id] = Val(y, ys.typ[5:], path=g[1].target.id)
+                el = inner.expr(e.elt)
+                body = ys.text if el.text == y else f'(({ys.text}).map (fun {y} => {el.text}))'
+                out = Val(f'(({xs.text}).flatMap (fun {x} => {body}))', 'List ' + el.typ)
+            if inner.pending:
+                raise Unsupported(f'`{self.inst.qual}`: a call that may raise inside a comprehension')
+            self.fresh = inner.fresh
+            return out
         if len(e.generators) != 1 or not isinstance(e.generators[0].target, ast.Name) or len(e.generators[0].ifs) != 1 \
                 or not (isinstance(e.elt, ast.Name) and e.elt.id == e.generators[0].target.id):
             raise Unsupported(f'`{self.inst.qual}`: comprehension other than `[x for x in xs if c]`')
@@ -1304,6 +3522,196 @@ class FnTr:
             # the instance may raise but this test can not: undo the `.ok` wrapping of the branch leaves
             body = body.replace('Except.ok true', 'true').replace('Except.ok false', 'false')
         return Val(f'(({xs.text}).filter (fun {x} =>\n{_indent(body, 4)}))', xs.typ)
+
+    # ---- unit hook `wkt_text` (SrcWkt): Python strings as Lean `String`s, finite sequences as lists, methods found through
+    # the class hierarchy of a `SourceSet`.  Everything below is reached only from the three dispatch lines in `_expr`,
+    # `call`, `compare2`, `attribute`, `branch` and `FnTr.__init__` that test the hook.
+    def wk_find(self, qual, argtypes, recv=None):
+        """the instance of `qual` at these argument types; several classes inherit one definition: the instance declared for
+        this receiver type, if there is one (a classmethod's `cls` is a receiver like `self`)"""
+        argtypes = tuple(argtypes)
+        cands = [i for i in self.u.insts if i.qual == qual and
+                 tuple(t for n, t in i.params if n not in ('self', 'cls')) == argtypes]
+        for i in cands:
+            if recv is not None and i.params and i.params[0][0] in ('self', 'cls') and i.params[0][1] == recv:
+                return i
+        if cands:
+            return cands[0]
+        return self.u.find(qual, argtypes)
+
+    def wk_expr(self, e):
+        if isinstance(e, ast.Constant) and isinstance(e.value, str):
+            return Val(_lean_str(e.value), 'Str')
+        if isinstance(e, ast.JoinedStr):
+            # an f-string whose fields are strings (no conversion, no format spec): the concatenation of its parts
+            parts = []
+            for p in e.values:
+                if isinstance(p, ast.Constant) and isinstance(p.value, str):
+                    parts.append(_lean_str(p.value))
+                elif isinstance(p, ast.FormattedValue) and p.conversion == -1 and p.format_spec is None:
+                    v = self.expr(p.value)
+                    if v.typ != 'Str':
+                        raise Unsupported(f'f-string field `{ast.unparse(p.value)[:60]}` of type {v.typ}')
+                    parts.append(v.text)
+                else:
+                    raise Unsupported(f'f-string part `{ast.unparse(p)[:60]}`')
+            return Val('(' + ' ++ '.join(parts or ['""']) + ')', 'Str')
+        if isinstance(e, ast.BinOp) and isinstance(e.op, ast.Add) and self.wk_type_of(e.left) == 'Str':
+            a, b = self.expr(e.left), self.expr(e.right)
+            if b.typ != 'Str':
+                raise Unsupported(f'`{ast.unparse(e)[:60]}`: Str + {b.typ}')
+            return Val(f'({a.text} ++ {b.text})', 'Str')
+        if isinstance(e, ast.BoolOp) and isinstance(e.op, ast.Or) and len(e.values) == 2 \
+                and (self.wk_type_of(e.values[0]) or '').startswith('List '):
+            a, b = self.expr(e.values[0]), self.expr(e.values[1])
+            if a.typ != b.typ:
+                raise Unsupported(f'`{ast.unparse(e)[:60]}`: {a.typ} or {b.typ}')
+            return Val(f'(if !({a.text}).isEmpty then {a.text} else {b.text})', a.typ)          # `xs or ys`
+        if isinstance(e, ast.Dict) and not e.keys:
+            return Val('[]', 'Dict ?')                 # `{}`: typed by the unit's `local_type`
+        if isinstance(e, ast.ListComp) and len(e.generators) == 1 and not e.generators[0].ifs \
+                and isinstance(e.generators[0].target, ast.Name):
+            return self.wk_map_comp(e)               # `[f(x) for x in xs]`
+        if isinstance(e, ast.Subscript) and (self.wk_type_of(e.value) or '').startswith('List '):
+            sl = e.slice
+            neg1 = isinstance(sl, ast.UnaryOp) and isinstance(sl.op, ast.USub) and isinstance(sl.operand, ast.Constant) \
+                and sl.operand.value == 1
+            rev = isinstance(sl, ast.Slice) and sl.lower is None and sl.upper is None and isinstance(sl.step, ast.UnaryOp) \
+                and isinstance(sl.step.op, ast.USub) and isinstance(sl.step.operand, ast.Constant) and sl.step.operand.value == 1
+            take = isinstance(sl, ast.Slice) and sl.lower is None and sl.step is None and isinstance(sl.upper, ast.Constant) \
+                and isinstance(sl.upper.value, int) and not isinstance(sl.upper.value, bool) and sl.upper.value >= 0
+            drop = isinstance(sl, ast.Slice) and sl.upper is None and sl.step is None and isinstance(sl.lower, ast.Constant) \
+                and isinstance(sl.lower.value, int) and not isinstance(sl.lower.value, bool) and sl.lower.value >= 0
+            idx = isinstance(sl, ast.Constant) and isinstance(sl.value, int) and not isinstance(sl.value, bool) and sl.value >= 0
+            if not (neg1 or rev or take or drop or idx):
+                return None
+            v = self.expr(e.value)
+            if rev:
+                return Val(f'(({v.text}).reverse)', v.typ)        # xs[::-1]
+            if take:
+                return Val(f'(({v.text}).take {sl.upper.value})', v.typ)        # xs[:n]
+            if drop:
+                return Val(f'(({v.text}).drop {sl.lower.value})', v.typ)        # xs[n:]
+            r = Val(f'(GV.Py.getLast {_paren(v.text)})', v.typ[5:]) if neg1 else \
+                Val(f'(GV.Py.getIdx {_paren(v.text)} {sl.value})', v.typ[5:])        # xs[-1], xs[i]: IndexError
+            r.raises = True
+            return r
+        return None
+
+    def wk_type_of(self, e):
+        """static type of an expression, translated on a scratch copy (None when it does not translate)"""
+        t = self.sub()
+        t.fresh = self.fresh
+        try:
+            return t.expr(e, allow_raise=True).typ
+        except Unsupported:
+            return None
+
+    def wk_map_comp(self, e):
+        """`[f(x) for x in xs]` / `(f(x) for x in xs)` -> `xs.map (fun x => f x)`; with an element that may raise -> `GV.Py.mapE`"""
+        g = e.generators[0]
+        xs = self.expr(g.iter)
+        if not xs.typ.startswith('List '):
+            raise Unsupported(f'comprehension over {xs.typ}')
+        x = self.gensym(lname(g.target.id))
+        inner = self.sub()
+        inner.fresh = self.fresh
+        inner.env[g.target.id] = Val(x, xs.typ[5:], path=g.target.id)
+        inner.narrow.pop(g.target.id, None)
+        v = inner.expr(e.elt, allow_raise=True)
+        if inner.pending or getattr(v, 'raises', False):
+            # an element that may raise: evaluated left to right, the first exception ends the comprehension
+            if not self.inst.raises:
+                raise Unsupported(f'`{self.inst.qual}`: a call that may raise inside `{ast.unparse(e)[:60]}`')
+            body = inner.wrap(v.text if getattr(v, 'raises', False) else inner.ok(v.text))
+            self.fresh = inner.fresh
+            r = Val(f'(GV.Py.mapE (fun {x} => (show {lean_type("Except " + v.typ)} from\n{_indent(body, 4)})) {_paren(xs.text)})',
+                    'List ' + v.typ)
+            r.raises = True
+            return r
+        self.fresh = inner.fresh
+        if v.text == x:
+            return Val(xs.text, xs.typ)
+        return Val(f'(({xs.text}).map (fun {x} => {v.text}))', 'List ' + v.typ)
+
+    def wk_str_method(self, recv, attr, args):
+        """`sep.join(xs)` over a list / generator of strings, `s.lower()`"""
+        if attr == 'join' and len(args) == 1:
+            a = args[0]
+            xs = self.wk_map_comp(a) if isinstance(a, ast.GeneratorExp) and len(a.generators) == 1 and not a.generators[0].ifs \
+                and isinstance(a.generators[0].target, ast.Name) else self.expr(a)
+            if xs.typ != 'List Str':
+                raise Unsupported(f'join over {xs.typ}')
+            return Val(f'(String.intercalate {_paren(recv.text)} {_paren(xs.text)})', 'Str')
+        if attr == 'lower' and not args:
+            return Val(f'(({recv.text}).toLower)', 'Str')
+        raise Unsupported(f'`{self.inst.qual}`: string method `.{attr}`')
+
+    def wk_call(self, e):
+        """a Val (the call is translated here), a rewritten ast.Call (keyword arguments put in their positions) or None"""
+        if 'call_whole' in self.u.hooks:
+            r = self.u.hooks['call_whole'](self, e)          # a call the unit reads as a whole (declared in srcunits)
+            if r is not None:
+                return r
+        rewritten = None
+        if e.keywords and 'bind_keywords' in self.u.hooks:
+            rewritten = self.u.hooks['bind_keywords'](self, e)
+            if rewritten is not None:
+                e = rewritten
+        if e.keywords and not all(k.arg is None for k in e.keywords):
+            return rewritten
+        f = e.func
+        if isinstance(f, ast.Name) and not e.keywords and len(e.args) == 1 and f.id in ('len', 'list', 'tuple', 'reversed') \
+                and f.id not in self.env:
+            v = self.expr(e.args[0])
+            if f.id == 'len' and (v.typ.startswith('List ') or v.typ == 'Str'):
+                return Val(f'(({v.text}).length : Int)', 'Int')
+            if f.id == 'list' and v.typ == 'Str':
+                return Val(f'(({v.text}).toList)', 'List Chr')        # list('zm') == ['z', 'm']
+            if f.id != 'len' and v.typ.startswith('List '):
+                # every finite sequence (list, tuple, the iterator of `reversed`) is the list of its elements
+                return Val(f'(({v.text}).reverse)', v.typ) if f.id == 'reversed' else Val(v.text, v.typ, path=v.path)
+            raise Unsupported(f'{f.id}() of {v.typ}')
+        if not isinstance(f, ast.Attribute):
+            return rewritten
+        resolve = self.u.hooks.get('resolve')
+        if isinstance(f.value, ast.Call) and isinstance(f.value.func, ast.Name) and f.value.func.id == 'super' \
+                and not f.value.args and 'super_method' in self.u.hooks:
+            return self.u.hooks['super_method'](self, f.attr, e.args)
+        if isinstance(f.value, ast.Name) and f.value.id not in self.env and f'{f.value.id}.{f.attr}' in self.u.intrinsics:
+            return rewritten
+        if isinstance(f.value, ast.Name) and f.value.id not in self.env and resolve \
+                and f.value.id in getattr(self.u.src, 'bases', {}):
+            # `Class.method(…)`: a classmethod / staticmethod reached through the class name
+            qual = resolve(f.value.id, f.attr)
+            if qual is None:
+                raise Unsupported(f'`{self.inst.qual}`: `{f.value.id}.{f.attr}` not found')
+            args = [self.expr(a) for a in e.args]
+            inst = self.wk_find(qual, tuple(a.typ for a in args))
+            has_cls = bool(inst.params) and inst.params[0][0] == 'cls'
+            return self.apply(inst, ([Val('()', inst.params[0][1])] if has_cls else []) + args)
+        recv = self.expr(f.value)
+        if recv.typ == 'Str':
+            return self.wk_str_method(recv, f.attr, e.args)
+        cls = self.u.class_of(recv.typ)
+        qual = (resolve(cls, f.attr) if resolve and cls else None) or (f'{cls}.{f.attr}' if cls else None)
+        if qual and qual in self.u.intrinsics:
+            return self.u.intrinsics[qual](self, [recv] + [self.expr(a) for a in e.args])
+        hook = self.u.hooks.get('method')
+        if hook:
+            r = hook(self, recv, f.attr, e.args)
+            if r is not None:
+                return r
+        args = [self.expr(a) for a in e.args]
+        ab = self.u.abstract.get((recv.typ, f.attr, tuple(a.typ for a in args)))
+        if ab:
+            tmpl, typ = ab
+            return Val('(' + tmpl.format(*[_paren(x.text) for x in [recv] + args]) + ')', typ)
+        if qual and qual in self.u.src.defs:
+            inst = self.wk_find(qual, tuple(a.typ for a in args), recv.typ)
+            first = inst.params[0][0] if inst.params else None       # a staticmethod takes no receiver
+            return self.apply(inst, ([recv] if first == 'self' else [Val('()', inst.params[0][1])] if first == 'cls' else []) + args)
+        raise Unsupported(f'`{self.inst.qual}`: method `.{f.attr}` of {recv.typ} at {tuple(a.typ for a in args)}')
 
     def any_all(self, which, g):
         tgt = g.generators[0].target if len(g.generators) == 1 else None
@@ -1334,21 +3742,189 @@ class FnTr:
         self.fresh = inner.fresh
         return Val(f'(({xs.text}).{which} (fun {x} => {c}))', 'Bool')
 
-    # ---- further constructs (added with the GeoJSON unit; each is generic Python) --------------------------
-    def block_more(self, s, rest):
+
+    # ---- `[f(x) for x in xs]`, `(f(x, y) for x, y in pairs)` ---------------------------------------------
+    def is_map_comp(self, e):
+        g = e.generators
+        if len(g) != 1 or g[0].ifs or g[0].is_async:
+            return False
+        t = g[0].target
+        if isinstance(t, ast.Name):
+            return not (isinstance(e.elt, ast.Name) and e.elt.id == t.id) or isinstance(e, (ast.GeneratorExp, ast.SetComp))
+        return isinstance(t, ast.Tuple) and len(t.elts) == 2 and all(isinstance(x, ast.Name) for x in t.elts)
+
+    def map_comp(self, e):
+        """a comprehension / generator without a filter, consumed as the list of its items: `xs.map`"""
+        g = e.generators[0]
+        xs = self.expr(g.iter)
+        if not xs.typ.startswith('List '):
+            raise Unsupported(f'comprehension over {xs.typ}')
+        elem = xs.typ[5:]
+        inner = self.sub()
+        inner.fresh = self.fresh
+        if isinstance(g.target, ast.Name):
+            x = inner.gensym(lname(g.target.id))
+            inner.env[g.target.id] = Val(x, elem, path=g.target.id)
+            inner.narrow.pop(g.target.id, None)
+        else:
+            parts = _prod_parts(elem) if elem.startswith('Prod ') else ([elem[5:]] * 2 if elem.startswith('Pair ') else [])
+            if len(parts) != 2:
+                raise Unsupported(f'unpacking {elem} into two names')
+            x = inner.gensym('pair')
+            for i, t in enumerate(g.target.elts):
+                inner.env[t.id] = Val(f'{x}.{i + 1}', parts[i], path=t.id)
+                inner.narrow.pop(t.id, None)
+        v = inner.expr(e.elt)
+        if inner.pending:
+            raise Unsupported(f'`{self.inst.qual}`: a call that may raise inside a comprehension')
+        self.fresh = inner.fresh
+        return Val(f'(({xs.text}).map (fun {x} => {v.text}))', 'List ' + v.typ)
+
+    # ---- `==`, set membership and hash keys, directed by the static type ---------------------------------
+    #
+    # `eq_fn(T)`      Lean function text for Python's `a == b` at two values of type T
+    # `hasheq_fn(T)`  ... for `hash(a) == hash(b)`, read as "the keys handed to hash() are the same value" (DESIGN §3: CPython's
+    #                 hash is a function of the key; the key of a frozenset is the multiset of its members' keys)
+    # `mem_fn(T)`     the membership relation of a set / dict of T: hash first, then `==`
+    # `key_of(v)`     the key of a value: what its `__hash__` hands to `hash()`, component by component
+    _PLAIN = ('R', 'Int', 'Dt', 'Td', 'Bool')
+
+    def _inst_fn(self, inst):
+        ctx = [n for n, _t in self.u.ctx_params] if inst in self.u.insts else []
+        return ' '.join([inst.lean] + ctx)
+
+    def _parts(self, t):
+        if t.startswith('Pair '):
+            return [t[5:], t[5:]]
+        if t.startswith('Prod '):
+            return _prod_parts(t)
+        return None
+
+    def eq_fn(self, t, probe=False):
+        try:
+            return self._eq_fn(t)
+        except Unsupported:
+            if probe:
+                return None
+            raise
+
+    def _eq_fn(self, t):
+        ab = self.u.hooks.get('eq_abstract', {}).get(t)
+        if ab:
+            return ab
+        if t in self._PLAIN:
+            return '(fun a b => a == b)'
+        cls = self.u.class_of(t)
+        if cls:
+            inst = self.u.find(f'{cls}.__eq__', (t,))
+            if inst.raises:
+                raise Unsupported(f'`==` on {t} may raise')
+            return f'({self._inst_fn(inst)})'
+        if t.startswith('Opt '):
+            return f'(GV.Py.optEq {self._eq_fn(t[4:])})'
+        if t.startswith('List '):
+            return f'(GV.Obj.listEqBy {self._eq_fn(t[5:])})'
+        if t.startswith('Set '):
+            return f'(GV.Py.setEq {self.mem_fn(t[4:])})'
+        parts = self._parts(t)
+        if parts and len(parts) == 2:
+            return f'(GV.Py.pairEq {self._eq_fn(parts[0])} {self._eq_fn(parts[1])})'
+        raise Unsupported(f'`==` on {t}')
+
+    def hasheq_fn(self, t):
+        ab = self.u.hooks.get('hasheq_abstract', {}).get(t)
+        if ab:
+            return ab
+        if t in self._PLAIN:
+            return '(fun a b => a == b)'
+        cls = self.u.class_of(t)
+        if cls:
+            inst = self.u.find(f'{cls}.__hash__', ())
+            if inst.raises or 'Set ' in inst.value_type or inst.value_type in self.u.hooks.get('key_abstract_types', ()):
+                raise Unsupported(f'hash equality on {t}')
+            return f'(fun a b => {self._inst_fn(inst)} a == {self._inst_fn(inst)} b)'
+        if t.startswith('Opt '):
+            return f'(GV.Py.optEq {self.hasheq_fn(t[4:])})'
+        if t.startswith('List '):
+            return f'(GV.Obj.listEqBy {self.hasheq_fn(t[5:])})'
+        if t.startswith('Set '):
+            return f'(GV.Obj.msEqBy {self.hasheq_fn(t[4:])})'
+        parts = self._parts(t)
+        if parts and len(parts) == 2:
+            return f'(GV.Py.pairEq {self.hasheq_fn(parts[0])} {self.hasheq_fn(parts[1])})'
+        raise Unsupported(f'hash equality on {t}')
+
+    def mem_fn(self, t):
+        return f'(fun a b => {self.hasheq_fn(t)} a b && {self._eq_fn(t)} a b)'
+
+    def key_of_expr(self, e):
+        if isinstance(e, ast.Tuple) and len(e.elts) >= 2:
+            ks = [self.key_of_expr(x) for x in e.elts]
+            return Val('(' + ', '.join(k.text for k in ks) + ')', mk_prod(k.typ for k in ks))
+        return self.key_of(self.expr(e))
+
+    def key_of(self, v):
+        t = v.typ
+        ab = self.u.hooks.get('key_abstract', {}).get(t)
+        if ab:
+            return Val(f'({ab[0]} {_paren(v.text)})', ab[1])
+        if t in self._PLAIN:
+            return v
+        cls = self.u.class_of(t)
+        if cls:
+            inst = self.u.find(f'{cls}.__hash__', ())
+            return self.apply(inst, [v])
+        if t.startswith(('Opt ', 'List ', 'Set ')):
+            inner = t.split(' ', 1)[1]
+            k = self.key_of(Val('k', inner))
+            if k.text == 'k':
+                return v
+            if getattr(k, 'raises', False):
+                raise Unsupported(f'`__hash__` of {inner} may raise')
+            return Val(f'(({v.text}).map (fun k => {k.text}))', ('Opt ' if t.startswith('Opt ') else 'List ') + k.typ)
+        parts = self._parts(t)
+        if parts and len(parts) == 2:
+            ks = [self.key_of(Val(f'({v.text}).{i + 1}', p)) for i, p in enumerate(parts)]
+            return Val(f'({ks[0].text}, {ks[1].text})', mk_prod(k.typ for k in ks))
+        raise Unsupported(f'hash key of {t}')
+
+    # ---- the `geojson_doc` subset (SrcGeoJson, C14): dict displays, JSON values, exporters' keyword dictionaries ----------
+    # (every method below is reached only through the dispatchers gated on the unit hook `geojson_doc`)
+    def gj_stmt(self, s, rest):
+        if isinstance(s, ast.Return) and s.value is None:
+            return self.ret_value(ast.Constant(value=None))       # a bare `return` returns None
         if isinstance(s, ast.AugAssign) and isinstance(s.target, ast.Name) and isinstance(s.op, (ast.Add, ast.Sub, ast.Mult)):
             # `x += e` is `x = x + e`
             new = ast.Assign(targets=[s.target], value=ast.BinOp(left=ast.Name(id=s.target.id, ctx=ast.Load()), op=s.op, right=s.value))
             return self.assign(ast.copy_location(new, s), rest)
         if isinstance(s, ast.FunctionDef):
-            return self.local_def(s, rest)
+            return self.gj_local_def(s, rest)
+        if isinstance(s, ast.Assign) and len(s.targets) == 1 and isinstance(s.targets[0], ast.Subscript) \
+                and isinstance(s.targets[0].value, ast.Name) and s.targets[0].value.id in self.env \
+                and self.env[s.targets[0].value.id].typ == 'JObj':
+            return self.gj_assign_item(s.targets[0], self.expr(s.value, allow_raise=True), rest)
+        c = s.value if isinstance(s, ast.Expr) else None
+        if isinstance(c, ast.Call) and isinstance(c.func, ast.Attribute) and c.func.attr == 'append' and len(c.args) == 1 \
+                and isinstance(c.func.value, ast.Name) and c.func.value.id in self.env \
+                and self.env[c.func.value.id].typ.startswith('List '):
+            n = c.func.value.id
+            v = self.expr(c.args[0])
+            old = self.env[n]
+            if old.typ != 'List ' + v.typ:
+                raise Unsupported(f'append of {v.typ} to {old.typ}')
+            nm = self.gensym(lname(n))
+            self.env[n] = Val(nm, old.typ, path=n)
+            pend, self.pending = self.pending, []            # a raising call in the appended value is bound first
+            inner = f'let {nm} := ({old.text} ++ [{v.text}])\n' + self.block(rest)
+            self.pending = pend
+            return self.wrap(inner)
         return None
 
-    def local_def(self, s, rest):
+    def gj_local_def(self, s, rest):
         """a nested `def` that reads nothing but its own parameters (and module-level names): an auxiliary definition
         emitted before the function, like a loop; its parameter and result types are declared by the unit
-        (`hooks['local_fn']`)"""
-        hook = self.u.hooks.get('local_fn')
+        (`hooks['gj_local_fn']`)"""
+        hook = self.u.hooks.get('gj_local_fn')
         spec = hook(self.inst.qual, s.name) if hook else None
         if not spec or s.decorator_list:
             raise Unsupported(f'`{self.inst.qual}`: nested function `{s.name}` without declared types')
@@ -1369,7 +3945,7 @@ class FnTr:
         self.env[s.name] = v
         return self.block(rest)
 
-    def ret_with_state(self, v):
+    def gj_ret_with_state(self, v):
         """`return v` of a function that mutates some of its parameters (`Inst.state`): the result paired with the final
         values of those parameters"""
         parts = _prod_parts(self.inst.value_type)
@@ -1381,9 +3957,9 @@ class FnTr:
                              f'  Except.ok ({self.coerce(Val(nm, v.typ), want)}, {states})')
         return self.wrap(self.ok(f'({self.coerce(v, want)}, {states})'))
 
-    def assign_item(self, t, v, rest):
+    def gj_assign_item(self, t, v, rest):
         """`d[key] = value` on a *fresh* local dict (a display, `dict(…)`, `.copy()`): the dict with the key set"""
-        to_j = self.u.hooks.get('to_j')
+        to_j = self.u.hooks.get('gj_to_j')
         if not (to_j and isinstance(t.value, ast.Name) and t.value.id in self.env and self.env[t.value.id].typ == 'JObj'
                 and getattr(self.env[t.value.id], 'fresh_dict', False)):
             raise Unsupported(f'`{self.inst.qual}`: store into `{ast.unparse(t)}` (not a fresh local dict)')
@@ -1408,7 +3984,7 @@ class FnTr:
         self.pending = pend
         return self.wrap(inner)
 
-    def expr_bind(self, v):
+    def gj_bind(self, v):
         """the text of a value, binding it first if it may raise (hooks that compose several calls in evaluation order)"""
         if getattr(v, 'raises', False):
             if not self.inst.raises:
@@ -1418,12 +3994,12 @@ class FnTr:
             return name
         return v.text
 
-    def expr_more(self, e):
+    def gj_expr(self, e):
         """expression forms beyond the first subset; None = not one of them (the older rules apply)"""
         if isinstance(e, ast.Constant) and isinstance(e.value, str):
             return Val(_lean_str(e.value), 'Str')
         if isinstance(e, ast.Dict):
-            return self.dict_display(e)
+            return self.gj_dict_display(e)
         if isinstance(e, ast.BinOp) and isinstance(e.op, ast.BitXor):
             a, b = self.expr(e.left), self.expr(e.right)
             if a.typ == b.typ == 'Bool':
@@ -1477,17 +4053,17 @@ class FnTr:
             return None
         if isinstance(e, ast.BoolOp) and isinstance(e.op, ast.Or) and len(e.values) == 2 \
                 and all(isinstance(x, (ast.Name, ast.Attribute, ast.Dict, ast.Constant)) for x in e.values):
-            r = self.or_value(e)
+            r = self.gj_or_value(e)
             if r is not None:
                 return r
         if isinstance(e, ast.BoolOp) and isinstance(e.op, ast.Or) and len(e.values) == 2 and isinstance(e.values[1], ast.Dict) \
-                and not e.values[1].keys and 'or_dict' in self.u.hooks:
+                and not e.values[1].keys and 'gj_or_dict' in self.u.hooks:
             # `<call> or {}`
-            return self.u.hooks['or_dict'](self, self.expr(e.values[0]))
-        hook = self.u.hooks.get('expr')
+            return self.u.hooks['gj_or_dict'](self, self.expr(e.values[0]))
+        hook = self.u.hooks.get('gj_expr')
         return hook(self, e) if hook else None
 
-    def or_value(self, e):
+    def gj_or_value(self, e):
         """`a or b` used for its *value* (operands are not booleans): Python returns the first truthy operand, else the last"""
         try:
             a, b = self.expr(e.values[0]), self.expr(e.values[1])
@@ -1512,18 +4088,18 @@ class FnTr:
             return Val(f'(match {a.text} with | some {x} => some {x} | none => {bt})', a.typ)
         return None
 
-    def dict_display(self, e):
+    def gj_dict_display(self, e):
         """`{'k': v, **d, …}`: a dict with string keys, in insertion order (`GV.GeoJson.Obj`); a later key overrides an earlier
         one in place, as in Python; values are brought to JSON values by the unit's `to_j`"""
-        to_j = self.u.hooks.get('to_j')
+        to_j = self.u.hooks.get('gj_to_j')
         if not to_j:
             raise Unsupported(f'`{self.inst.qual}`: dict display `{ast.unparse(e)[:60]}`')
         acc = None
         for k, v in zip(e.keys, e.values):
             if k is None:
                 d = self.expr(v)
-                if d.typ != 'JObj' and 'as_dict' in self.u.hooks:
-                    d = self.u.hooks['as_dict'](self, d) or d
+                if d.typ != 'JObj' and 'gj_as_dict' in self.u.hooks:
+                    d = self.u.hooks['gj_as_dict'](self, d) or d
                 if d.typ != 'JObj':
                     raise Unsupported(f'`**` of {d.typ} in a dict display')
                 # `{**a, **b}` is the model's `oupdate a b`: a leading spread is a copy of that dict
@@ -1537,7 +4113,7 @@ class FnTr:
         r.fresh_dict = True
         return r
 
-    def call_more(self, e):
+    def gj_call(self, e):
         """calls beyond the first subset; None = not one of them"""
         f = e.func
         if isinstance(f, ast.Name) and not e.keywords:
@@ -1552,7 +4128,7 @@ class FnTr:
                 return v
             if f.id == 'sum' and len(e.args) == 1 and isinstance(e.args[0], (ast.GeneratorExp, ast.ListComp)) \
                     and len(e.args[0].generators) == 1 and not e.args[0].generators[0].ifs:
-                xs = self.map_comp(e.args[0].elt, e.args[0].generators[0])
+                xs = self.gj_map_comp(e.args[0].elt, e.args[0].generators[0])
                 if getattr(xs, 'raises', False) or xs.typ != 'List R':
                     raise Unsupported(f'sum() over {xs.typ}')
                 return Val(f'(({xs.text}).foldl (· + ·) 0)', 'R')          # Python's sum starts from the int 0
@@ -1560,7 +4136,7 @@ class FnTr:
                     and not e.args[0].args.defaults:
                 lam = e.args[0]
                 gen = ast.comprehension(target=ast.Name(id=lam.args.args[0].arg, ctx=ast.Store()), iter=e.args[1], ifs=[], is_async=0)
-                return self.map_comp(lam.body, gen)                         # consumed as a list (iteration order is the same)
+                return self.gj_map_comp(lam.body, gen)                         # consumed as a list (iteration order is the same)
             if f.id in ('list', 'tuple') and len(e.args) == 1:
                 v = self.expr(e.args[0], allow_raise=True)
                 if v.typ.startswith('List '):
@@ -1581,10 +4157,10 @@ class FnTr:
                 if v.typ == 'R':
                     return Val(f'(GV.absR {v.text})', 'R')
                 raise Unsupported(f'abs() of {v.typ}')
-        hook = self.u.hooks.get('call')
+        hook = self.u.hooks.get('gj_call')
         return hook(self, e) if hook else None
 
-    def map_comp(self, elt, gen):
+    def gj_map_comp(self, elt, gen):
         """`[f(x) for x in xs]` (also the body of `sum(…)` / `map(lambda …)`): `List.map`, or a left-to-right `mapE` in
         `Except` when `f` may raise"""
         tgt = gen.target
@@ -1592,8 +4168,8 @@ class FnTr:
         if not (isinstance(tgt, ast.Name) or pair) or gen.ifs:
             raise Unsupported(f'`{self.inst.qual}`: comprehension target `{ast.unparse(tgt)}`')
         xs = self.expr(gen.iter)
-        if not xs.typ.startswith('List ') and 'iter' in self.u.hooks:
-            xs = self.u.hooks['iter'](self, xs) or xs            # e.g. iteration over a JSON value
+        if not xs.typ.startswith('List ') and 'gj_iter' in self.u.hooks:
+            xs = self.u.hooks['gj_iter'](self, xs) or xs            # e.g. iteration over a JSON value
         if not xs.typ.startswith('List '):
             raise Unsupported(f'comprehension over {xs.typ}')
         x = self.gensym(lname(tgt.id) if not pair else 'pair')
@@ -1613,26 +4189,50 @@ class FnTr:
         self.fresh = inner.fresh
         if inner.pending:
             body = inner.wrap(f'Except.ok {_paren(v.text)}')
-            r = Val(f'(GV.Py.mapE (fun {x} => (show Except String {_ptype(lean_type(v.typ))} from\n{_indent(body, 4)})) {_paren(xs.text)})',
+            r = Val(f'(GV.Py.mapE (fun {x} => (show Except String {_parenw(lean_type(v.typ))} from\n{_indent(body, 4)})) {_paren(xs.text)})',
                     'List ' + v.typ)
             r.raises = True
             return r
         return Val(f'(({xs.text}).map (fun {x} => {v.text}))', 'List ' + v.typ)
 
 
-def _lean_str(s):
-    """a Lean string literal"""
-    out = []
-    for ch in s:
-        if ch in ('"', '\\'):
-            out.append('\\' + ch)
-        elif ch == '\n':
-            out.append('\\n')
-        elif 32 <= ord(ch) < 127:
-            out.append(ch)
-        else:
-            out.append('\\u{%x}' % ord(ch))
-    return '"' + ''.join(out) + '"'
+def _has_break(stmts):
+    """a `break` that belongs to this loop (not to a loop nested in its body)"""
+    for n in stmts:
+        if isinstance(n, ast.Break):
+            return True
+        if isinstance(n, (ast.For, ast.While)):
+            if _has_break(n.orelse):
+                return True
+            continue
+        for field in ('body', 'orelse'):
+            if _has_break([m for m in getattr(n, field, []) if isinstance(m, ast.stmt)]):
+                return True
+    return False
+
+
+def _same_type(a, b):
+    """equal type tags, where a pair of two `T` may be spelled `Pair T` (a tuple display) or `Prod T T` (an item of `zip`)"""
+    import re
+    norm = lambda t: re.sub(r'Pair (\w+)', r'Prod \1 \1', t)
+    return norm(a) == norm(b)
+
+
+def _int_const(n):
+    """the value of an integer literal (`1`, `-1`), else None"""
+    if isinstance(n, ast.Constant) and isinstance(n.value, int) and not isinstance(n.value, bool):
+        return n.value
+    if isinstance(n, ast.UnaryOp) and isinstance(n.op, ast.USub) and isinstance(n.operand, ast.Constant) \
+            and isinstance(n.operand.value, int) and not isinstance(n.operand.value, bool):
+        return -n.operand.value
+    return None
+
+
+def chars_literal(s):
+    """a Python str constant as a Lean `List Char` literal"""
+    def ch(c):
+        return f"'{c}'" if (c.isascii() and c.isprintable() and c not in "'\\") else f'(Char.ofNat {ord(c)})'
+    return '([' + ', '.join(ch(c) for c in s) + '] : List Char)'
 
 
 def _prod_parts(t):
@@ -1654,6 +4254,43 @@ def _prod_parts(t):
     return [p[1:-1] if p.startswith('(') and p.endswith(')') else p for p in parts]
 
 
+def _mutated_names(fn):
+    """names whose value is mutated in place somewhere in the function (method call or augmented assignment)"""
+    out = set()
+    for n in ast.walk(fn):
+        if isinstance(n, ast.Call) and isinstance(n.func, ast.Attribute) and isinstance(n.func.value, ast.Name) \
+                and n.func.attr in ('append', 'pop', 'add', 'extend', 'insert', 'remove', 'sort', 'reverse', 'clear', 'discard', 'update'):
+            out.add(n.func.value.id)
+        if isinstance(n, ast.AugAssign) and isinstance(n.target, ast.Name):
+            out.add(n.target.id)
+    return out
+
+
+def _cell_proj(text, i, n):
+    """component i of an n-tuple `a × (b × (c × …))`"""
+    return text + '.2' * i + ('.1' if i < n - 1 else '')
+
+
+def lean_ident(py):
+    """Lean name of a local class / nested function / dunder method: the Python name without its leading and trailing
+    underscores (a Lean name component that starts with `_` is an internal name)"""
+    return lname(py.strip('_') or py)
+
+
+def _mk_prod(a, b):
+    w = lambda t: f'({t})' if ' ' in t else t      # noqa: E731
+    return f'Prod {w(a)} {w(b)}'
+
+
+def _is_data(typ):
+    """plain data compared structurally by `==`: floats-as-rationals, ints, bools, points and tuples of them"""
+    if typ in ('R', 'Int', 'Bool', 'Pt', 'Dt', 'Td'):
+        return True
+    if typ.startswith('Prod '):
+        return all(_is_data(p) for p in _prod_parts(typ))
+    return False
+
+
 def _path(e):
     if isinstance(e, ast.Name):
         return e.id
@@ -1665,3 +4302,20 @@ def _path(e):
 
 def _indent(s, n=2):
     return textwrap.indent(s, ' ' * n)
+
+
+def _lean_str(s):
+    """a Lean string literal"""
+    out = []
+    for ch in s:
+        if ch in ('"', '\\'):
+            out.append('\\' + ch)
+        elif ch == '\n':
+            out.append('\\n')
+        elif ch == '\t':
+            out.append('\\t')
+        elif 32 <= ord(ch) < 127:
+            out.append(ch)
+        else:
+            out.append('\\u{%x}' % ord(ch))
+    return '"' + ''.join(out) + '"'
